@@ -1,37 +1,31 @@
-"""C13 — cars compose in order with documented precedence; provisioning mirrors templates (DESIGN.md section 4, C13)."""
+"""C13 — cars compose in order with documented precedence; provisioning mirrors templates (DESIGN.md section 4, C13).
+
+How the obligations are decided (hardening round 2): wherever the property speaks about VALUES (which variable wins, which paths in which order, which file lands where with
+which content, what is removed) the analysed functions are interpreted by `Sim` - a small interpreter over the parsed, normalised AST that lives in this module - in model worlds
+supplied by the rules (a team repository of ini files, template trees with recording models of os.walk / open / shutil / jinja2 / pathlib, a file system in which a removal can fail),
+and the resulting values / recorded operations are compared with what the property demands. No code of the repository is imported or executed. An extracted helper, a
+comprehension, a renamed local / attribute / parameter, a dict display instead of update calls, a guard clause: all compute the same values, so none of them is visible to a rule.
+What the interpreter cannot evaluate becomes an UNKNOWN value; statements that depend on one are havocked (their writes become unknown); a rule that needs an unknown value reports
+'not recognised' (chk.unknown, exit 2) - a falsified obligation always rests on KNOWN values that differ from the demanded ones. Where the property speaks about every possible
+value of user data (Rally's node variables cannot be overridden by ANY car / plugin variable) the merge order is analysed symbolically (DictFlow) and cross-checked on values."""
 from __future__ import annotations
 
 import ast
+import collections
+import itertools
+import operator
+import posixpath
 
 from sa import pat, source
 from sa.cfg import cfg_of, guards
 from sa.classes import is_logging_call
-from sa.source import AnchorMissing, arg_of, dotted, is_self_attr, last_attr, local_defs, params_of, short, u, walk_body
+from sa.minieval import CannotEval
+from sa.source import AnchorMissing, dotted, is_self_attr, last_attr, local_defs, params_of, short, u, walk_body
 
 _T = "esrally/mechanic/team.py"
 _P = "esrally/mechanic/provisioner.py"
 
 INTERNAL_KEYS = {"cluster_name", "node_name", "data_paths", "log_path", "network_host", "http_port", "transport_port", "install_root_path", "node_ip", "all_node_ips", "all_node_names"}
-
-
-def merges_into(func, target: str):
-    """program-ordered list of (source text, node) merged into dict variable `target`: d.update(src), d[k] = v, {**a, **b}, dict(a, **b)."""
-    g = cfg_of(func)
-    out = []
-    for n in walk_body(func):
-        if isinstance(n, ast.Call) and isinstance(n.func, ast.Attribute) and n.func.attr == "update" and u(n.func.value) == target and n.args:
-            out.append((u(n.args[0]), n))
-        elif isinstance(n, ast.Assign) and u(n.targets[0]) == target and isinstance(n.value, ast.Dict) and n.value.keys and all(k is None for k in n.value.keys):
-            for v in n.value.values:
-                out.append((u(v), n))
-        elif isinstance(n, ast.Return) and isinstance(n.value, ast.Dict) and n.value.keys and all(k is None for k in n.value.keys) and u(n.value) == target:
-            # `return {**a, **b}` (the returned expression itself is the merge; a `tmp = {...}; return tmp` pair is folded to this form at parse time)
-            for v in n.value.values:
-                out.append((u(v), n))
-        elif isinstance(n, ast.Assign) and isinstance(n.targets[0], ast.Subscript) and u(n.targets[0].value) == target:
-            out.append((f"[{u(n.targets[0].slice)}]", n))
-    out.sort(key=lambda x: (x[1].lineno, x[1].col_offset))
-    return out, g
 
 
 def assigns_to(func, name: str):
@@ -168,6 +162,11 @@ class DictFlow:
                 if kw:
                     out.append(Layer("rally", frozenset(kw), True, "dict(k=...)", e, vals=kw))
                 return out
+            if fn in ("collections.ChainMap", "ChainMap") and e.args and not e.keywords:
+                out = []
+                for a in reversed(e.args):  # the FIRST mapping of a ChainMap wins: it is the last layer
+                    out += self.layers(a, func, cls, depth + 1)
+                return out
             if isinstance(e.func, ast.Attribute) and e.func.attr == "copy" and not e.args:
                 return self.layers(e.func.value, func, cls, depth + 1)
             if isinstance(e.func, ast.Attribute) and not e.args and not e.keywords:
@@ -290,104 +289,2448 @@ def overridable(layers, keys, flow=None):
     return bad
 
 
-_SWALLOWS_OSERROR = ("OSError", "IOError", "EnvironmentError", "Exception", "BaseException")  # OSError, its aliases and its base classes (rmtree raises a plain OSError for a link)
+_LINK, _LINK_TARGET = "/data/on-the-big-disk", "/mnt/big/elasticsearch-data"
+_KEY_SYMLINK = f"{_P}:cleanup.delete_path:symlinked-data-path-removed-or-failure-reported"  # the construct the known finding F54 was recorded under (kept whatever the helper is called now)
 
 
-def symlinked_data_path_rule(chk, rid, pv, cu, data_param):
+def _removal_site(pv, cu):
+    calls = [x for f in [cu] + [f for f in pv.tree.body if isinstance(f, (ast.FunctionDef, ast.AsyncFunctionDef))] for x in ast.walk(f) if isinstance(x, ast.Call) and dotted(x.func) == "shutil.rmtree"]
+    inside = [x for x in calls if any(a is cu for a in source.ancestors(x))]
+    return (inside or calls or [cu])[0]
+
+
+def symlinked_data_path_rule(chk, rid, pv, cu, data_param=None):
     """cleanup removes ALL data paths: a data path is given by the user (car parameter data_paths) and may legally be a symbolic link to a directory on another disk. shutil.rmtree(<link>)
-    refuses with OSError('Cannot call rmtree on a symbolic link'). Necessary: wherever the tree removal receives the data path itself, either the link case is handled (the call is
-    only reached when the path is not a link and the link branch removes something or raises; or the path was resolved with realpath first), or the refusal is not swallowed (no handler
-    for OSError without re-raise around the call or around the helper's calls, no ignore_errors / contextlib.suppress) - otherwise cleanup returns normally with the data still there."""
-    own = [x for st in cu.body if not isinstance(st, (ast.FunctionDef, ast.AsyncFunctionDef, ast.ClassDef)) for x in source.walk_local(st)]
-    loops = [x for x in own if isinstance(x, ast.For) and u(x.iter) == data_param and isinstance(x.target, ast.Name)]
-    if not loops:
-        raise AnchorMissing("cleanup: loop over the data paths")
-    lv = loops[0].target.id
-    # the code that removes ONE data path, by role: the callee that receives the loop variable (a nested or module-level helper), else the loop body itself
-    hcalls = [x for x in ast.walk(loops[0]) if isinstance(x, ast.Call) and isinstance(x.func, ast.Name) and any(isinstance(a, ast.Name) and a.id == lv for a in x.args)]
-    helper, hparam = None, None
-    for c in hcalls:
-        cand = [n for n in cu.body if isinstance(n, ast.FunctionDef) and n.name == c.func.id] or [n for n in pv.tree.body if isinstance(n, ast.FunctionDef) and n.name == c.func.id]
-        if cand:
-            b = source.bind_args(c, cand[0], skip_self=False)
-            ps = [k for k, v in b.items() if isinstance(v, ast.Name) and v.id == lv]
-            if ps:
-                helper, hparam = cand[0], ps[0]
-                break
-    scope, pathv = (helper, hparam) if helper is not None else (loops[0], lv)
-    rm = [x for x in ast.walk(scope) if isinstance(x, ast.Call) and dotted(x.func) == "shutil.rmtree" and x.args]
-    if not rm:
-        raise AnchorMissing("cleanup: the shutil.rmtree call that removes one data path")
-    hdefs = local_defs(helper) if helper is not None else {}
-    g = cfg_of(helper if helper is not None else cu)
-    pb = {"p": pathv}
-    LINK = ("os.path.islink(V_p)", "pathlib.Path(V_p).is_symlink()", "Path(V_p).is_symlink()", "V_p.is_symlink()")
-    resolved = [n for n in ast.walk(scope) if isinstance(n, ast.Assign) and len(n.targets) == 1 and isinstance(n.targets[0], ast.Name) and n.targets[0].id == pathv
-                and pat.is_(n.value, "os.path.realpath(V_p)", "pathlib.Path(V_p).resolve()", "Path(V_p).resolve()", "V_p.resolve()", binds=pb)]
-    bad = []
-    for r in rm:
-        arg = source.inline_node(r.args[0], {k: v for k, v in hdefs.items() if k != pathv})
-        on_link_itself = isinstance(arg, ast.Name) and arg.id == pathv  # anything else (realpath(p), an entry below p, ...) is not the user's link
-        if not on_link_itself:
-            continue
-        if any(g.path_exists(g.node_of(a), g.node_of(r)) and not g.path_exists(g.node_of(r), g.node_of(a)) for a in resolved):
-            # `p = os.path.realpath(p)` runs before the removal; when it is conditional its condition must be the link test
-            if all(not pat.fact_nodes(a, stop=scope) or any(pat.is_(f, *LINK, binds=pb) for f in pat.fact_nodes(a, stop=scope)) for a in resolved):
-                continue
-        not_link = any(pat.is_(f, *[f"not {p_}" for p_ in LINK], binds=pb) for f in pat.fact_nodes(r, stop=scope))
-        link_arm = [x for x in ast.walk(scope) if ((isinstance(x, ast.Call) and dotted(x.func) in ("shutil.rmtree", "os.remove", "os.unlink", "os.rmdir")) or isinstance(x, ast.Raise)) and x is not r
-                    and any(pat.is_(f, *LINK, binds=pb) for f in pat.fact_nodes(x, stop=scope))]
-        handled = not_link and bool(link_arm)
-        if handled:
-            continue
-        # the refusal must then surface: look for whatever swallows an OSError of this call
-        sw = None
-        if any(k.arg in ("ignore_errors", "onerror", "onexc") for k in r.keywords) and not any(k.arg == "ignore_errors" and source.is_const(k.value, False) for k in r.keywords):
-            sw = r
-        sites = [r] + ([c for c in ast.walk(cu) if isinstance(c, ast.Call) and isinstance(c.func, ast.Name) and c.func.id == helper.name] if helper is not None else [])
-        for s_ in sites:
-            child = s_
-            for a in source.ancestors(s_):
-                if isinstance(a, (ast.FunctionDef, ast.AsyncFunctionDef)):
-                    break
-                if isinstance(a, ast.Try) and any(child is st for st in a.body):
-                    for h in a.handlers:
-                        names = [dotted(e_) or "?" for e_ in (h.type.elts if isinstance(h.type, ast.Tuple) else [h.type])] if h.type is not None else ["BaseException"]
-                        if any(nm.split(".")[-1] in _SWALLOWS_OSERROR for nm in names) and not any(isinstance(x, ast.Raise) for x in ast.walk(h)):
-                            sw = sw or h
-                if isinstance(a, (ast.With, ast.AsyncWith)) and any(isinstance(i.context_expr, ast.Call) and last_attr(i.context_expr.func) == "suppress" for i in a.items):
-                    sw = sw or a
-                child = a
-        if sw is not None:
-            bad.append((r, sw))
-    tag = source.qualname(helper) if helper is not None else source.qualname(cu)
-    chk.ob(rid, "cleanup: a data path that is a symbolic link to a directory is removed as well, or the refusal of the tree removal is reported (not swallowed)", not bad, bad[0][0] if bad else rm[0],
-           "" if not bad else f"`{short(bad[0][0], 40)}` receives the data path itself; for a symbolic link to a directory (data_paths on another disk) it raises OSError('Cannot call rmtree on a symbolic link'), "
-           f"which {'the handler at line ' + str(bad[0][1].lineno) if isinstance(bad[0][1], ast.ExceptHandler) else short(bad[0][1], 40)} swallows: cleanup returns normally, the data survives into the next race",
-           key=f"{_P}:{tag}:symlinked-data-path-removed-or-failure-reported")
+    refuses with OSError('Cannot call rmtree on a symbolic link'). Decided on VALUES: cleanup is interpreted over a model file system in which one data path is such a link (islink is
+    true for it, realpath gives its target, rmtree of the link itself fails with OSError, unlink / remove of the link works). Necessary: the link is dealt with (the link is unlinked, or
+    the tree it points to is removed) or the refusal surfaces (cleanup raises) - if cleanup returns normally and nothing was removed for that data path, the data survives silently."""
+    install, data = "/node/install", ["/data/one", _LINK]
+    events, sim, raised = _simulate_cleanup(chk.repo, pv, cu, False, install, data, links={_LINK: _LINK_TARGET})
+    text = "cleanup: a data path that is a symbolic link to a directory is removed as well, or the refusal of the tree removal is reported (not swallowed)"
+    at = _removal_site(pv, cu)
+    handled = [(k, p) for k, p in events if isinstance(p, str) and ((k == "tree" and (p == _LINK_TARGET or p.startswith(_LINK_TARGET + "/") or p.startswith(_LINK + "/"))) or (k in ("unlink", "file") and p == _LINK))]
+    blind = sim.notes or _relevant_unknown(sim, data + [install, _LINK_TARGET]) or any(not isinstance(p, str) for _, p in events)
+    if raised is not None or handled:
+        chk.ob(rid, text, True, at, "the refusal is reported" if raised is not None else f"model: {handled[0]!r}", key=_KEY_SYMLINK)
+    elif blind:
+        chk.unknown(rid, f"{text}: nothing was seen to be removed for the link, but the run was not fully interpreted ({_why(sim)})", at)
+    else:
+        chk.ob(rid, text, False, at, f"model cleanup(preserve=False, {install!r}, {data!r}) where `{_LINK}` is a symbolic link to the directory `{_LINK_TARGET}` (data_paths on another disk): the tree removal of the "
+               f"link itself raises OSError('Cannot call rmtree on a symbolic link'), nothing else is done for it ({[p for _, p in events]!r} removed) and cleanup returns normally: the failure is swallowed, "
+               "the data survives into the next race", key=_KEY_SYMLINK)
 
 
 def cleanup_isolation_rule(chk, rid, pv):
-    """provisioner.cleanup: a path that cannot be deleted (OSError) does not stop the deletion of the remaining data paths and of the installation — either the removal call is
-    protected for ONE path at a time (try/except OSError inside the helper / inside the loop body), or nothing in the function catches OSError at all (the failure is then reported,
-    not swallowed). A try that spans the loop or several delete calls swallows the first failure together with all later deletions. Shared with C12 (clean up unless preserve)."""
+    """provisioner.cleanup: a path that cannot be deleted (OSError) does not stop the deletion of the remaining data paths and of the installation - or the failure is reported (cleanup
+    raises), not swallowed. Decided on VALUES: cleanup is interpreted over a model file system in which the removal of the FIRST data path fails with OSError; afterwards every other
+    data path and the installation have been removed, or cleanup has raised. A try that spans the loop or several delete calls swallows the first failure together with all later
+    deletions: cleanup returns normally and the rest is still there. Shared with C12 (clean up unless preserve)."""
     cu = pv.func("cleanup")
-    cpar = params_of(cu)
-    rms = [x for x in ast.walk(cu) if isinstance(x, ast.Call) and dotted(x.func) in ("shutil.rmtree", "os.remove", "os.rmdir", "os.unlink")]
-    dels = [x for x in ast.walk(cu) if isinstance(x, ast.Call) and last_attr(x.func) in ("delete_path", "rmtree") and x not in rms]
-    swallowing = [t for t in ast.walk(cu) if isinstance(t, ast.Try) and any((h.type is None or any(nm in (dotted(e_) or "") for e_ in (h.type.elts if isinstance(h.type, ast.Tuple) else [h.type])
-                  for nm in ("OSError", "Exception", "BaseException", "IOError"))) and not any(isinstance(x, ast.Raise) for x in ast.walk(h)) for h in t.handlers)]
-    bad = []
-    for t in swallowing:
-        inside = [x for st in t.body for x in ast.walk(st)]
-        n_sites = sum(1 for x in inside if x in dels or x in rms)
-        spans_loop = any(isinstance(x, (ast.For, ast.While)) and any(y in dels or y in rms for y in ast.walk(x)) for x in inside)
-        if spans_loop or n_sites > 1:
-            bad.append(t)
-    chk.ob(rid, "cleanup: a failing deletion is contained per path (no handler swallows it together with the remaining deletions)", bool(rms or dels) and not bad, bad[0] if bad else cu,
-           "" if not bad else f"the try at line {bad[0].lineno} spans {'the loop over the data paths' if any(isinstance(x, (ast.For, ast.While)) for st in bad[0].body for x in ast.walk(st)) else 'several deletions'}: "
-           "the first path that cannot be removed leaves every later data path and the installation on disk while cleanup returns normally",
-           key="esrally/mechanic/provisioner.py:cleanup:failure-contained-per-path")
+    if len(params_of(cu)) < 3:
+        raise AnchorMissing("cleanup(preserve, install_dir, data_paths)")
+    install, data = "/node/install", ["/data/one", "/node/install/es/data", "/data/two"]
+    events, sim, raised = _simulate_cleanup(chk.repo, pv, cu, False, install, data, undeletable=(data[0],))
+    text = "cleanup: a failing deletion is contained per path (no handler swallows it together with the remaining deletions)"
+    key = "esrally/mechanic/provisioner.py:cleanup:failure-contained-per-path"
+    removed = [p for _, p in events]
+    rest = [p for p in data[1:] + [install] if p not in [q for q in removed if isinstance(q, str)]]
+    tries = [t for t in ast.walk(cu) if isinstance(t, ast.Try)]
+    blind = sim.notes or _relevant_unknown(sim, data + [install]) or any(not isinstance(p, str) for p in removed)
+    if raised is not None or not rest:
+        chk.ob(rid, text, True, cu, "the failure is reported" if raised is not None else "", key=key)
+    elif blind:
+        chk.unknown(rid, f"{text}: no removal of {rest} was seen after the failure, but the run was not fully interpreted ({_why(sim)})", cu)
+    else:
+        chk.ob(rid, text, False, tries[0] if tries else cu, f"model cleanup(preserve=False, {install!r}, {data!r}) where `{data[0]}` cannot be removed (OSError): cleanup returns normally, "
+               f"only {removed!r} removed - the first path that cannot be removed leaves {rest!r} on disk while cleanup returns normally", key=key)
+
+
+# =====================================================================================================================================================================
+# Value simulation (local helper, a candidate for sa/): the statements of the analysed functions are INTERPRETED over representative values instead of being matched by shape.
+# Nothing of the repository is imported or run: the interpreter walks the parsed (normalised) AST. Calls into functions / methods / classes of the repository are followed
+# (an extracted helper, a comprehension, an accumulator in another spelling all compute the same values), the outside world (file system, configparser, os.walk, shutil, ...) is a
+# small model supplied by the rule, and whatever is not modelled evaluates to an UNKNOWN value: a statement whose effect depends on an unknown value is "havocked" (every name it
+# binds becomes unknown, every object it may change becomes tainted). A rule then inspects the resulting values: a value that is unknown means "shape not recognised"
+# (chk.unknown), never a falsified obligation; a KNOWN value that differs from what the property demands is a located defect.
+
+
+class _OpaqueT:
+    def __repr__(self):
+        return "<?>"
+
+    def __bool__(self):  # python builtins (filter, any, sorted, `in`) must never decide anything on an unknown value
+        raise CannotEval("truth of an unknown value")
+
+    def __eq__(self, other):
+        raise CannotEval("comparison with an unknown value")
+
+    def __hash__(self):
+        return 7
+
+
+OPAQUE = _OpaqueT()  # a value the model knows nothing about
+
+
+class _LoggerT:
+    def __repr__(self):
+        return "<logger>"
+
+
+LOGGER = _LoggerT()  # the value of logging.getLogger(...): calls on it have no effect on anything
+
+
+class Native:
+    """base of the model objects of the outside world (public python methods are callable from interpreted code)."""
+    _raw = True  # constructing one with an unknown argument still gives a model object
+
+
+class Obj:
+    """instance of a class of the repository."""
+    __slots__ = ("cls", "fields")
+
+    def __init__(self, cls):
+        self.cls, self.fields = cls, {}
+
+    def __repr__(self):
+        return f"<{self.cls.node.name} {self.fields}>"
+
+
+class ClassRef:
+    __slots__ = ("node", "mod", "env")
+
+    def __init__(self, node, mod, env=None):
+        self.node, self.mod, self.env = node, mod, env
+
+
+class Fn:
+    __slots__ = ("node", "mod", "env", "self_", "cls")
+
+    def __init__(self, node, mod, env=None, self_=None, cls=None):
+        self.node, self.mod, self.env, self.self_, self.cls = node, mod, env, self_, cls
+
+
+class ModRef:
+    __slots__ = ("name",)
+
+    def __init__(self, name):
+        self.name = name
+
+
+class _BoundM:
+    """method of a builtin container / string, bound to its receiver (so that the call can decide what an unknown argument does to the receiver)."""
+    __slots__ = ("recv", "name")
+
+    def __init__(self, recv, name):
+        self.recv, self.name = recv, name
+
+
+class _Return(Exception):
+    def __init__(self, value):
+        self.value = value
+
+
+class Raised(Exception):
+    """the interpreted code raised (node: the raise / assert statement, or the expression in which the model world failed); exc: name of the exception class, None if unknown."""
+
+    def __init__(self, node, exc=None):
+        self.node, self.exc = node, exc
+
+
+class ModelError(Exception):
+    """raised by a model function of the outside world: the modelled call fails with the named builtin exception (shutil.rmtree on a symbolic link -> OSError)."""
+
+    def __init__(self, exc):
+        self.exc = exc
+
+
+_EXC_ALIASES = {"IOError": "OSError", "EnvironmentError": "OSError"}
+_EXC_PARENT = {"KeyError": "LookupError", "IndexError": "LookupError", "LookupError": "Exception", "ValueError": "Exception", "UnicodeError": "ValueError", "UnicodeDecodeError": "UnicodeError",
+               "OSError": "Exception", "FileNotFoundError": "OSError", "FileExistsError": "OSError", "PermissionError": "OSError", "NotADirectoryError": "OSError", "IsADirectoryError": "OSError",
+               "TimeoutError": "OSError", "TypeError": "Exception", "AttributeError": "Exception", "AssertionError": "Exception", "RuntimeError": "Exception", "NotImplementedError": "RuntimeError",
+               "StopIteration": "Exception", "ArithmeticError": "Exception", "ZeroDivisionError": "ArithmeticError", "Exception": "BaseException", "KeyboardInterrupt": "BaseException",
+               "SystemExit": "BaseException", "BaseException": None}
+
+
+def _handler_catches(h, exc):
+    """True / False / None (undecidable): does `except <h.type>` catch an exception of the class named exc?"""
+    if h.type is None:
+        return True
+    names = [(dotted(t) or "?").split(".")[-1] for t in (h.type.elts if isinstance(h.type, ast.Tuple) else [h.type])]
+    names = [_EXC_ALIASES.get(n, n) for n in names]
+    if exc is None:
+        return True if "BaseException" in names else None
+    exc = _EXC_ALIASES.get(exc, exc)
+    if exc in _EXC_PARENT:  # a builtin exception: its ancestry is known, classes of the repository never catch it
+        chain, c = [], exc
+        while c is not None:
+            chain.append(c)
+            c = _EXC_PARENT.get(c)
+        return any(n in chain for n in names)
+    if exc in names or "Exception" in names or "BaseException" in names:
+        return True
+    return None  # an exception class of the repository and a handler for another class: it may be a base class
+
+
+class _Break(Exception):
+    pass
+
+
+class _Continue(Exception):
+    pass
+
+
+class _Budget(CannotEval):
+    pass
+
+
+class Env:
+    __slots__ = ("vars", "parent", "mod", "cls")
+
+    def __init__(self, mod, parent=None, cls=None, vars=None):
+        self.vars, self.parent, self.mod, self.cls = vars if vars is not None else {}, parent, mod, cls
+
+    def find(self, name):
+        e = self
+        while e is not None:
+            if name in e.vars:
+                return e
+            e = e.parent
+        return None
+
+
+_MISSING = object()
+_MUTABLE = (list, dict, set, Obj, Native, collections.ChainMap)
+_SAFE_ERRORS = (KeyError, IndexError, ValueError, TypeError, AttributeError, StopIteration, ZeroDivisionError, RecursionError, OverflowError)
+_BINOPS = {ast.Add: operator.add, ast.Sub: operator.sub, ast.Mult: operator.mul, ast.Div: operator.truediv, ast.FloorDiv: operator.floordiv, ast.Mod: operator.mod, ast.Pow: operator.pow,
+           ast.BitOr: operator.or_, ast.BitAnd: operator.and_, ast.BitXor: operator.xor}
+_IOPS = {ast.Add: operator.iadd, ast.Sub: operator.isub, ast.Mult: operator.imul, ast.Div: operator.itruediv, ast.FloorDiv: operator.ifloordiv, ast.Mod: operator.imod, ast.Pow: operator.ipow,
+         ast.BitOr: operator.ior, ast.BitAnd: operator.iand, ast.BitXor: operator.ixor}
+_CMPOPS = {ast.Eq: operator.eq, ast.NotEq: operator.ne, ast.Lt: operator.lt, ast.LtE: operator.le, ast.Gt: operator.gt, ast.GtE: operator.ge}
+# methods of builtin containers that change the receiver / that store an argument as an element (an unknown element is still a known container)
+_MUTATORS = {"append", "extend", "insert", "pop", "remove", "sort", "reverse", "clear", "update", "setdefault", "popitem", "add", "discard", "difference_update", "intersection_update",
+             "symmetric_difference_update", "appendleft", "extendleft", "move_to_end"}
+_STORES_ELEMENT = {"append", "insert", "add", "appendleft"}
+_PURE_BUILTINS = {"len": len, "str": str, "int": int, "float": float, "bool": bool, "list": list, "tuple": tuple, "set": set, "frozenset": frozenset, "dict": dict, "sorted": sorted,
+                  "reversed": reversed, "enumerate": enumerate, "zip": zip, "range": range, "min": min, "max": max, "sum": sum, "any": any, "all": all, "filter": filter, "map": map,
+                  "iter": iter, "next": next, "repr": repr, "abs": abs, "round": round, "bytes": bytes, "object": object, "slice": slice, "divmod": divmod, "ord": ord, "chr": chr}
+_TYPES = (str, int, float, bool, list, tuple, set, frozenset, dict, bytes, object)
+
+
+def _ordered(v):
+    """deterministic iteration order for sets (Python's own depends on the hash seed): an order that is unlikely to coincide with any meaningful one."""
+    return sorted(v, key=repr, reverse=True) if isinstance(v, (set, frozenset)) else v
+
+
+_PURE_EXTERNALS = {
+    "os.path.join": posixpath.join, "os.path.basename": posixpath.basename, "os.path.dirname": posixpath.dirname, "os.path.split": posixpath.split, "os.path.splitext": posixpath.splitext,
+    "os.path.normpath": posixpath.normpath, "os.path.relpath": posixpath.relpath, "os.path.isabs": posixpath.isabs, "os.path.commonprefix": posixpath.commonprefix,
+    "posixpath.join": posixpath.join, "itertools.chain": itertools.chain, "itertools.chain.from_iterable": itertools.chain.from_iterable,
+    "collections.OrderedDict": collections.OrderedDict, "collections.ChainMap": collections.ChainMap, "logging.getLogger": lambda *a, **k: LOGGER,
+    "copy.copy": lambda v: _plain_copy(v, False), "copy.deepcopy": lambda v, *a: _plain_copy(v, True), "os.fspath": lambda v: v if isinstance(v, str) else OPAQUE,
+}
+
+
+def _plain_copy(v, deep):
+    """copy.copy / copy.deepcopy of plain containers (model objects carry AST nodes: those are never copied)."""
+    import copy
+
+    def plain(x, d=0):
+        return d < 8 and (x is None or isinstance(x, (str, int, float, bool, bytes)) or (isinstance(x, (list, tuple, set, frozenset)) and all(plain(y, d + 1) for y in x))
+                          or (isinstance(x, dict) and all(plain(k, d + 1) and plain(y, d + 1) for k, y in x.items())))
+    if deep:
+        return copy.deepcopy(v) if plain(v) else OPAQUE
+    return copy.copy(v) if isinstance(v, (list, dict, set, tuple, frozenset, str, int, float, bool, bytes)) or v is None else OPAQUE
+
+
+
+class _PPath(Native):
+    """pathlib.Path over the model world of a simulation: pure operations are computed on the path text, operations that touch the file system go to the model functions
+    (os.path.exists, os.makedirs, open, os.unlink, ...) the rule supplied - whatever the rule did not model is 'not recognised'."""
+
+    def __init__(self, world, *parts):
+        if not all(isinstance(x, (str, _PPath)) for x in parts):
+            raise CannotEval("pathlib.Path of an unknown value")
+        self._world, self._s = world, (posixpath.join(*[str(x) for x in parts]) if parts else ".")
+
+    def __str__(self):
+        return self._s
+
+    def __fspath__(self):
+        return self._s
+
+    def __repr__(self):
+        return f"Path({self._s!r})"
+
+    def __eq__(self, other):
+        return isinstance(other, _PPath) and other._s == self._s
+
+    def __hash__(self):
+        return hash(self._s)
+
+    def __truediv__(self, other):
+        return _PPath(self._world, self, other)
+
+    def __rtruediv__(self, other):
+        return _PPath(self._world, other, self)
+
+    def _w(self, name, *a, **k):
+        if name not in self._world:
+            raise CannotEval(f"{name} is not part of the model world")
+        return self._world[name](*a, **k)
+
+    name = property(lambda self: posixpath.basename(self._s))
+    parent = property(lambda self: _PPath(self._world, posixpath.dirname(self._s) or "."))
+    suffix = property(lambda self: posixpath.splitext(self._s)[1])
+    stem = property(lambda self: posixpath.splitext(posixpath.basename(self._s))[0])
+    parts = property(lambda self: tuple(x for x in self._s.split("/") if x))
+
+    def joinpath(self, *others):
+        return _PPath(self._world, self, *others)
+
+    def with_name(self, name):
+        return _PPath(self._world, posixpath.dirname(self._s), name)
+
+    def with_suffix(self, suffix):
+        return _PPath(self._world, posixpath.splitext(self._s)[0] + suffix)
+
+    def relative_to(self, other):
+        return _PPath(self._world, posixpath.relpath(self._s, str(other)))
+
+    def is_absolute(self):
+        return self._s.startswith("/")
+
+    def as_posix(self):
+        return self._s
+
+    def exists(self):
+        return self._w("os.path.exists", self._s)
+
+    def is_dir(self):
+        return self._w("os.path.isdir", self._s)
+
+    def is_file(self):
+        return self._w("os.path.isfile", self._s)
+
+    def is_symlink(self):
+        return self._w("os.path.islink", self._s)
+
+    def resolve(self, *a, **k):
+        return _PPath(self._world, self._w("os.path.realpath", self._s))
+
+    def mkdir(self, *a, **k):
+        return self._w("os.makedirs", self._s)
+
+    def open(self, mode="r", *a, **k):
+        return self._w("open", self._s, mode)
+
+    def write_text(self, text, *a, **k):
+        self._w("open", self._s, "w").write(text)
+
+    def unlink(self, *a, **k):
+        return self._w("os.unlink", self._s)
+
+    def rmdir(self):
+        return self._w("os.rmdir", self._s)
+
+
+class _Suppress(Native):
+    """contextlib.suppress(<exception classes>)."""
+
+    def __init__(self, *classes):
+        self.names = [c.name.split(".")[-1] if isinstance(c, ModRef) else None for c in classes]
+
+
+class Sim:
+    def __init__(self, repo, externals=None, overrides=None, silent_prefixes=("esrally.utils.console.", "logging."), follow=("esrally.utils.io.",), budget=60000):
+        self.repo = repo
+        self.follow = tuple(follow)  # other modules of the repository whose functions are interpreted as well (everything else outside the analysed module is unknown)
+        self.ext = dict(_PURE_EXTERNALS)
+        self.ext.update(externals or {})
+        for n in ("pathlib.Path", "pathlib.PurePath", "pathlib.PosixPath", "pathlib.PurePosixPath"):
+            self.ext.setdefault(n, self._path)
+        self.ext.setdefault("contextlib.suppress", _Suppress)
+        self.over = overrides or {}  # qualified name of a repository function -> python callable(*values) used instead of interpreting it
+        self.silent = tuple(silent_prefixes)  # external calls that only print / log: no effect, nothing tainted
+        self.tainted: dict = {}  # id -> object whose content is unknown (kept alive so that ids stay unique)
+        self.budget = budget
+        self.notes: list = []  # (statement, reason) of every havocked statement, for diagnostics
+        self.unknown_calls: list = []  # argument values of every call the model knows nothing about
+        self.assumed: list = []  # guard clauses with an undecidable test that only raise: assumed not taken
+        self.handling: list = []  # the exceptions whose handlers are being executed (innermost last)
+        self.depth = 0
+        self._modenv: dict = {}
+
+    def _path(self, *parts):
+        return _PPath(self.ext, *parts)
+
+    _path._raw = True  # type: ignore[attr-defined]
+
+    # ---- unknown values ---------------------------------------------------------------------------------------------------------------------------------------------
+    def unknown(self, v) -> bool:
+        return v is OPAQUE or id(v) in self.tainted
+
+    def taint(self, v):
+        if isinstance(v, _MUTABLE):
+            self.tainted[id(v)] = v
+
+    def known(self, v, depth=0) -> bool:
+        """the value is known through and through (containers, fields of objects)."""
+        if self.unknown(v) or depth > 8:
+            return False
+        if isinstance(v, dict):
+            return all(self.known(k, depth + 1) and self.known(x, depth + 1) for k, x in v.items())
+        if isinstance(v, (list, tuple, set, frozenset)):
+            return all(self.known(x, depth + 1) for x in v)
+        return True
+
+    def tick(self, n=1):
+        self.budget -= n
+        if self.budget < 0:
+            raise _Budget("simulation budget exhausted")
+
+    def truth(self, v) -> bool:
+        if self.unknown(v):
+            raise CannotEval("truth of an unknown value")
+        if isinstance(v, (Obj, Fn, ClassRef, ModRef, _LoggerT)):
+            return True
+        try:
+            return bool(v)
+        except _SAFE_ERRORS as x:
+            raise CannotEval(f"truth: {type(x).__name__}")
+
+    def iterate(self, v):
+        if self.unknown(v):
+            raise CannotEval("iteration over an unknown value")
+        if isinstance(v, (Obj, Fn, ClassRef, ModRef, _LoggerT)) or v is None or isinstance(v, (int, float, bool)):
+            raise CannotEval("iteration over a non-iterable model value")
+        try:
+            return iter(_ordered(v))
+        except _SAFE_ERRORS as x:
+            raise CannotEval(f"iteration: {type(x).__name__}")
+
+    def py(self, v):
+        """a repository function handed to a python builtin (sorted key, filter predicate, ...)."""
+        if isinstance(v, Fn):
+            return lambda *a, **k: self.invoke(v, list(a), k)
+        if isinstance(v, ClassRef):
+            return lambda *a, **k: self.construct(v, list(a), k)
+        if isinstance(v, _BoundM):
+            return lambda *a, **k: self.container_call(v.recv, v.name, list(a), k)
+        return v
+
+    # ---- names --------------------------------------------------------------------------------------------------------------------------------------------------------
+    def module_env(self, mod) -> Env:
+        if mod.relpath not in self._modenv:
+            self._modenv[mod.relpath] = Env(mod)
+        return self._modenv[mod.relpath]
+
+    def module_name(self, mod, name):
+        me = self.module_env(mod)
+        if name in me.vars:
+            return me.vars[name]
+        v = _MISSING
+        for st in mod.tree.body:
+            if isinstance(st, (ast.FunctionDef, ast.AsyncFunctionDef)) and st.name == name:
+                v = Fn(st, mod)
+            elif isinstance(st, ast.ClassDef) and st.name == name:
+                v = ClassRef(st, mod)
+            elif isinstance(st, ast.Assign) and any(isinstance(t, ast.Name) and t.id == name for t in st.targets):
+                me.vars[name] = OPAQUE  # cycles
+                try:
+                    v = self.eval(st.value, me)
+                except CannotEval:
+                    v = OPAQUE
+        if v is _MISSING and name in mod.imports:
+            v = ModRef(mod.imports[name])
+        if v is not _MISSING:
+            me.vars[name] = v
+        return v
+
+    def name(self, id_, env):
+        e = env.find(id_)
+        if e is not None:
+            return e.vars[id_]
+        v = self.module_name(env.mod, id_)
+        if v is not _MISSING:
+            return v
+        if id_ in _PURE_BUILTINS:
+            return _PURE_BUILTINS[id_]
+        if id_ in ("isinstance", "print", "getattr", "hasattr", "type", "callable", "id", "hash", "super", "open", "vars", "setattr", "issubclass", "format", "input", "exec", "eval"):
+            return self.ext.get(id_, ModRef(id_))
+        if id_ in ("Exception", "BaseException", "ValueError", "KeyError", "TypeError", "OSError", "IOError", "RuntimeError", "AssertionError", "NotImplementedError", "StopIteration",
+                   "AttributeError", "IndexError", "FileNotFoundError", "NotImplemented", "Ellipsis", "__name__", "__file__"):
+            return ModRef("builtins." + id_)
+        raise CannotEval(f"unbound name {id_}")
+
+    def resolve(self, ref: ModRef):
+        """a dotted external name: a model function of the rule, a function / class of another module of the repository, or itself (unknown to the model)."""
+        if ref.name in self.ext:
+            return self.ext[ref.name]
+        if ref.name.startswith(self.follow):
+            parts = ref.name.split(".")
+            for i in range(len(parts) - 1, 0, -1):
+                rel = "/".join(parts[:i]) + ".py"
+                if not self.repo.exists(rel) and self.repo.exists("/".join(parts[:i]) + "/__init__.py"):
+                    rel = "/".join(parts[:i]) + "/__init__.py"
+                if self.repo.exists(rel):
+                    try:
+                        mod = self.repo.module(rel)
+                    except AnchorMissing:
+                        return ref
+                    v = self.module_name(mod, parts[i])
+                    for attr in parts[i + 1:]:
+                        if v is _MISSING:
+                            break
+                        try:
+                            v = self.getattr(v, attr)
+                        except CannotEval:
+                            v = _MISSING
+                    return ref if v is _MISSING or isinstance(v, ModRef) else v
+        return ref
+
+    # ---- calls ----------------------------------------------------------------------------------------------------------------------------------------------------------
+    def unknown_call(self, args, kwargs, recv=None):
+        """a call the model knows nothing about: its result is unknown and it may have changed every mutable object it received."""
+        for a in list(args) + list(kwargs.values()) + ([recv] if recv is not None else []):
+            self.taint(a)
+        self.unknown_calls.append(list(args) + list(kwargs.values()))
+        return OPAQUE
+
+    def call_value(self, f, args, kwargs):
+        self.tick()
+        if isinstance(f, ModRef):
+            if f.name.startswith(self.silent) and f.name not in self.ext:
+                return None
+            r = self.resolve(f)
+            if isinstance(r, ModRef):
+                if r.name == "isinstance" and len(args) == 2:
+                    return self.isinstance_(args[0], args[1])
+                if r.name == "print":
+                    return None
+                if r.name in ("type", "id", "hash", "callable", "hasattr", "getattr", "issubclass", "vars", "format"):
+                    return OPAQUE
+                return self.unknown_call(args, kwargs)
+            f = r
+        if isinstance(f, Fn):
+            return self.invoke(f, args, kwargs)
+        if isinstance(f, ClassRef):
+            return self.construct(f, args, kwargs)
+        if isinstance(f, _BoundM):
+            return self.container_call(f.recv, f.name, args, kwargs)
+        if f is _noop:
+            return None
+        if f is OPAQUE or isinstance(f, (Obj, _LoggerT)) or not callable(f):
+            return self.unknown_call(args, kwargs)
+        # a python callable: a pure builtin, a model function of the rule, a public method of a model object
+        raw = getattr(f, "_raw", False)
+        if not raw and any(self.unknown(a) for a in list(args) + list(kwargs.values())):
+            return OPAQUE
+        if f is str and len(args) == 1 and isinstance(args[0], _PPath):
+            return str(args[0])
+        if any(f is b for b in _PURE_BUILTINS.values()) and any(isinstance(a, (Obj, ClassRef, ModRef, _LoggerT, Native)) for a in list(args) + list(kwargs.values())):
+            return OPAQUE
+        if not isinstance(getattr(f, "__self__", None), _PPath):
+            # the outside world takes path-like objects wherever it takes a path
+            args, kwargs = [str(a) if isinstance(a, _PPath) else a for a in args], {k: (str(v) if isinstance(v, _PPath) else v) for k, v in kwargs.items()}
+        try:
+            return f(*[self.py(_ordered(a)) for a in args], **{k: self.py(v) for k, v in kwargs.items()})
+        except _SAFE_ERRORS as x:
+            raise CannotEval(f"{getattr(f, '__name__', f)}: {type(x).__name__}: {x}")
+
+    def isinstance_(self, v, t):
+        ts = t if isinstance(t, tuple) else (t,)
+        if v is OPAQUE:
+            return OPAQUE
+        out = False
+        for c in ts:
+            if isinstance(c, ClassRef):
+                out = out or (isinstance(v, Obj) and any(k is c.node for k in self.mro(v.cls)))
+            elif isinstance(c, type) and c in _TYPES:
+                out = out or (not isinstance(v, (Obj, Native, Fn, ClassRef, ModRef, _LoggerT)) and isinstance(v, c))
+            else:
+                return OPAQUE
+        return out
+
+    def container_call(self, r, name, args, kwargs):
+        if name.startswith("_"):
+            raise CannotEval(f"method {name}")
+        vals = list(args) + list(kwargs.values())
+        if self.unknown(r):
+            return OPAQUE  # content unknown before, content unknown afterwards
+        if any(self.unknown(a) for a in vals):
+            if name in _STORES_ELEMENT or (name == "setdefault" and not self.unknown(args[0])):
+                pass  # the unknown value becomes an element; the container itself stays known
+            elif name in _MUTATORS:
+                self.taint(r)
+                return OPAQUE
+            else:
+                return OPAQUE
+        try:
+            m = getattr(r, name)
+        except AttributeError:
+            raise CannotEval(f"{type(r).__name__}.{name}")
+        try:
+            return m(*[self.py(_ordered(a)) if name in ("extend", "update", "join", "fromkeys", "union") else self.py(a) for a in args], **{k: self.py(v) for k, v in kwargs.items()})
+        except (KeyError, IndexError, ValueError) as x:
+            if isinstance(r, (dict, list, tuple, str, set)) and name in ("pop", "remove", "index", "popitem") and all(self.known(a) for a in args):
+                raise Raised(None, type(x).__name__)
+            raise CannotEval(f"{type(r).__name__}.{name}: {type(x).__name__}: {x}")
+        except _SAFE_ERRORS as x:
+            raise CannotEval(f"{type(r).__name__}.{name}: {type(x).__name__}: {x}")
+
+    def mro(self, cref: ClassRef, depth=0) -> list:
+        out = [cref.node]
+        if depth < 6:
+            for b in cref.node.bases:
+                if isinstance(b, ast.Name):
+                    v = self.module_name(cref.mod, b.id)
+                    if isinstance(v, ClassRef):
+                        out += [k for k in self.mro_refs(v, depth + 1)]
+        return out
+
+    def mro_refs(self, cref, depth=0):
+        return self.mro(cref, depth)
+
+    def class_member(self, cref: ClassRef, name):
+        """(defining ClassRef, statement) of a method / class-level assignment, through base classes of the same module."""
+        todo, seen = [cref], 0
+        while todo and seen < 12:
+            c = todo.pop(0)
+            seen += 1
+            for st in c.node.body:
+                if isinstance(st, (ast.FunctionDef, ast.AsyncFunctionDef)) and st.name == name:
+                    return c, st
+                if isinstance(st, ast.Assign) and any(isinstance(t, ast.Name) and t.id == name for t in st.targets):
+                    return c, st
+            for b in c.node.bases:
+                if isinstance(b, ast.Name):
+                    v = self.module_name(c.mod, b.id)
+                    if isinstance(v, ClassRef):
+                        todo.append(v)
+        return None
+
+    def has_unknown_base(self, cref: ClassRef) -> bool:
+        return any(not (isinstance(b, ast.Name) and b.id == "object") and not (isinstance(b, ast.Name) and isinstance(self.module_name(cref.mod, b.id), ClassRef)) for b in cref.node.bases)
+
+    def record_fields(self, cref: ClassRef):
+        """[(name, default expression or None)] of a @dataclass / typing.NamedTuple class (the generated constructor takes them in this order), else None."""
+        decos = [dotted(d.func if isinstance(d, ast.Call) else d) or "" for d in cref.node.decorator_list]
+        bases = [dotted(b) or "" for b in cref.node.bases]
+        if not any(d.split(".")[-1] == "dataclass" for d in decos) and not any(b.split(".")[-1] == "NamedTuple" for b in bases):
+            return None
+        out = []
+        for st in cref.node.body:
+            if isinstance(st, ast.AnnAssign) and isinstance(st.target, ast.Name) and "ClassVar" not in u(st.annotation):
+                out.append((st.target.id, st.value))
+            elif isinstance(st, ast.Assign) and len(st.targets) == 1 and isinstance(st.targets[0], ast.Name):  # (N7 turned `x: T = v` into `x = v`)
+                out.append((st.targets[0].id, st.value))
+        return out
+
+    def construct(self, cref: ClassRef, args, kwargs):
+        o = Obj(cref)
+        m = self.class_member(cref, "__init__")
+        fields = self.record_fields(cref) if m is None else None
+        if fields is not None:
+            if len(args) > len(fields) or any(k not in [f for f, _ in fields] for k in kwargs):
+                raise CannotEval(f"arguments of {cref.node.name}(...)")
+            env = Env(cref.mod, cref.env, cref)
+            for i, (f, d) in enumerate(fields):
+                if i < len(args):
+                    o.fields[f] = args[i]
+                elif f in kwargs:
+                    o.fields[f] = kwargs[f]
+                elif d is None:
+                    raise CannotEval(f"missing argument {f} of {cref.node.name}(...)")
+                elif isinstance(d, ast.Call) and (dotted(d.func) or "").split(".")[-1] == "field":
+                    kw = {k.arg: k.value for k in d.keywords}
+                    o.fields[f] = self.call_value(self.eval(kw["default_factory"], env), [], {}) if "default_factory" in kw else (self.eval(kw["default"], env) if "default" in kw else OPAQUE)
+                else:
+                    o.fields[f] = self.eval_or_opaque(d, env)
+            post = self.class_member(cref, "__post_init__")
+            if post is not None:
+                try:
+                    self.invoke(Fn(post[1], post[0].mod, post[0].env, o, post[0]), [], {})
+                except CannotEval as x:
+                    if isinstance(x, _Budget):
+                        raise
+                    self.taint(o)
+            return o
+        if m is None:
+            if self.has_unknown_base(cref) or args or kwargs:
+                self.unknown_call(args, kwargs)
+                self.taint(o)
+            return o
+        try:
+            self.invoke(Fn(m[1], m[0].mod, m[0].env, o, m[0]), args, kwargs)
+        except CannotEval as x:
+            if isinstance(x, _Budget):
+                raise
+            self.unknown_call(args, kwargs)
+            self.taint(o)
+        return o
+
+    def invoke(self, fn: Fn, args, kwargs):
+        self.tick()
+        node = fn.node
+        qn = source.qualname(node) if not isinstance(node, ast.Lambda) else None
+        if qn in self.over:
+            return self.over[qn](*(([fn.self_] if fn.self_ is not None else []) + list(args)), **kwargs)
+        if self.depth > 25:
+            raise CannotEval("call depth")
+        if not isinstance(node, ast.Lambda) and any(isinstance(x, (ast.Yield, ast.YieldFrom, ast.Await)) for x in walk_body(node)):
+            raise CannotEval("generator / coroutine")
+        decos = [] if isinstance(node, ast.Lambda) else [dotted(d) or "?" for d in node.decorator_list]
+        if any(d not in ("property", "staticmethod", "classmethod", "abc.abstractmethod", "abstractmethod", "functools.cached_property", "cached_property") and not d.endswith(".setter") for d in decos):
+            raise CannotEval(f"decorated function {qn}")
+        a = node.args
+        env = Env(fn.mod, fn.env, fn.cls)
+        pos = [x.arg for x in a.posonlyargs + a.args]
+        vals = list(args)
+        if fn.self_ is not None and "staticmethod" not in decos:
+            vals = [fn.self_] + vals
+        defenv = fn.env if fn.env is not None else self.module_env(fn.mod)
+        defaults = dict(zip(pos[len(pos) - len(a.defaults):], a.defaults))
+        kw = dict(kwargs)
+        for i, p in enumerate(pos):
+            if i < len(vals):
+                env.vars[p] = vals[i]
+            elif p in kw:
+                env.vars[p] = kw.pop(p)
+            elif p in defaults:
+                env.vars[p] = self.eval_or_opaque(defaults[p], defenv)
+            else:
+                raise CannotEval(f"missing argument {p} of {qn}")
+        extra = vals[len(pos):]
+        if a.vararg is not None:
+            env.vars[a.vararg.arg] = tuple(extra)
+        elif extra:
+            raise CannotEval(f"too many arguments for {qn}")
+        for p, d in zip(a.kwonlyargs, a.kw_defaults):
+            if p.arg in kw:
+                env.vars[p.arg] = kw.pop(p.arg)
+            elif d is not None:
+                env.vars[p.arg] = self.eval_or_opaque(d, defenv)
+            else:
+                raise CannotEval(f"missing keyword argument {p.arg} of {qn}")
+        if a.kwarg is not None:
+            env.vars[a.kwarg.arg] = kw
+        elif kw:
+            raise CannotEval(f"unexpected keyword argument(s) {sorted(kw)} for {qn}")
+        self.depth += 1
+        try:
+            if isinstance(node, ast.Lambda):
+                return self.eval(node.body, env)
+            try:
+                self.exec_block(node.body, env)
+            except _Return as r:
+                return r.value
+            return None
+        finally:
+            self.depth -= 1
+
+    def eval_or_opaque(self, e, env):
+        try:
+            return self.eval(e, env)
+        except CannotEval as x:
+            if isinstance(x, _Budget):
+                raise
+            return OPAQUE
+
+    # ---- attributes ---------------------------------------------------------------------------------------------------------------------------------------------------
+    def getattr(self, v, attr):
+        if v is OPAQUE:
+            return OPAQUE
+        if v is LOGGER:
+            return _noop
+        if isinstance(v, ModRef):
+            r = ModRef(v.name + "." + attr)
+            return self.ext[r.name] if r.name in self.ext and not callable(self.ext[r.name]) else r
+        if isinstance(v, Obj):
+            if id(v) in self.tainted:
+                return OPAQUE
+            if attr in v.fields:
+                return v.fields[attr]
+            m = self.class_member(v.cls, attr)
+            if m is None:
+                if self.has_unknown_base(v.cls):
+                    return OPAQUE
+                raise CannotEval(f"attribute {attr} of {v.cls.node.name}")
+            c, st = m
+            if isinstance(st, ast.Assign):
+                return self.eval(st.value, Env(c.mod, c.env, c))
+            f = Fn(st, c.mod, c.env, v, c)
+            decos = [dotted(d) or "?" for d in st.decorator_list]
+            if any(d in ("property", "functools.cached_property", "cached_property") for d in decos):
+                return self.invoke(f, [], {})
+            if "staticmethod" in decos:
+                f.self_ = None
+            return f
+        if isinstance(v, ClassRef):
+            m = self.class_member(v, attr)
+            if m is None:
+                raise CannotEval(f"attribute {attr} of class {v.node.name}")
+            c, st = m
+            return self.eval(st.value, Env(c.mod, c.env, c)) if isinstance(st, ast.Assign) else Fn(st, c.mod, c.env, None, c)
+        if attr.startswith("_"):
+            raise CannotEval(f"attribute {attr}")
+        if isinstance(v, Native):
+            try:
+                return getattr(v, attr)
+            except AttributeError:
+                raise CannotEval(f"attribute {attr} of {type(v).__name__}")
+        if isinstance(v, (list, dict, set, frozenset, tuple, str, bytes, collections.ChainMap)) or (isinstance(v, type) and v in (dict, str, list, set, frozenset, tuple)):
+            if not hasattr(v, attr):
+                raise CannotEval(f"attribute {attr} of {type(v).__name__}")
+            return _BoundM(v, attr)
+        if isinstance(v, Fn) or v is None or isinstance(v, (int, float)):
+            raise CannotEval(f"attribute {attr} of {type(v).__name__}")
+        return OPAQUE  # iterators, views and other python objects: nothing the model relies on
+
+    # ---- expressions --------------------------------------------------------------------------------------------------------------------------------------------------
+    def eval(self, e, env):
+        self.tick()
+        m = getattr(self, "e_" + type(e).__name__, None)
+        if m is None:
+            raise CannotEval(f"{type(e).__name__}: {short(e, 50)}")
+        return m(e, env)
+
+    def e_Constant(self, e, env):
+        return e.value
+
+    def e_Name(self, e, env):
+        return self.name(e.id, env)
+
+    def e_Attribute(self, e, env):
+        return self.getattr(self.eval(e.value, env), e.attr)
+
+    def e_Slice(self, e, env):
+        parts = [self.eval(x, env) if x is not None else None for x in (e.lower, e.upper, e.step)]
+        return OPAQUE if any(self.unknown(p) for p in parts) else slice(*parts)
+
+    def e_Subscript(self, e, env):
+        v, k = self.eval(e.value, env), self.eval(e.slice, env)
+        if self.unknown(v) or self.unknown(k):
+            return OPAQUE
+        if isinstance(v, (Obj, Fn, ClassRef, ModRef, _LoggerT)) or isinstance(v, type):
+            return OPAQUE if isinstance(v, (ModRef, type)) else self._fail(f"subscript of {type(v).__name__}")
+        try:
+            return v[k]
+        except ModelError as x:
+            raise Raised(e, x.exc)
+        except (KeyError, IndexError) as x:
+            if isinstance(v, (dict, list, tuple, str, Native)) and self.known(k):
+                raise Raised(e, type(x).__name__)
+            raise CannotEval(f"{short(e, 40)}: {type(x).__name__}")
+        except _SAFE_ERRORS as x:
+            raise CannotEval(f"{short(e, 40)}: {type(x).__name__}")
+
+    def _fail(self, msg):
+        raise CannotEval(msg)
+
+    def e_Compare(self, e, env):
+        left = self.eval(e.left, env)
+        for op, c in zip(e.ops, e.comparators):
+            right = self.eval(c, env)
+            if isinstance(op, (ast.Is, ast.IsNot)):
+                if left is OPAQUE or right is OPAQUE:
+                    return OPAQUE
+                r = (left is right) if isinstance(op, ast.Is) else (left is not right)
+            elif self.unknown(left) or self.unknown(right):
+                return OPAQUE
+            elif isinstance(op, (ast.In, ast.NotIn)):
+                if isinstance(right, (Obj, Fn, ClassRef, ModRef, _LoggerT)) or right is None:
+                    raise CannotEval(f"membership in {type(right).__name__}")
+                try:
+                    r = (left in right) if isinstance(op, ast.In) else (left not in right)
+                except _SAFE_ERRORS as x:
+                    raise CannotEval(f"{short(e, 40)}: {type(x).__name__}")
+            else:
+                if isinstance(left, (Obj, Native)) or isinstance(right, (Obj, Native)):
+                    if not isinstance(op, (ast.Eq, ast.NotEq)):
+                        raise CannotEval("ordering of objects")
+                    r = (left is right) if isinstance(op, ast.Eq) else (left is not right)
+                else:
+                    try:
+                        r = _CMPOPS[type(op)](left, right)
+                    except _SAFE_ERRORS as x:
+                        raise CannotEval(f"{short(e, 40)}: {type(x).__name__}")
+            if not r:
+                return False
+            left = right
+        return True
+
+    def e_BoolOp(self, e, env):
+        r = None
+        for x in e.values:
+            r = self.eval(x, env)
+            if self.unknown(r):
+                return OPAQUE
+            t = self.truth(r)
+            if (isinstance(e.op, ast.And) and not t) or (isinstance(e.op, ast.Or) and t):
+                return r
+        return r
+
+    def e_UnaryOp(self, e, env):
+        v = self.eval(e.operand, env)
+        if self.unknown(v):
+            return OPAQUE
+        if isinstance(e.op, ast.Not):
+            return not self.truth(v)
+        try:
+            return {ast.USub: operator.neg, ast.UAdd: operator.pos, ast.Invert: operator.invert}[type(e.op)](v)
+        except _SAFE_ERRORS as x:
+            raise CannotEval(f"{short(e, 40)}: {type(x).__name__}")
+
+    def e_BinOp(self, e, env):
+        a, b = self.eval(e.left, env), self.eval(e.right, env)
+        if self.unknown(a) or self.unknown(b):
+            return OPAQUE
+        if isinstance(e.op, ast.Div) and (isinstance(a, _PPath) or isinstance(b, _PPath)) and all(isinstance(x, (str, _PPath)) for x in (a, b)):
+            return a / b
+        if any(isinstance(x, (Obj, Fn, ClassRef, ModRef, _LoggerT, Native)) for x in (a, b)) or type(e.op) not in _BINOPS:
+            return OPAQUE
+        if isinstance(e.op, ast.Mod) and isinstance(a, str) and not self.known(b):
+            return OPAQUE
+        try:
+            return _BINOPS[type(e.op)](a, b)
+        except _SAFE_ERRORS as x:
+            raise CannotEval(f"{short(e, 40)}: {type(x).__name__}")
+
+    def e_IfExp(self, e, env):
+        t = self.eval(e.test, env)
+        if self.unknown(t):
+            return OPAQUE
+        return self.eval(e.body if self.truth(t) else e.orelse, env)
+
+    def _elts(self, elts, env):
+        out = []
+        for x in elts:
+            if isinstance(x, ast.Starred):
+                out.extend(self.iterate(self.eval(x.value, env)))
+            else:
+                out.append(self.eval(x, env))
+        return out
+
+    def e_List(self, e, env):
+        return self._elts(e.elts, env)
+
+    def e_Tuple(self, e, env):
+        return tuple(self._elts(e.elts, env))
+
+    def e_Set(self, e, env):
+        try:
+            return set(self._elts(e.elts, env))
+        except TypeError:
+            raise CannotEval("unhashable set element")
+
+    def e_Dict(self, e, env):
+        out, bad = {}, False
+        for k, v in zip(e.keys, e.values):
+            if k is None:
+                src = self.eval(v, env)
+                if self.unknown(src) or not isinstance(src, (dict, collections.ChainMap)):
+                    bad = True
+                else:
+                    out.update(src)
+            else:
+                kv = self.eval(k, env)
+                if self.unknown(kv):
+                    bad = True
+                else:
+                    try:
+                        out[kv] = self.eval(v, env)
+                    except TypeError:
+                        raise CannotEval("unhashable key")
+        if bad:
+            self.taint(out)
+        return out
+
+    def e_JoinedStr(self, e, env):
+        out = []
+        for v in e.values:
+            if isinstance(v, ast.Constant):
+                out.append(str(v.value))
+            else:
+                val = self.eval(v.value, env)
+                spec = self.eval(v.format_spec, env) if v.format_spec is not None else ""
+                if not self.known(val) or self.unknown(spec) or isinstance(val, (Obj, Fn, ClassRef, ModRef, _LoggerT, Native)):
+                    return OPAQUE
+                val = repr(val) if v.conversion == 114 else (str(val) if v.conversion == 115 else (ascii(val) if v.conversion == 97 else val))
+                try:
+                    out.append(format(val, spec))
+                except _SAFE_ERRORS as x:
+                    raise CannotEval(f"format: {type(x).__name__}")
+        return "".join(out)
+
+    def e_FormattedValue(self, e, env):
+        return self.e_JoinedStr(ast.JoinedStr(values=[e]), env)
+
+    def e_Lambda(self, e, env):
+        return Fn(e, env.mod, env, None, env.cls)
+
+    def e_NamedExpr(self, e, env):
+        v = self.eval(e.value, env)
+        env.vars[e.target.id] = v
+        return v
+
+    def e_Starred(self, e, env):
+        raise CannotEval("starred expression")
+
+    def _comp(self, gens, env, emit):
+        """lazy evaluation of comprehension clauses (a generator expression consumed by list.extend sees the list grow, as in Python)."""
+        def rec(i, env_):
+            if i == len(gens):
+                yield emit(env_)
+                return
+            g = gens[i]
+            if g.is_async:
+                raise CannotEval("async comprehension")
+            for v in self.iterate(self.eval(g.iter, env_)):
+                self.tick()
+                e2 = Env(env_.mod, env_, env_.cls)
+                self.assign(g.target, v, e2)
+                ok = True
+                for c in g.ifs:
+                    if not self.truth(self.eval(c, e2)):
+                        ok = False
+                        break
+                if ok:
+                    yield from rec(i + 1, e2)
+        return rec(0, Env(env.mod, env, env.cls))
+
+    def _eager(self, e, env, build):
+        try:
+            return build()
+        except CannotEval as x:
+            if isinstance(x, _Budget):
+                raise
+            return OPAQUE  # a comprehension has no effect of its own: an undecidable one is simply an unknown value
+
+    def e_ListComp(self, e, env):
+        return self._eager(e, env, lambda: list(self._comp(e.generators, env, lambda en: self.eval(e.elt, en))))
+
+    def e_SetComp(self, e, env):
+        return self._eager(e, env, lambda: set(self._comp(e.generators, env, lambda en: self.eval(e.elt, en))))
+
+    def e_DictComp(self, e, env):
+        return self._eager(e, env, lambda: dict(self._comp(e.generators, env, lambda en: (self.eval(e.key, en), self.eval(e.value, en)))))
+
+    def e_GeneratorExp(self, e, env):
+        return self._comp(e.generators, env, lambda en: self.eval(e.elt, en))
+
+    def e_Call(self, e, env):
+        f = self.eval(e.func, env)
+        args = []
+        for a in e.args:
+            if isinstance(a, ast.Starred):
+                args.extend(self.iterate(self.eval(a.value, env)))
+            else:
+                args.append(self.eval(a, env))
+        kwargs = {}
+        for k in e.keywords:
+            v = self.eval(k.value, env)
+            if k.arg is None:
+                if self.unknown(v) or not isinstance(v, dict):
+                    raise CannotEval("** of an unknown value")
+                kwargs.update(v)
+            else:
+                kwargs[k.arg] = v
+        if f is OPAQUE and isinstance(e.func, ast.Attribute):
+            return OPAQUE if is_logging_call(e) else self.unknown_call(args, kwargs)
+        try:
+            return self.call_value(f, args, kwargs)
+        except ModelError as x:
+            raise Raised(e, x.exc)
+        except Raised as r:
+            if r.node is None:
+                r.node = e
+            raise
+
+    # ---- statements -----------------------------------------------------------------------------------------------------------------------------------------------------
+    def assign(self, t, v, env):
+        if isinstance(t, ast.Name):
+            env.vars[t.id] = v
+        elif isinstance(t, (ast.Tuple, ast.List)):
+            if self.unknown(v):
+                for x in t.elts:
+                    self.assign(x.value if isinstance(x, ast.Starred) else x, OPAQUE, env)
+                return
+            vals = list(self.iterate(v))
+            star = [i for i, x in enumerate(t.elts) if isinstance(x, ast.Starred)]
+            if star:
+                i, rest = star[0], len(t.elts) - star[0] - 1
+                if len(vals) < len(t.elts) - 1:
+                    raise CannotEval("unpacking")
+                vals = vals[:i] + [vals[i:len(vals) - rest]] + vals[len(vals) - rest:]
+            if len(vals) != len(t.elts):
+                raise CannotEval("unpacking")
+            for x, val in zip(t.elts, vals):
+                self.assign(x.value if isinstance(x, ast.Starred) else x, val, env)
+        elif isinstance(t, ast.Attribute):
+            o = self.eval(t.value, env)
+            if isinstance(o, Obj):
+                o.fields[t.attr] = v
+            elif isinstance(o, Native) and not t.attr.startswith("_"):
+                setattr(o, t.attr, v)
+            elif o is OPAQUE:
+                pass
+            else:
+                raise CannotEval(f"attribute store on {type(o).__name__}")
+        elif isinstance(t, ast.Subscript):
+            o, k = self.eval(t.value, env), self.eval(t.slice, env)
+            if self.unknown(o):
+                return
+            if self.unknown(k):
+                self.taint(o)
+                return
+            if not isinstance(o, (list, dict, collections.ChainMap)):
+                raise CannotEval(f"item store on {type(o).__name__}")
+            try:
+                o[k] = v
+            except _SAFE_ERRORS as x:
+                raise CannotEval(f"item store: {type(x).__name__}")
+        else:
+            raise CannotEval(f"assignment target {type(t).__name__}")
+
+    def exec_block(self, stmts, env):
+        for s in stmts:
+            self.exec_stmt(s, env)
+
+    def exec_stmt(self, s, env):
+        self.tick()
+        try:
+            m = getattr(self, "s_" + type(s).__name__, None)
+            if m is None:
+                raise CannotEval(f"statement {type(s).__name__}")
+            try:
+                m(s, env)
+            except RuntimeError as x:  # (a container changed while it is iterated, too deep a recursion of the interpreted code)
+                raise CannotEval(f"{type(x).__name__}: {x}")
+        except CannotEval as x:
+            if isinstance(x, _Budget) or not self.can_havoc(s):
+                raise
+            self.havoc(s, env)
+            self.notes.append((s, str(x)))
+
+    def can_havoc(self, s) -> bool:
+        """the statement can be replaced by 'anything it writes is unknown now': it contains no jump out of itself whose being taken would be unknown as well
+        (a `raise` is different: the analysed question is always about runs that complete, so an undecidable raise is assumed not to happen)."""
+        if isinstance(s, (ast.Global, ast.Nonlocal)):
+            return False
+        for n in source.walk_local(s):
+            if isinstance(n, (ast.Return, ast.Yield, ast.YieldFrom, ast.Await)):
+                return False
+            if isinstance(n, (ast.Break, ast.Continue)):
+                loop = source.enclosing(n, (ast.For, ast.AsyncFor, ast.While))
+                if loop is None or not (loop is s or any(a is s for a in source.ancestors(loop))):
+                    return False
+        return True
+
+    _RO_METHODS = {"get", "items", "keys", "values", "copy", "index", "count", "split", "rsplit", "join", "startswith", "endswith", "strip", "lstrip", "rstrip", "lower", "upper", "format",
+                   "replace", "union", "intersection", "difference", "issubset", "issuperset", "isdisjoint", "splitlines", "partition", "rpartition", "encode", "decode", "title", "find"}
+
+    def _readonly(self, top, env) -> bool:
+        """the occurrence `top` (a name / attribute / subscript chain) only reads the object it denotes."""
+        p = source.parent(top)
+        c = top
+        while isinstance(p, (ast.Starred, ast.keyword)):
+            c, p = p, source.parent(p)
+        if isinstance(p, (ast.Compare, ast.BoolOp, ast.UnaryOp, ast.FormattedValue, ast.JoinedStr, ast.BinOp)):
+            return True
+        if isinstance(p, (ast.For, ast.AsyncFor, ast.comprehension)):
+            return c is p.iter
+        if isinstance(p, (ast.If, ast.While, ast.IfExp, ast.Assert)):
+            return c is p.test
+        if isinstance(p, ast.Subscript):
+            return c is p.slice
+        if isinstance(p, ast.Call):
+            if c is p.func:
+                return True  # calling the object itself (a function value)
+            if is_logging_call(p):
+                return True
+            if isinstance(p.func, ast.Name) and p.func.id in _PURE_BUILTINS or (isinstance(p.func, ast.Name) and p.func.id in ("isinstance", "print", "hasattr")):
+                return env.find(p.func.id) is None
+            d = dotted(p.func)
+            if d is not None and env.find(d.split(".")[0]) is None:
+                root = self.module_name(env.mod, d.split(".")[0])
+                if isinstance(root, ModRef):
+                    full = root.name + d[len(d.split(".")[0]):]
+                    return full.startswith(self.silent) or full in _PURE_EXTERNALS
+            return False
+        return False
+
+    def havoc(self, s, env):
+        for n in source.walk_local(s):
+            if isinstance(n, ast.Name) and isinstance(n.ctx, (ast.Store, ast.Del)):
+                env.vars[n.id] = OPAQUE
+            elif isinstance(n, (ast.Attribute, ast.Subscript)) and isinstance(n.ctx, (ast.Store, ast.Del)):
+                o = self.eval_or_opaque(n.value, env)
+                if isinstance(n, ast.Attribute) and isinstance(o, Obj) and isinstance(n.ctx, ast.Store):
+                    o.fields[n.attr] = OPAQUE
+                else:
+                    self.taint(o)
+            elif isinstance(n, ast.Name) and isinstance(n.ctx, ast.Load) and env.find(n.id) is not None:
+                # the longest attribute / subscript chain that starts at this name
+                top = n
+                while isinstance(source.parent(top), (ast.Attribute, ast.Subscript)) and source.parent(top).value is top and isinstance(source.parent(top).ctx, ast.Load):
+                    top = source.parent(top)
+                p = source.parent(top)
+                recv_of_call = isinstance(top, ast.Attribute) and isinstance(p, ast.Call) and p.func is top
+                if recv_of_call:
+                    o = self.eval_or_opaque(top.value, env)
+                    if o is LOGGER or is_logging_call(p) or (not isinstance(o, (Obj, Native)) and top.attr in self._RO_METHODS):
+                        continue
+                    self.taint(o)
+                elif not self._readonly(top, env):
+                    o = self.eval_or_opaque(top, env)
+                    if o is OPAQUE:
+                        o = self.eval_or_opaque(n, env)
+                    self.taint(o)
+
+    def s_Assign(self, s, env):
+        v = self.eval(s.value, env)
+        for t in s.targets:
+            self.assign(t, v, env)
+
+    def s_AnnAssign(self, s, env):
+        if s.value is not None:
+            self.assign(s.target, self.eval(s.value, env), env)
+
+    def s_AugAssign(self, s, env):
+        cur, v = self.eval(s.target, env), self.eval(s.value, env)
+        if cur is OPAQUE:
+            res = OPAQUE
+        elif id(cur) in self.tainted:
+            res = cur
+        elif self.unknown(v):
+            if isinstance(cur, _MUTABLE):
+                self.taint(cur)
+                res = cur
+            else:
+                res = OPAQUE
+        elif isinstance(cur, (Obj, Native, Fn, ClassRef, ModRef)) or type(s.op) not in _IOPS:
+            raise CannotEval("augmented assignment")
+        else:
+            try:
+                res = _IOPS[type(s.op)](cur, _ordered(v) if isinstance(cur, list) else v)
+            except _SAFE_ERRORS as x:
+                raise CannotEval(f"{short(s, 40)}: {type(x).__name__}")
+        self.assign(s.target, res, env)
+
+    def s_Expr(self, s, env):
+        self.eval(s.value, env)
+
+    def s_Pass(self, s, env):
+        pass
+
+    def s_Import(self, s, env):
+        for a in s.names:
+            env.vars[(a.asname or a.name).split(".")[0]] = ModRef(a.name if a.asname else a.name.split(".")[0])
+
+    def s_ImportFrom(self, s, env):
+        for a in s.names:
+            env.vars[a.asname or a.name] = ModRef(f"{s.module}.{a.name}")
+
+    def s_If(self, s, env):
+        t = self.eval(s.test, env)
+        arm = getattr(s, "_synthetic_arm", None)
+        if self.unknown(t) and arm:
+            # a guard clause (N8 moved the rest of the block into the synthetic arm) whose test is undecidable: if all it does is raise, the run that completes is the one
+            # that continues - the question asked of a simulation is always about runs that complete
+            explicit = s.orelse if arm == "body" else s.body
+            if explicit and isinstance(explicit[-1], ast.Raise) and all(self.can_havoc(x) for x in explicit):
+                for x in explicit:
+                    self.havoc(x, env)
+                self.assumed.append(s)
+                self.exec_block(getattr(s, arm), env)
+                return
+        self.exec_block(s.body if self.truth(t) else s.orelse, env)
+
+    def s_For(self, s, env):
+        broke = False
+        for v in self.iterate(self.eval(s.iter, env)):
+            self.tick()
+            self.assign(s.target, v, env)
+            try:
+                self.exec_block(s.body, env)
+            except _Break:
+                broke = True
+                break
+            except _Continue:
+                continue
+        if not broke:
+            self.exec_block(s.orelse, env)
+
+    def s_While(self, s, env):
+        broke = False
+        while self.truth(self.eval(s.test, env)):
+            self.tick(5)
+            try:
+                self.exec_block(s.body, env)
+            except _Break:
+                broke = True
+                break
+            except _Continue:
+                continue
+        if not broke:
+            self.exec_block(s.orelse, env)
+
+    def s_Return(self, s, env):
+        raise _Return(self.eval(s.value, env) if s.value is not None else None)
+
+    def s_Raise(self, s, env):
+        if s.exc is None:
+            if self.handling:
+                raise self.handling[-1]  # bare `raise` in a handler
+            raise Raised(s)
+        target = s.exc.func if isinstance(s.exc, ast.Call) else s.exc
+        if isinstance(target, ast.Name) and self.handling and env.find(target.id) is not None and env.find(target.id).vars[target.id] is self.handling[-1]:
+            raise self.handling[-1]  # `raise e` of the caught exception
+        raise Raised(s, (dotted(target) or "?").split(".")[-1] if dotted(target) else None)
+
+    def s_Break(self, s, env):
+        raise _Break()
+
+    def s_Continue(self, s, env):
+        raise _Continue()
+
+    def s_Assert(self, s, env):
+        t = self.eval_or_opaque(s.test, env)
+        if not self.unknown(t) and not self.truth(t):
+            raise Raised(s, "AssertionError")
+
+    def s_FunctionDef(self, s, env):
+        env.vars[s.name] = Fn(s, env.mod, env, None, env.cls)
+
+    s_AsyncFunctionDef = s_FunctionDef
+
+    def s_ClassDef(self, s, env):
+        env.vars[s.name] = ClassRef(s, env.mod, env)
+
+    def s_With(self, s, env):
+        suppress = []
+        for it in s.items:
+            v = self.eval(it.context_expr, env)
+            if isinstance(v, _Suppress):
+                suppress.append(v)
+            if it.optional_vars is not None:
+                self.assign(it.optional_vars, v, env)
+        try:
+            self.exec_block(s.body, env)
+        except Raised as r:
+            for sp in suppress:
+                if any(n is None for n in sp.names):
+                    raise CannotEval("contextlib.suppress of an unknown class")
+                c = _handler_catches(ast.ExceptHandler(type=ast.Tuple(elts=[ast.Name(id=n, ctx=ast.Load()) for n in sp.names], ctx=ast.Load()), name=None, body=[]), r.exc)
+                if c is None:
+                    raise CannotEval(f"whether contextlib.suppress({', '.join(sp.names)}) swallows {r.exc} is not known")
+                if c:
+                    return
+            raise
+
+    def s_Try(self, s, env):
+        """exceptions are followed when they are raised by the interpreted code itself (raise / assert), by a failing model function of the outside world (ModelError) or by a
+        KeyError / IndexError / ValueError of a builtin container operation on known values."""
+        try:
+            try:
+                self.exec_block(s.body, env)
+            except Raised as r:
+                for h in s.handlers:
+                    c = _handler_catches(h, r.exc)
+                    if c is None:
+                        raise CannotEval(f"whether `except {u(h.type)}` catches {r.exc or 'the raised exception'} is not known")
+                    if c:
+                        if h.name:
+                            env.vars[h.name] = r
+                        self.handling.append(r)
+                        try:
+                            self.exec_block(h.body, env)
+                        finally:
+                            self.handling.pop()
+                        break
+                else:
+                    raise
+            else:
+                self.exec_block(s.orelse, env)
+        except CannotEval:
+            raise
+        except BaseException:
+            self.exec_block(s.finalbody, env)
+            raise
+        self.exec_block(s.finalbody, env)
+
+
+def _noop(*a, **k):
+    return None
+
+
+# ---- the model world of the car loader -------------------------------------------------------------------------------------------------------------------------------------
+# three cars (two with config bases, one mixin without any), four config bases (one of them without a config.ini), car parameters. Every key is defined by a chosen set of
+# sources so that each clause of the documented precedence decides the value of at least one key; every source also has a key of its own (only_<source>).
+_CARS = {
+    "c2": {"meta": {"description": "car two", "type": "car"}, "config": {"base": "b2,b3,b2"},
+           "variables": {"k_all": "c2", "k_car": "c2", "k_mixin": "c2", "k_cb": "c2", "k_c2": "c2", "only_c2": "c2"}},
+    "c1": {"meta": {"description": "car one", "type": "car"}, "config": {"base": "b1,,b4,b2"}, "variables": {"k_all": "c1", "k_car": "c1", "only_c1": "c1"}},
+    "mx": {"meta": {"description": "a mixin", "type": "mixin"}, "variables": {"k_all": "mx", "k_mixin": "mx", "k_mx": "mx", "only_mx": "mx"}},
+}
+_BASES = {
+    "b1": {"variables": {"k_all": "b1", "k_base": "b1", "k_in": "b1", "k_cb": "b1", "only_b1": "b1"}},
+    "b2": None,  # a config base without a config.ini
+    "b3": {"variables": {"k_all": "b3", "k_base": "b3", "k_bp": "b3", "only_b3": "b3"}},
+    "b4": {"variables": {"k_in": "b4", "only_b4": "b4"}},
+}
+_NAMES = ["c2", "c1", "mx"]  # neither sorted nor reverse-sorted: any re-ordering of the names changes the result
+_PARAMS = {"k_all": "P", "k_c2": "P", "k_mx": "P", "k_bp": "P", "only_p": "P"}
+_MODEL = "model team repository (cars c2, c1 and mixin mx composed in that order; config bases b2,b3,b2 / b1,,b4,b2 / none; car parameters P)"
+
+
+def _model_file(path):
+    """sections of the ini file at `path` in the model team repository (None: no such file): <car>.ini, <base>/config.ini - decided on the last path components only."""
+    if not isinstance(path, str):
+        raise CannotEval("path")
+    base, parent = posixpath.basename(path), posixpath.basename(posixpath.dirname(path))
+    if base == "config.ini":
+        return _BASES.get(parent)
+    if base.endswith(".ini"):
+        return _CARS.get(base[:-4])
+    return None
+
+
+def _model_exists(path):
+    if not isinstance(path, str):
+        raise CannotEval("path")
+    return _model_file(path) is not None if path.endswith(".ini") else True
+
+
+class _Cfg(Native):
+    """configparser.ConfigParser over the model files."""
+
+    def __init__(self, *a, **k):
+        self._data = {}
+
+    def read(self, filenames, encoding=None):
+        ok = []
+        for p in ([filenames] if isinstance(filenames, str) else list(filenames)):
+            secs = _model_file(p)
+            if secs is not None:
+                ok.append(p)
+                for s_, kv in secs.items():
+                    self._data.setdefault(s_, {}).update(kv)
+        return ok
+
+    def sections(self):
+        return list(self._data)
+
+    def has_section(self, s_):
+        return s_ in self._data
+
+    def has_option(self, s_, o):
+        return o in self._data.get(s_, {})
+
+    def options(self, s_):
+        return list(self._data[s_])
+
+    def items(self, section=None):
+        return list(self._data[section].items()) if section is not None else [(s_, dict(kv)) for s_, kv in self._data.items()]
+
+    def get(self, s_, o, **kw):
+        if s_ in self._data and o in self._data[s_]:
+            return self._data[s_][o]
+        if "fallback" in kw:
+            return kw["fallback"]
+        raise KeyError(o)
+
+    def __contains__(self, s_):
+        return s_ in self._data
+
+    def __getitem__(self, s_):
+        return dict(self._data[s_])
+
+
+_TEAM_WORLD = {"os.path.exists": _model_exists, "os.path.isfile": _model_exists, "os.path.isdir": _model_exists, "configparser.ConfigParser": _Cfg, "configparser.RawConfigParser": _Cfg}
+
+
+def _bases_of(paths):
+    """the config-base names a list of paths walks through, in order (every path must lie in exactly one base of the model), else None."""
+    out = []
+    for p in paths:
+        hit = [c for c in p.split("/") if c in _BASES] if isinstance(p, str) else []
+        if len(hit) != 1:
+            return None
+        out.append(hit[0])
+    return out
+
+
+def _dedupe(seq):
+    out = []
+    for x in seq:
+        if x not in out:
+            out.append(x)
+    return out
+
+
+def _why(sim, limit=2):
+    """the statements the simulation could not interpret (reported with a 'not recognised' verdict)."""
+    notes = "; ".join(f"line {getattr(s_, 'lineno', '?')}: `{short(s_, 50)}` ({r})" for s_, r in sim.notes[-limit:])
+    calls = f"{len(sim.unknown_calls)} call(s) into code the model knows nothing about" if sim.unknown_calls else ""
+    return "; ".join(x for x in (notes, calls) if x) or "no statement was skipped"
+
+
+def team_rules(chk, repo, tm):
+    """O13.1 (loader part) and O13.2, decided on VALUES: team.load_car and CarLoader.load_car are interpreted over the model team repository above; what they return is compared with
+    what the documented precedence / ordering demands. Helpers, comprehensions, other accumulator idioms, renamed locals / attributes / parameters all compute the same values."""
+    lc = tm.func("load_car")
+    if len(params_of(lc)) < 3:
+        raise AnchorMissing("team.load_car(repo, name, car_params)")
+    CL = tm.cls("CarLoader")
+    cl = tm.methods(CL).get("load_car")
+    if cl is None or len(params_of(cl)) < 3:
+        raise AnchorMissing("CarLoader.load_car(self, name, car_params)")
+    ret = [n for n in walk_body(lc) if isinstance(n, ast.Return) and n.value is not None]
+    at_ret = ret[-1] if ret else lc
+    cret = [n for n in walk_body(cl) if isinstance(n, ast.Return) and n.value is not None]
+    at_cret = cret[-1] if cret else cl
+    loops = [n for n in ast.walk(lc) if isinstance(n, (ast.For, ast.comprehension)) and any(isinstance(x, ast.Name) and x.id == params_of(lc)[1] for x in ast.walk(n.iter))]
+    at_loop = (loops[0] if isinstance(loops[0], ast.For) else source.enclosing_stmt(loops[0].iter)) if loops else lc
+
+    class Composed:
+        """team.load_car(<repo>, names, params) over the model: .raised (the raise statement) or .vars / .paths (the variables / config paths of the returned car; None = unknown)."""
+
+        def __init__(self, names, params):
+            self.sim = Sim(repo, externals=_TEAM_WORLD)
+            self.raised = self.vars = self.paths = None
+            try:
+                car = self.sim.invoke(Fn(lc, tm), ["/T", list(names), None if params is None else dict(params)], {})
+            except Raised as r:
+                self.raised = r.node if r.node is not None else lc
+                return
+            if not isinstance(car, Obj) or self.sim.unknown(car):
+                raise AnchorMissing(f"team.load_car: the composed car could not be evaluated ({_why(self.sim)})")
+            # the two attributes the provisioner reads (car.variables, car.config_paths); failing that, by content: the only dict / the only list of paths below config bases
+            dicts = [v for v in car.fields.values() if isinstance(v, dict)]
+            lists = [v for v in car.fields.values() if isinstance(v, (list, tuple)) and self.sim.known(v) and v and _bases_of(v) is not None]
+            v = car.fields["variables"] if "variables" in car.fields else (dicts[0] if len(dicts) == 1 else None)
+            p = car.fields["config_paths"] if "config_paths" in car.fields else (lists[0] if len(lists) == 1 else None)
+            self.vars = v if isinstance(v, dict) and self.sim.known(v) else None
+            self.paths = p if isinstance(p, (list, tuple)) and self.sim.known(p) else None
+
+    class Described:
+        """the descriptor object CarLoader(<repo>).load_car(name, params) returns for a car of the model."""
+
+        def __init__(self, name, params):
+            self.sim = Sim(repo, externals=_TEAM_WORLD)
+            try:
+                loader = self.sim.construct(ClassRef(CL, tm), ["/T"], {})
+                d = self.sim.call_value(self.sim.getattr(loader, cl.name), [name, None if params is None else dict(params)], {})
+            except Raised as r:
+                raise AnchorMissing(f"CarLoader.load_car raises at line {getattr(r.node, 'lineno', '?')} for car `{name}` of the model")
+            if not isinstance(d, Obj) or self.sim.unknown(d):
+                raise AnchorMissing(f"CarLoader.load_car: the descriptor could not be evaluated ({_why(self.sim)})")
+            self.fields = d.fields
+            self.unknown = [a for a, v in d.fields.items() if not self.sim.known(v)]
+
+        def holding(self, key):
+            """the dict-valued field that defines `key` (role by content, not by attribute name); None if there is none."""
+            hit = [v for v in self.fields.values() if isinstance(v, dict) and self.sim.known(v) and key in v]
+            return hit[0] if len(hit) == 1 else None
+
+        def base_lists(self):
+            return [(a, _bases_of(v)) for a, v in self.fields.items() if isinstance(v, (list, tuple)) and self.sim.known(v) and v and _bases_of(v) is not None]
+
+    # ---- team.load_car: composition of several cars --------------------------------------------------------------------------------------------------------------------
+    C = Composed(_NAMES, _PARAMS)
+    try:
+        C0 = Composed(_NAMES, None)
+    except AnchorMissing:
+        C0 = None
+
+    def on_vars(text, keys, node, c=None, extra=""):
+        """one obligation on the composed variables: every listed key has the value the documented precedence demands."""
+        c = c or C
+        if c.raised is not None:
+            chk.unknown("O13.1", f"{text}: {_MODEL}: composing the cars raises instead of returning a car; the model does not satisfy a check the loader makes", c.raised)
+        elif c.vars is None:
+            chk.unknown("O13.1", f"{text}: the variables handed to the car could not be evaluated ({_why(c.sim)})", node)
+        else:
+            bad = {k: c.vars.get(k) for k, want in keys.items() if not (k in c.vars and c.vars[k] == want)}
+            chk.ob("O13.1", text, not bad, node, "" if not bad else f"{_MODEL}{extra}: " + "; ".join(f"`{k}` is {got!r}, the documented precedence demands {keys[k]!r}" for k, got in sorted(bad.items())))
+
+    on_vars("cars are processed in the order given (plain loop over the names)", {"k_car": "c1", "k_mixin": "mx"}, at_loop)
+    on_vars("config-base variables of every car are accumulated unconditionally", {"only_b1": "b1", "only_b3": "b3", "only_b4": "b4"}, at_loop)
+    on_vars("car variables of every car are accumulated unconditionally", {"only_c1": "c1", "only_c2": "c2", "only_mx": "mx"}, at_loop)
+    on_vars("loader: config-base variables merged before car variables", {"k_cb": "c2", "k_base": "b1", "k_in": "b4"}, at_ret)
+    if C.raised is None and C.vars is not None and all(C.vars.get(k) == "P" for k in _PARAMS) and C0 is not None and C0.raised is None and C0.vars is not None:
+        # with the parameters everything is fine: the same composition without parameters is the same minus the parameters
+        on_vars("car parameters handed to every car/mixin descriptor", {"k_all": "mx", "k_c2": "c2", "k_mx": "mx", "k_bp": "b3"}, at_loop, C0, " without car parameters")
+    else:
+        on_vars("car parameters handed to every car/mixin descriptor", dict(_PARAMS), at_loop)
+
+    # ---- CarLoader.load_car: one descriptor ----------------------------------------------------------------------------------------------------------------------------
+    D1, D2, DM, DM0, DME = Described("c1", _PARAMS), Described("c2", _PARAMS), Described("mx", _PARAMS), Described("mx", None), Described("mx", {})
+
+    def on_desc(rid, text, cases, node=at_cret):
+        """cases: (descriptor, a key that identifies the field, {key: demanded value}, keys that must be absent)."""
+        bad = []
+        for d, ident, keys, absent in cases:
+            f = d.holding(ident)
+            if f is None:
+                # the role was not located (the composed car, decided above, is what counts for the property): not recognised
+                chk.unknown(rid, f"{text}: no dict-valued field of the descriptor holds `{ident}`" + (f"; field(s) {d.unknown} could not be evaluated ({_why(d.sim)})" if d.unknown else
+                            f": {{{', '.join(f'{a}={v!r}' for a, v in d.fields.items() if isinstance(v, dict))}}}"), node)
+                return
+            bad += [f"`{k}` is {f.get(k)!r}, expected {want!r}" for k, want in keys.items() if not (k in f and f[k] == want)] + [f"`{k}` is defined ({f[k]!r})" for k in absent if k in f]
+        chk.ob(rid, text, not bad, node, "" if not bad else "model team repository: " + "; ".join(bad[:3]))
+
+    on_desc("O13.1", "car variables start from the car file's [variables] section", [(D1, "only_c1", {"only_c1": "c1", "k_car": "c1"}, []), (D2, "only_c2", {"only_c2": "c2", "k_cb": "c2"}, [])])
+    on_desc("O13.1", "car parameters merged after the car file's variables", [(D1, "only_c1", {"k_all": "P", "only_p": "P"}, []), (D2, "only_c2", {"k_all": "P", "k_c2": "P", "only_p": "P"}, [])])
+    # a mixin (no config base) gets the parameters as well; absent (None) or empty parameters change nothing and do not fail
+    on_desc("O13.1", "car parameters applied to every descriptor (guarded only by their presence)",
+            [(DM, "only_mx", {"k_mx": "P", "k_all": "P", "only_p": "P"}, []), (DM0, "only_mx", {"k_mx": "mx", "k_all": "mx"}, ["only_p"]), (DME, "only_mx", {"k_mx": "mx", "k_all": "mx"}, ["only_p"])])
+    on_desc("O13.1", "config-base variables come from each base's config.ini [variables]", [(D1, "only_b1", {"only_b1": "b1", "only_b4": "b4", "k_base": "b1"}, ["only_c1", "only_p"]), (D2, "only_b3", {"only_b3": "b3", "k_base": "b3"}, ["only_c2", "only_p"])])
+    cs = tm.methods(CL).get("_copy_section")
+    if cs is None:
+        chk.ob("O13.1", "_copy_section returns the target it filled", True, CL, "no such helper any more: that the sections reach the descriptor is decided by the obligations above")
+    else:
+        s3 = Sim(repo, externals=_TEAM_WORLD)
+        cfg = _Cfg()
+        cfg.read("/T/cars/v1/c1.ini")
+        target = {"kept": "x"}
+        got = OPAQUE
+        if len(params_of(cs)) == 4:
+            try:
+                got = s3.call_value(s3.getattr(s3.construct(ClassRef(CL, tm), ["/T"], {}), cs.name), [cfg, "variables", target], {})
+            except (CannotEval, Raised):
+                got = OPAQUE
+        if got is OPAQUE or not s3.known(target):
+            chk.unknown("O13.1", f"_copy_section returns the target it filled: the helper could not be evaluated ({_why(s3)})", cs)
+        else:
+            want = dict({"kept": "x"}, **_CARS["c1"]["variables"])
+            ok = got is target and target == want
+            chk.ob("O13.1", "_copy_section returns the target it filled", ok, cs, "" if ok else f"model: returned {got!r}, target afterwards {target!r}")
+
+    # ---- O13.2 config bases in order without duplicates ----------------------------------------------------------------------------------------------------------------
+    want_bases = ["b2", "b3", "b1", "b4"]  # first occurrences in the order given: c2 -> b2,b3,(b2) ; c1 -> b1,b4,(b2)
+    three = ("config paths appended under `not in`", "no re-ordering of the accumulated paths", "the accumulated config paths are the car's config paths")
+    if C.raised is not None:
+        chk.unknown("O13.2", f"{_MODEL}: composing the cars raises instead of returning a car; the model does not satisfy a check the loader makes", C.raised)
+    elif C.paths is None:
+        chk.unknown("O13.2", f"the config paths handed to the car could not be evaluated ({_why(C.sim)})", at_ret)
+    else:
+        got = _bases_of(C.paths)
+        if got is None:
+            for text in three:
+                chk.ob("O13.2", text, False, at_ret, f"{_MODEL}: the car's config paths are {list(C.paths)!r}: not the template directories of the config bases")
+        else:
+            dup = [b for i, b in enumerate(got) if b in got[:i]]
+            chk.ob("O13.2", three[0], not dup, at_loop, "" if not dup else f"{_MODEL}: the car's config bases are {got}: {_dedupe(dup)} more than once")
+            ok = _dedupe(got) == [b for b in want_bases if b in got]
+            chk.ob("O13.2", three[1], ok, at_ret, "" if ok else f"{_MODEL}: the car's config bases are {got}, in the order given they are {want_bases}")
+            # exactly the descriptors' own config paths: one field of the descriptors provides every path
+            provided = {a: [p for d in (D1, D2) for p in (d.fields.get(a) if isinstance(d.fields.get(a), (list, tuple)) and d.sim.known(d.fields.get(a)) else [])] for a in D1.fields}
+            ok = set(got) == set(want_bases) and any(all(p in ps for p in C.paths) for ps in provided.values())
+            if not ok and (D1.unknown or D2.unknown):
+                chk.unknown("O13.2", f"{three[2]}: descriptor field(s) {D1.unknown or D2.unknown} could not be evaluated", at_ret)
+            else:
+                chk.ob("O13.2", three[2], ok, at_ret, "" if ok else f"{_MODEL}: the car's config paths are {list(C.paths)!r} (bases {got}); the descriptors provide the bases {want_bases}")
+    # the bases of ONE car: in the order written, empty names skipped (duplicates may or may not be dropped here already)
+    text = "a car's config bases are applied in the order written (split on ',')"
+    cases = [(D1, ["b1", "b4", "b2"]), (D2, ["b2", "b3", "b2"])]
+    blind = [d for d, _ in cases if not d.base_lists()]
+    if blind:
+        chk.unknown("O13.2", f"{text}: no field of the descriptor holds paths below the config bases of the model" +
+                    (f"; field(s) {blind[0].unknown} could not be evaluated ({_why(blind[0].sim)})" if blind[0].unknown else ""), cl)
+    else:
+        bad = [f"descriptor field `{a}` walks the bases {got}, written: {want}" for d, want in cases for a, got in d.base_lists() if got != want and got != _dedupe(want)]
+        f1 = D1.holding("only_b1")
+        if f1 is not None and f1.get("k_in") != "b4":
+            bad.append(f"bases b1,b4 both define `k_in`: the descriptor holds {f1.get('k_in')!r}, the later base b4 must win")
+        chk.ob("O13.2", text, not bad, at_cret, "" if not bad else "model team repository: " + "; ".join(bad[:2]))
+    req = [n for n in ast.walk(lc) if isinstance(n, ast.Raise)]
+    try:
+        CM = Composed(["mx"], _PARAMS)
+    except AnchorMissing as x:
+        chk.unknown("O13.2", f"at least one config base is required: {x}", req[0] if req else lc)
+        return
+    if CM.raised is None and CM.paths is None:
+        chk.unknown("O13.2", f"at least one config base is required: the config paths of a car composed of a mixin only could not be evaluated ({_why(CM.sim)})", req[0] if req else lc)
+    else:
+        chk.ob("O13.2", "at least one config base is required", CM.raised is not None, CM.raised if CM.raised is not None else (req[0] if req else lc),
+               "" if CM.raised is not None else f"model: composing only a mixin (no config base at all) returns a car with the config paths {list(CM.paths)!r} instead of failing")
+
+
+def _car_field(pv, cls):
+    """the attribute in which a provisioner / installer class keeps the car it was constructed with: `self.<a> = <first constructor parameter>` (by field flow, not by name)."""
+    init = pv.methods(cls).get("__init__")
+    if init is None or len(params_of(init)) < 2:
+        raise AnchorMissing(f"{cls.name}.__init__(self, car, ...)")
+    p = params_of(init)[1]
+    attrs = [n.targets[0].attr for n in walk_body(init) if isinstance(n, ast.Assign) and len(n.targets) == 1 and is_self_attr(n.targets[0]) and isinstance(n.value, ast.Name) and n.value.id == p]
+    if len(attrs) != 1:
+        raise AnchorMissing(f"{cls.name}.__init__: the attribute that keeps the car (`self.<a> = {p}`)")
+    return attrs[0]
+
+
+def _is_car_vars(L, car_attr):
+    """the layer is the variables of the car: `<...>.<car attribute>.variables` (through whatever receiver chain leads to the installer)."""
+    return L.origin == "user" and isinstance(L.src, ast.Attribute) and L.src.attr == "variables" and isinstance(L.src.value, ast.Attribute) and L.src.value.attr == car_attr
+
+
+def _sig(L):
+    d = dotted(L.src) if isinstance(L.src, ast.AST) else None
+    return (L.origin, L.keys, L.must, ".".join(d.split(".")[-2:]) if d and L.origin == "user" else (u(L.src) if L.origin == "user" else ""))
+
+
+def installer_rules(chk, repo, pv, st):
+    EI = pv.cls("ElasticsearchInstaller")
+    ev_ = pv.methods(EI).get("variables")
+    if ev_ is None:
+        raise AnchorMissing("ElasticsearchInstaller.variables")
+    car_attr = _car_field(pv, EI)
+    # The installer's variables as ordered layers (later wins), followed through locals and through properties of the class (the node variables may live in a local dict or in
+    # a property of their own): the car's variables are a layer of it, every layer is merged unconditionally into a NEW dict, and for each of Rally's node variables the last
+    # layer that can hold it is a dict written by Rally that does hold it.
+    flow = DictFlow(repo, pv)
+    L3 = flow.returned(ev_, EI, 0)
+    st["L3"] = L3
+    text = "installer: car variables merged before Rally's node variables"
+    if not L3:
+        chk.unknown("O13.1", f"{text}: the dict returned by ElasticsearchInstaller.variables was not modelled", ev_)
+    elif not any(_is_car_vars(L, car_attr) for L in L3) and any(L.origin == "user" for L in L3):
+        chk.unknown("O13.1", f"{text}: none of the merged sources {[L.show() for L in L3]} was recognised as the car's variables (`self.{car_attr}.variables`)", ev_)
+    else:
+        over3 = overridable(L3, INTERNAL_KEYS, flow)
+        held = set().union(*[L.keys for L in L3 if L.origin == "rally" and L.keys is not None])
+        has_car = any(_is_car_vars(L, car_attr) for L in L3)
+        ok = has_car and not over3 and all(L.must for L in L3) and not flow.issues
+        chk.ob("O13.1", text, ok, flow.issues[0][1] if flow.issues else L3[-1].node,
+               f"merge order: {[L.show() for L in L3]}; internal keys missing from the last source: {sorted(INTERNAL_KEYS - held)}" + ("" if has_car else "; the car's variables are not merged at all") +
+               ("".join(f"; `{k}` can be overridden by {L.show() if L is not None else 'nothing of Rally defines it'}" for k, L in sorted(over3.items())[:3])) + "".join(f"; {t}" for t, _ in flow.issues))
+    BP = pv.cls("BareProvisioner")
+    pvf = pv.methods(BP).get("_provisioner_variables")
+    if pvf is None:
+        # by ROLE: the method of the provisioner, called as self.<m>() in prepare, that returns a dict holding Rally's node variables
+        prep = pv.methods(BP).get("prepare")
+        for m in ({n.func.attr for n in walk_body(prep) if isinstance(n, ast.Call) and is_self_attr(n.func) and not n.args} if prep is not None else ()):
+            f = pv.methods(BP).get(m)
+            try:
+                Ls = DictFlow(repo, pv).returned(f, BP, 0) if f is not None else []
+            except AnchorMissing:
+                Ls = []
+            if any(L.origin == "rally" and L.keys and L.keys & INTERNAL_KEYS for L in Ls):
+                pvf = f
+                break
+    if pvf is None:
+        raise AnchorMissing("BareProvisioner: the method that composes the variables the config templates are rendered with (_provisioner_variables)")
+    # decided on the merge layers (not on the spelling of the first update): the composed variables BEGIN with exactly the layers of the installer's `variables` property
+    # (car variables, then Rally's node variables), all merged unconditionally - whether through update calls, a dict display or a dict(...) copy
+    flow5 = DictFlow(repo, pv)
+    L5 = flow5.returned(pvf, BP, 0)
+    st["L5"], st["flow5"], st["pvf"] = L5, flow5, pvf
+    text = "provisioner variables start from the installer's variables"
+    if not L5 or not L3:
+        chk.unknown("O13.1", f"{text}: the dict returned by {source.qualname(pvf)} was not modelled", pvf)
+    else:
+        ok = [_sig(L) for L in L5[:len(L3)]] == [_sig(L) for L in L3] and all(L.must for L in L3)
+        chk.ob("O13.1", text, ok, L5[0].node if isinstance(L5[0].node, ast.AST) else pvf, f"merge order: {[L.show() for L in L5]}")
+    # the plugin-variable accumulator by ROLE: the local that collects `<installer>.variables` in the loop over self.plugin_installers
+    plug = [L for L in L5[len(L3):] if L.origin == "user" and not L.must] if L5 and L3 else []
+    if plug:
+        chk.adv("O13.1", "plugin variables are merged after the installer's variables: a plugin variable overrides a CAR variable of the same name (plugin-over-car precedence is outside the "
+                "property's statement; that Rally's node variables still win is O13.5)", plug[0].node)
+
+
+# ---- cleanup on values -----------------------------------------------------------------------------------------------------------------------------------------------------
+
+
+def _simulate_cleanup(repo, pv, cu, preserve, install, data, undeletable=(), links=None):
+    """cleanup(preserve, install, data) over a model file system in which every path exists; removing a path in `undeletable` fails with OSError, a path in `links` is a symbolic
+    link to a directory (rmtree / rmdir of the link itself fails with OSError, unlink / remove works, realpath gives the target). Returns the recorded removals [(kind, path)], the
+    simulation and the exception that escaped (None if cleanup returned)."""
+    events = []
+    links = dict(links or {})
+
+    def fails(path):
+        return isinstance(path, str) and path in undeletable
+
+    def rmtree(path=OPAQUE, *a, **k):
+        if k.get("onerror") is not None or k.get("onexc") is not None:
+            raise CannotEval("shutil.rmtree with an error callback")
+        quiet = k.get("ignore_errors", a[0] if a else False)
+        if quiet is OPAQUE:
+            raise CannotEval("shutil.rmtree(ignore_errors=<unknown>)")
+        if fails(path) or (isinstance(path, str) and path in links):
+            if quiet:
+                return None  # fails silently
+            raise ModelError("OSError")
+        events.append(("tree", path))
+
+    def unlink(path=OPAQUE, *a, **k):
+        if fails(path):
+            raise ModelError("OSError")
+        events.append(("unlink" if isinstance(path, str) and path in links else "file", path))
+
+    def rmdir(path=OPAQUE, *a, **k):
+        if fails(path) or (isinstance(path, str) and path in links):
+            raise ModelError("OSError")
+        events.append(("dir", path))
+
+    def move(src=OPAQUE, dst=OPAQUE, *a, **k):
+        events.append(("move", src))
+
+    for f in (rmtree, unlink, rmdir, move):
+        f._raw = True  # type: ignore[attr-defined]   (an unknown path is recorded as such)
+    world = {"os.path.exists": lambda p: True, "os.path.lexists": lambda p: True, "os.path.isdir": lambda p: True, "os.path.isfile": lambda p: False, "os.path.islink": lambda p: p in links,
+             "os.path.realpath": lambda p: links.get(p, p), "os.path.abspath": lambda p: p, "os.readlink": lambda p: links[p],
+             "shutil.rmtree": rmtree, "os.remove": unlink, "os.unlink": unlink, "os.rmdir": rmdir, "os.removedirs": rmdir, "shutil.move": move, "os.rename": move}
+    sim = Sim(repo, externals=world)
+    ps = params_of(cu)
+    named = {"preserve": preserve, "install_dir": install, "data_paths": list(data)}
+    raised = None
+    try:
+        if set(named) <= set(ps):  # the callers pass keywords: the names are the interface
+            sim.invoke(Fn(cu, pv), [], named)
+        else:
+            sim.invoke(Fn(cu, pv), [preserve, install, list(data)], {})
+    except Raised as r:
+        raised = r
+    return events, sim, raised
+
+
+def cleanup_rules(chk, repo, pv):
+    cu = pv.func("cleanup")
+    if len(params_of(cu)) < 3:
+        raise AnchorMissing("cleanup(preserve, install_dir, data_paths)")
+    install, data = "/node/install", ["/data/one", "/node/install/es/data", "/data/two"]
+    kept, sim_k, r_k = _simulate_cleanup(repo, pv, cu, True, install, data)
+    gone, sim_g, r_g = _simulate_cleanup(repo, pv, cu, False, install, data)
+    if r_k is not None or r_g is not None:
+        raise AnchorMissing(f"cleanup raises at line {getattr((r_k or r_g).node, 'lineno', '?')} in a model where every path exists and can be removed")
+    ifs = [n for n in ast.walk(cu) if isinstance(n, ast.If)]
+    at = ifs[0] if ifs else cu
+    blind_k = f"; statements that could not be interpreted: {_why(sim_k)}" if sim_k.notes or _relevant_unknown(sim_k, data + [install]) else ""
+    blind_g = f"; statements that could not be interpreted: {_why(sim_g)}" if sim_g.notes or _relevant_unknown(sim_g, data + [install]) else ""
+    # preserve: nothing at all is removed
+    if kept:
+        chk.ob("O13.4", "nothing deleted when preserving", False, at, f"model cleanup(preserve=True, {install!r}, {data!r}) removes {kept!r}")
+    elif blind_k:
+        chk.unknown("O13.4", f"nothing deleted when preserving: no removal was seen, but the run was not fully interpreted{blind_k}", at)
+    else:
+        chk.ob("O13.4", "nothing deleted when preserving", True, at, "")
+    # nothing else is ever removed: with preserve nothing (above), without it only the paths that were given
+    paths = [p for _, p in gone]
+    if any(not isinstance(p, str) for p in paths):
+        blind_g = blind_g or "; a removal call received a path that could not be evaluated"
+    foreign = [p for p in paths + [p for _, p in kept] if isinstance(p, str) and p not in data + [install]]
+    if not foreign and not kept and any(not isinstance(p, str) for p in paths):
+        chk.unknown("O13.4", f"no delete outside the preserve branch{blind_g}", at)
+    else:
+        chk.ob("O13.4", "no delete outside the preserve branch", not foreign and not kept, at,
+               "" if not foreign and not kept else f"model cleanup removes {foreign or kept!r}: not one of the given paths, or removed although preserve is set")
+
+    def removed(text, want, detail):
+        missing = [p for p in want if p not in paths]
+        if missing and blind_g:
+            chk.unknown("O13.4", f"{text}: no removal of {missing} was seen, but the run was not fully interpreted{blind_g}", at)
+        else:
+            chk.ob("O13.4", text, not missing, at, "" if not missing else f"model cleanup(preserve=False, {install!r}, {data!r}) removes only {paths!r}: {detail}")
+
+    removed("every data path is deleted (unconditional loop)", data, "the loop over the data paths filters or skips some paths")
+    removed("the installation directory is deleted", [install], "the installation survives")
+    # each of them as a whole tree
+    wrong = [(k, p) for k, p in gone if k != "tree" and p in data + [install]]
+    if not gone:
+        chk.unknown("O13.4", f"delete_path removes the given tree: no removal call was seen{blind_g}", cu) if blind_g else chk.ob("O13.4", "delete_path removes the given tree", False, cu, "nothing is removed at all")
+    else:
+        chk.ob("O13.4", "delete_path removes the given tree", not wrong, cu, "" if not wrong else f"model: {wrong!r} - a data path / the installation is a directory tree, it needs a recursive removal")
+    _section(chk, "O13.4", "cleanup: failure containment", lambda: cleanup_isolation_rule(chk, "O13.4", pv))
+    _section(chk, "O13.4", "cleanup: symbolic-link data path", lambda: symlinked_data_path_rule(chk, "O13.4", pv, cu))
+
+
+# ---- template mirroring on values ------------------------------------------------------------------------------------------------------------------------------------------
+_S1, _S2 = "/team/cars/v1/b1/templates", "/team/cars/v1/b2/templates"
+# directory (relative to the source root) -> file names. Two files named elasticsearch.yml in different directories of one base (Jinja caches templates by loader and NAME),
+# one template that renders to nothing, binary files next to text files, a directory two levels down; the second base provides elasticsearch.yml again (append, not overwrite).
+_TREES = {
+    _S1: {"": ["elasticsearch.yml", "jvm.options", "keystore.jks", "empty.yml"], "config": ["elasticsearch.yml", "log4j2.properties"], "config/deep": ["roles.json", "plugin.jar"]},
+    _S2: {"": ["elasticsearch.yml", "notes.txt"]},
+    "/plugins/model-plugin/templates": {"": ["plugin-settings.yml"]},
+}
+_APPEND_MODES = ("a", "at", "ta", "a+", "at+", "a+t")
+
+
+class _Loader(Native):
+    def __init__(self, searchpath=OPAQUE, *a, **k):
+        self.searchpath = [searchpath] if isinstance(searchpath, str) else searchpath
+
+
+class _Template(Native):
+    SEEN: list = []  # the variables objects handed to render() since the list was last cleared
+
+    def __init__(self, path):
+        self.path = path
+
+    def render(self, *a, **k):
+        v = a[0] if a else k
+        _Template.SEEN.append((self.path, v, dict(v) if isinstance(v, dict) else None))
+        mark = v.get("marker") if isinstance(v, dict) else None
+        return "" if posixpath.basename(self.path).startswith("empty") else f"<{self.path}|{mark}>"  # (Jinja drops a trailing newline)
+
+
+class _JinjaEnv(Native):
+    """jinja2.Environment as far as it matters here: templates are resolved against the loader's search path WHEN FIRST LOADED and cached by (loader, name)."""
+
+    def __init__(self, loader=None, **k):
+        self.loader, self.globals, self.filters, self._cache = loader, {}, {}, {}
+
+    def get_template(self, name, *a, **k):
+        if not isinstance(self.loader, _Loader) or not isinstance(self.loader.searchpath, list) or not self.loader.searchpath or not isinstance(name, str):
+            raise CannotEval("template loader")
+        key = (id(self.loader), name)
+        if key not in self._cache:
+            self._cache[key] = _Template(posixpath.join(self.loader.searchpath[0], name))
+        return self._cache[key]
+
+
+class _File(Native):
+    def __init__(self, events, path, mode):
+        self._events, self.name, self.mode, self._texts = events, path, mode, []
+
+    def write(self, text=OPAQUE):
+        self._texts.append(text)
+        self._events.append(("write", self.name, self.mode, text))
+
+    write._raw = True  # type: ignore[attr-defined]
+
+    def writelines(self, lines=OPAQUE):
+        for t in (lines if isinstance(lines, (list, tuple)) else [OPAQUE]):
+            self.write(t)
+
+    def _chunk(self):
+        """everything written through this file object (one opening of the target = one appended chunk); unknown if any part is."""
+        return "".join(self._texts) if all(isinstance(t, str) for t in self._texts) else OPAQUE
+
+    def close(self):
+        pass
+
+    def flush(self):
+        pass
+
+
+def _mirror_world(events):
+    def walk(top, *a, **k):
+        if top not in _TREES:
+            raise CannotEval(f"os.walk({top!r}): not a directory of the model")
+        tree = _TREES[top]
+        return [(posixpath.join(top, rel) if rel else top, sorted({r[len(rel) + 1 if rel else 0:].split("/")[0] for r in tree if r != rel and (r.startswith(rel + "/") or not rel)}), list(files))
+                for rel, files in sorted(tree.items())]
+
+    def open_(path=OPAQUE, mode="r", *a, **k):
+        f = _File(events, path, mode)
+        events.append(("open", path, mode, f))
+        return f
+
+    def copy(src=OPAQUE, dst=OPAQUE, *a, **k):
+        events.append(("copy", src, dst, None))
+        return dst
+
+    open_._raw = copy._raw = True  # type: ignore[attr-defined]
+    return {"os.walk": walk, "open": open_, "io.open": open_, "shutil.copy": copy, "shutil.copy2": copy, "shutil.copyfile": copy, "os.makedirs": lambda *a, **k: None, "os.mkdir": lambda *a, **k: None,
+            "os.path.exists": lambda p: True, "os.path.isdir": lambda p: True, "jinja2.Environment": _JinjaEnv, "jinja2.FileSystemLoader": _Loader, "jinja2.loaders.FileSystemLoader": _Loader}
+
+
+class _ModelCar(Native):
+    def __init__(self):
+        self.variables = {"marker": "CAR", "docker_image": "img", "runtime.jdk": "17", "runtime.jdk.bundled": "true", "http_port": "1", "node_name": "car's"}
+        self.config_paths = [_S1, _S2]
+        self.names, self.name, self.root_path = ["model"], "model", []
+
+    def mandatory_var(self, name):
+        return self.variables[name]
+
+
+def _relevant_unknown(sim, tracked):
+    """the calls the model knows nothing about that received a value mentioning one of the tracked paths (they may have done what the rule is looking for)."""
+    return [c for c in sim.unknown_calls if any(isinstance(a, (str, _PPath)) and any(r in str(a) for r in tracked) for a in c)]
+
+
+def _mirror_judgement(events, sim, roots, target_root, mark):
+    """compares the recorded file operations of one mirroring site with what the property demands for every file of the walked model trees.
+    Returns {facet: (verdict, detail)} with verdict True / False / None (None: an expected operation was not seen but part of the run was not interpreted -> not recognised)."""
+    files = [(root, rel, name) for root in roots for rel, names in sorted(_TREES[root].items()) for name in names]
+    is_text = lambda name: posixpath.splitext(name)[1] in (".yml", ".options", ".properties", ".json", ".txt")  # noqa: E731   (the model's files only)
+    norm = lambda p: posixpath.normpath(p) if isinstance(p, str) else p  # noqa: E731
+    blind = bool(sim.notes)
+    # calls the model knows nothing about matter only if they received something of the model trees / the target (a path, a rendered text): those may have done the expected work
+    tracked = list(roots) + ([target_root] if target_root else [])
+    seen_unknown = [e for e in events if any(x is OPAQUE for x in e[1:3])] or _relevant_unknown(sim, tracked)
+    opens = [(norm(p), m) for k, p, m, _ in events if k == "open"]
+    writes = [(norm(p), m, f._chunk()) for k, p, m, f in events if k == "open"]  # one entry per opening of a file: the chunk written through it
+    copies = [(norm(s_), norm(d)) for k, s_, d, _ in events if k == "copy"]
+    # the target root as the site itself uses it: where the root-level file of the first tree went
+    first = next(((root, name) for root, rel, name in files if rel == "" and is_text(name)), None)
+    cand = [posixpath.dirname(p) for p, m, t in writes if isinstance(t, str) and isinstance(p, str) and first and posixpath.join(first[0], first[1]) in t] or \
+           [posixpath.dirname(p) for p, m in opens if isinstance(p, str) and first and posixpath.basename(p) == first[1]]
+    T = norm(target_root) if target_root is not None else (cand[0] if cand else None)
+    out = {}
+
+    def put(facet, bad, missing, judged):
+        """bad: located and wrong -> falsified; missing: an expected operation was not seen -> falsified, unless part of the run was not interpreted (then: not recognised);
+        judged: at least one operation this facet speaks about was seen (otherwise there is nothing to hold or fail: not recognised)."""
+        if bad:
+            out[facet] = (False, bad[0])
+        elif missing:
+            out[facet] = (None, missing[0]) if blind or seen_unknown else (False, missing[0])
+        else:
+            out[facet] = (True, "") if judged else (None, "none of the expected file operations was seen")
+
+    if T is None:
+        return {f: (None, "no write of a rendered template of the model was seen") for f in ("relroot", "target", "append", "written", "env", "copied", "source")}
+    b_rel, b_tgt, b_app, b_wr, m_wr, b_env, b_cp, m_cp, b_src, found_text, found_copy = [], [], [], [], [], [], [], [], [], [], []
+    for root, rel, name in files:
+        src = posixpath.join(root, rel, name) if rel else posixpath.join(root, name)
+        want = norm(posixpath.join(T, rel, name))
+        if is_text(name):
+            mine = [(p, m, t) for p, m, t in writes if isinstance(t, str) and isinstance(p, str) and f"|{mark}>" in t and f"/{name}|" in t and f"<{root}/" in t] if not name.startswith("empty") else \
+                   [(p, m, t) for p, m, t in writes if isinstance(t, str) and t.strip() == "" and isinstance(p, str) and posixpath.basename(p) == name]
+            exact = [(p, m, t) for p, m, t in mine if f"<{src}|" in t] if not name.startswith("empty") else mine
+            if not mine:
+                other = [t for p, m, t in writes if isinstance(t, str) and f"<{src}|" in t]
+                if other:
+                    b_wr.append(f"`{src}` is rendered with other variables than the composed ones: {other[0]!r}")
+                else:
+                    m_wr.append(f"no write of the rendered `{src}`" + (" (a template that renders to nothing must still be created in the installation)" if name.startswith("empty") else ""))
+                continue
+            if not exact:
+                b_env.append(f"the text written for `{src}` is the rendering of another directory's template of the same name: {mine[0][2]!r}")
+                continue
+            p, m, t = exact[0]
+            found_text.append(src)
+            if len([e for e in exact if e[0] == p]) > 1:
+                b_wr.append(f"`{src}` is written {len([e for e in exact if e[0] == p])} times to `{p}`")
+            if posixpath.dirname(p) != norm(posixpath.join(T, rel)):
+                b_rel.append(f"`{src}` (directory `{rel or '.'}` below the source root) is written to `{p}`, expected `{want}`")
+            elif p != want:
+                b_tgt.append(f"`{src}` is written to `{p}`, expected `{want}`")
+            if m not in _APPEND_MODES:
+                b_app.append(f"`{p}` is opened with mode={m!r}: a file that several config bases provide is overwritten instead of appended to")
+            if [c for c in copies if c[0] == src]:
+                b_cp.append(f"the text file `{src}` is copied as well")
+        else:
+            mine = [c for c in copies if c[0] == src]
+            if not mine:
+                byname = [c for c in copies if isinstance(c[0], str) and posixpath.basename(c[0]) == name]
+                (b_src if byname else m_cp).append(f"`{src}` is copied from `{byname[0][0]}`" if byname else f"no verbatim copy of the binary file `{src}`")
+                continue
+            d = mine[0][1]
+            if not isinstance(d, str):
+                continue  # copied to a path that could not be evaluated (counted in seen_unknown)
+            if d == norm(posixpath.join(T, rel)):
+                d = want  # shutil.copy(<file>, <existing directory>) puts the file into that directory under its own name
+            found_copy.append(src)
+            if posixpath.dirname(d) != norm(posixpath.join(T, rel)):
+                b_rel.append(f"`{src}` (directory `{rel or '.'}` below the source root) is copied to `{d}`, expected `{want}`")
+            elif d != want:
+                b_tgt.append(f"`{src}` is copied to `{d}`, expected `{want}`")
+            if [o for o in opens if o[0] == want and o[1] not in ("r", "rb", "rt")]:
+                b_cp.append(f"the binary file `{src}` is opened for writing as well")
+    n_text, n_copy = len(found_text), len(found_copy)
+    put("relroot", b_rel, [], n_text + n_copy)
+    put("target", b_tgt, [], n_text + n_copy)
+    put("append", b_app, [], n_text)
+    put("written", b_wr, m_wr, n_text)
+    put("env", b_env, [], n_text or b_env)
+    put("copied", b_cp, m_cp, n_copy)
+    put("source", b_src, [], n_text + n_copy)
+    return out
+
+
+def mirroring_rules(chk, repo, pv, st):
+    rt = pv.get("_render_template", required=False)  # the renderer is an anchor of convenience only: the obligations are decided on what reaches the files
+    rt = rt if isinstance(rt, ast.FunctionDef) and len(params_of(rt)) >= 3 else None
+    rp = params_of(rt) if rt is not None else []
+    BP, DP, EI = pv.cls("BareProvisioner"), pv.cls("DockerProvisioner"), pv.cls("ElasticsearchInstaller")
+    prep = pv.methods(BP).get("prepare")
+    binit = pv.methods(BP).get("__init__")
+    if prep is None or binit is None:
+        raise AnchorMissing("BareProvisioner.__init__ / prepare")
+    # ---- site 1: the bare provisioner, END TO END: BareProvisioner(<model installer>, [<model plugin installer>]).prepare(<binaries>) with whatever applies a config base ----
+    ev1, sim1, seen1, why1 = _run_bare_prepare(repo, pv, BP, prep, binit)
+    site1, j1, loc = prep, None, None
+    if not why1:
+        try:
+            j1 = _mirror_judgement(ev1, sim1, [_S1, _S2], _ModelInstaller.HOME, "CAR")
+        except CannotEval as x:
+            why1 = str(x)
+    if j1 is None or all(v is None for v, _ in j1.values()):
+        # fallback: the function behind the injected `apply_config`, located by field flow, interpreted on its own
+        try:
+            loc = _locate_apply_config(pv, BP, binit, prep, rt, rp)
+            ev1, seen1 = [], []
+            sim1 = Sim(repo, externals=_mirror_world(ev1))
+            sim1.invoke(Fn(loc["acf"], pv), [], {loc["srcp"]: _S1, loc["tgtp"]: "/node/install/es", loc["varp"]: {"marker": "COMPOSED"}})
+            j1, site1, why1 = _mirror_judgement(ev1, sim1, [_S1], "/node/install/es", "COMPOSED"), loc["acf"], ""
+        except (CannotEval, Raised, AnchorMissing) as x:
+            j1 = None
+            why1 = why1 or f"{type(x).__name__}: {x if not isinstance(x, Raised) else 'raises at line ' + str(getattr(x.node, 'lineno', '?'))}"
+    st.update(prep=prep, rt=rt, rp=rp, BP=BP, DP=DP, bare=(ev1, sim1, seen1, why1, site1 is prep), binit=binit)
+    # ---- site 2: the docker provisioner ------------------------------------------------------------------------------------------------------------------------------------
+    dprep = pv.methods(DP).get("prepare")
+    dinit = pv.methods(DP).get("__init__")
+    if dprep is None or dinit is None:
+        raise AnchorMissing("DockerProvisioner.__init__ / prepare")
+    ev2 = []
+    sim2 = Sim(repo, externals=_mirror_world(ev2))
+    try:
+        args = [_ModelCar()] + [(39200 if "port" in p else f"/{p}") for p in params_of(dinit)[2:]]
+        dp = sim2.construct(ClassRef(DP, pv), args, {})
+        _Template.SEEN.clear()
+        sim2.notes.clear()  # what the constructor could not interpret is unknown state, not an uninterpreted part of prepare
+        sim2.unknown_calls.clear()
+        sim2.call_value(sim2.getattr(dp, dprep.name), [OPAQUE] * (len(params_of(dprep)) - 1), {})
+        notes2 = [(s_, r) for s_, r in sim2.notes if any(e_ is s_ or any(a is e_ for a in source.ancestors(s_)) for e_ in [dprep])]
+        sim2.notes[:] = notes2
+        j2 = _mirror_judgement(ev2, sim2, [_S1, _S2], None, "CAR")
+        # the attribute of the docker provisioner whose value reaches the renderer of the mirrored templates (by identity of the object, not by name)
+        held = [a for a, val in dp.fields.items() if isinstance(val, dict) and any(val is x for _, x, _ in _Template.SEEN)]
+        st["dvar_attr"] = held[0] if len(held) == 1 else None
+    except (CannotEval, Raised) as x:
+        j2 = None
+        why2 = f"{type(x).__name__}: {x if isinstance(x, CannotEval) else 'raises at line ' + str(getattr(x.node, 'lineno', '?'))}"
+    acf = site1
+    located = [j for j in (j1, j2) if j is not None and any(v is not None for v, _ in j.values())]
+    if len(located) == 2:
+        chk.ob("O13.3", "template-mirroring sites located (bare and docker provisioner)", True, pv.tree, "2 sites interpreted over the model trees")
+    else:
+        chk.unknown("O13.3", "template-mirroring sites located (bare and docker provisioner): " + "; ".join(x for x in (
+            f"{source.qualname(prep)} could not be interpreted ({why1})" if j1 is None else ("" if j1 in located else f"no file operation on the model trees was seen in {source.qualname(site1)} ({_why(sim1)})"),
+            f"DockerProvisioner.{dprep.name} could not be interpreted ({why2})" if j2 is None else ("" if j2 in located else f"no file operation on the model trees was seen in DockerProvisioner.{dprep.name} ({_why(sim2)})")) if x), pv.tree)
+    FACETS = [("relroot", "relative root == directory path relative to the source root"), ("target", "target file == join(join(target root, relative root), name)"),
+              ("append", "text files opened in append mode"), ("written", "the rendered template is written"),
+              ("env", "a fresh template environment per walked directory, loading from that directory"), ("copied", "other files copied verbatim"),
+              ("source", "source file == join(walked directory, name)")]
+    for fn, j, sim_ in ((acf, j1, sim1), (dprep, j2, sim2)):
+        if j is None:
+            continue
+        tag = source.qualname(fn)
+        walks = [n for n in ast.walk(fn) if isinstance(n, ast.For) and isinstance(n.iter, ast.Call) and dotted(n.iter.func) == "os.walk"]
+        at = walks[0] if walks else fn
+        for facet, text in FACETS:
+            verdict, detail = j[facet]
+            if verdict is None:
+                chk.unknown("O13.3", f"{tag}: {text}: {detail}; not everything was interpreted ({_why(sim_)})", at)
+            else:
+                chk.ob("O13.3", f"{tag}: {text}", verdict, at, ("model tree: " + detail) if detail else "", key=f"{_P}:{tag}:env-per-directory" if facet == "env" else None)
+    # ---- every appended chunk ends with a newline: on the chunks the two sites wrote; on the renderer itself if none was seen ----------------------------------------------
+    text = "every rendered chunk ends with a newline (appended snippets never glue onto the previous line)"
+    rets = [n for n in walk_body(rt) if isinstance(n, ast.Return)] if rt is not None else []
+    at_nl = rets[0] if rets else (rt if rt is not None else prep)
+    chunks = [(p_, f._chunk()) for ev in (ev1, ev2) for k, p_, m, f in ev if k == "open" and m in _APPEND_MODES and isinstance(p_, str) and posixpath.basename(p_) != "docker-compose.yml"]
+    if chunks and all(isinstance(t, str) for _, t in chunks):
+        glued = [(p_, t) for p_, t in chunks if not t.endswith("\n")]
+        chk.ob("O13.3", text, not glued, at_nl, "" if not glued else f"model tree: the chunk appended to `{glued[0][0]}` is {glued[0][1]!r}: the next config base's snippet continues on the same line")
+    elif rt is None:
+        chk.unknown("O13.3", f"{text}: no appended chunk of the model run could be evaluated and there is no _render_template(env, variables, file_name) to evaluate instead", at_nl)
+    else:
+        sim3 = Sim(repo, externals=_mirror_world([]))
+        outs = []
+        try:
+            for name in ("elasticsearch.yml", "empty.yml"):
+                outs.append(sim3.invoke(Fn(rt, pv), [], {rp[0]: _JinjaEnv(loader=_Loader(_S1)), rp[1]: {"marker": "M"}, rp[2]: posixpath.join(_S1, name)}))
+        except (CannotEval, Raised):
+            outs = None
+        if outs is None or not all(isinstance(o, str) for o in outs):
+            chk.unknown("O13.3", f"{text}: neither the appended chunks nor {rt.name} could be evaluated on the model templates ({_why(sim3)})", at_nl)
+        else:
+            ok = outs[0] == f"<{_S1}/elasticsearch.yml|M>\n" and outs[1] == "\n"
+            chk.ob("O13.3", text, ok, at_nl, "" if ok else f"model templates render to {outs!r}; expected the rendered text followed by exactly one newline")
+    # ---- the text / binary predicate on file names -----------------------------------------------------------------------------------------------------------------------------
+    pt = pv.func("plain_text")
+    text = "text/binary predicate is one extension table (incl. .yml .options .properties)"
+    TEXT, BINARY = (".yml", ".yaml", ".options", ".properties", ".json", ".ini", ".txt"), (".jks", ".jar", ".p12", ".zip", ".so")
+    sim4 = Sim(repo)
+    got = {}
+    try:
+        for ext in TEXT + BINARY:
+            got[ext] = sim4.invoke(Fn(pt, pv), ["/src/config/file-1.2" + ext], {})
+    except (CannotEval, Raised) as x:
+        got = None
+    if got is None or any(sim4.unknown(v) for v in got.values()):
+        chk.unknown("O13.3", f"{text}: {pt.name} could not be evaluated on file names ({_why(sim4)})", pt)
+    else:
+        bad = [e for e in TEXT if not sim4.truth(got[e])] + [e for e in BINARY if sim4.truth(got[e])]
+        chk.ob("O13.3", text, not bad, pt, "" if not bad else f"file names ending in {bad} are classified {'binary' if bad[0] in TEXT else 'text'}")
+    # ---- every config base is applied, in order -----------------------------------------------------------------------------------------------------------------------------------
+    text = "every config base is applied, in order"
+    loops = [n for n in walk_body(prep) if isinstance(n, ast.For) and isinstance(n.target, ast.Name) and last_attr(n.iter) == "config_source_paths"]
+    lp_ = loops[0] if loops else prep
+    if site1 is prep and j1 is not None:
+        # from the end-to-end run: everything that was done for the first config source path happened before anything that was done for the second one
+        def root_of(e):
+            k, a, b, f = e
+            hay = [x for x in (a, b, f._chunk() if k == "open" and f is not None else None) if isinstance(x, str)]
+            return next((r for r in (_S1, _S2) if any(r + "/" in h for h in hay)), None)
+        order = [r for r in (root_of(e) for e in ev1 if e[0] in ("open", "copy")) if r is not None]
+        blind = bool(sim1.notes or _relevant_unknown(sim1, [_S1, _S2, _ModelInstaller.HOME]))
+        if _S1 not in order or _S2 not in order:
+            missing = [r for r in (_S1, _S2) if r not in order]
+            if blind or not order:
+                chk.unknown("O13.3", f"{text}: nothing was seen to be done for {missing}, but the run was not fully interpreted ({_why(sim1)})", lp_)
+            else:
+                chk.ob("O13.3", text, False, lp_, f"model installer with the config source paths {[_S1, _S2]}: nothing is done for {missing}")
+        else:
+            ok = order == sorted(order, key=[_S1, _S2].index)
+            chk.ob("O13.3", text, ok, lp_, "" if ok else f"model installer with the config source paths {[_S1, _S2]}: the files were handled in the order {_dedupe(order)} / interleaved")
+    else:
+        # fallback: a recorder in place of the injected function
+        try:
+            loc = loc or _locate_apply_config(pv, BP, binit, prep, rt, rp)
+            st["applied"] = _simulate_bare_prepare(repo, pv, BP, prep, binit, loc["ac_param"])
+        except AnchorMissing as x:
+            st["applied"] = (None, sim1, str(x))
+        calls, sim5, why5 = st["applied"]
+        if calls is None or not calls:
+            chk.unknown("O13.3", f"{text}: {source.qualname(prep)} could not be interpreted over the model installer ({why5 or 'no config base was applied; ' + _why(sim5)})", lp_)
+        else:
+            srcs = [c["src"] for c in calls if c["src"] in (_S1, _S2)]
+            off = [c for c in calls if c["src"] in (_S1, _S2) and c["tgt"] != _ModelInstaller.HOME]
+            ok = srcs == [_S1, _S2] and not off
+            chk.ob("O13.3", text, ok, lp_, "" if ok else f"model installer with the config source paths {[_S1, _S2]} and the installation in {_ModelInstaller.HOME!r}: applied {[(c['src'], c['tgt']) for c in calls]!r}")
+    csp = pv.methods(EI).get("config_source_paths")
+    text = "config source paths are the car's config paths (as accumulated)"
+    if csp is None:
+        chk.unknown("O13.3", f"{text}: ElasticsearchInstaller.config_source_paths not found", EI)
+    else:
+        sim6 = Sim(repo)
+        inst = Obj(ClassRef(EI, pv))
+        inst.fields[_car_field(pv, EI)] = _ModelCar()
+        try:
+            got = sim6.getattr(inst, csp.name)
+            got = sim6.call_value(got, [], {}) if isinstance(got, Fn) else got
+        except (CannotEval, Raised):
+            got = OPAQUE
+        if not isinstance(got, (list, tuple)) or not sim6.known(got):
+            chk.unknown("O13.3", f"{text}: {source.qualname(csp)} could not be evaluated for a model car ({_why(sim6)})", csp)
+        else:
+            chk.ob("O13.3", text, list(got) == [_S1, _S2], csp, "" if list(got) == [_S1, _S2] else f"model car with the config paths {[_S1, _S2]}: the installer reports {list(got)!r}")
+
+
+class _ModelPlugin(Native):
+    def __init__(self):
+        self.name, self.moved_to_module, self.core_plugin, self.config, self.root_path, self.config_paths = "model-plugin", False, True, ["default"], None, ["/plugins/model-plugin/templates"]
+        self.variables = {"plugin_only": "PLUGIN"}
+
+
+class _ModelPluginInstaller(Native):
+    """a plugin installer whose variables try to replace every node variable of Rally."""
+
+    def __init__(self):
+        self.plugin = _ModelPlugin()
+        self.plugin_name = self.sub_plugin_name = "model-plugin"
+        self.config_source_paths = ["/plugins/model-plugin/templates"]
+        self.variables = dict({k: "PLUGIN" for k in INTERNAL_KEYS}, plugin_only="PLUGIN")
+
+    def install(self, *a, **k):
+        return None
+
+    def invoke_install_hook(self, *a, **k):
+        return None
+
+
+class _ModelInstaller(Native):
+    HOME = "/node/install/elasticsearch-9"
+
+    def __init__(self):
+        self.car = _ModelCar()
+        self.es_home_path, self.install_dir, self.node_root_dir = self.HOME, "/node/install", "/node"
+        self.node_ip, self.node_name, self.http_port, self.data_paths, self.java_home = "10.0.0.1", "rally-node-0", 39200, [self.HOME + "/data"], None
+        self.config_source_paths = [_S1, _S2]
+        self.node_variables = {k: "NODE" for k in INTERNAL_KEYS}
+        self.variables = {**self.car.variables, **self.node_variables}
+
+    def install(self, *a, **k):
+        return None
+
+    def delete_pre_bundled_configuration(self, *a, **k):
+        return None
+
+    def invoke_install_hook(self, *a, **k):
+        return None
+
+
+def _locate_apply_config(pv, BP, binit, prep, rt, rp):
+    """the function that applies ONE config base, by field flow: `self.<a> = <parameter>` in BareProvisioner.__init__ whose default is a module-level function; its parameter roles
+    from the call in prepare (the loop variable over the config source paths is the source root, the parameter that reaches the renderer is the variables)."""
+    positional = binit.args.posonlyargs + binit.args.args
+    dflt = dict(zip([a.arg for a in positional[len(positional) - len(binit.args.defaults):]], binit.args.defaults))
+    dflt.update({a.arg: d for a, d in zip(binit.args.kwonlyargs, binit.args.kw_defaults) if d is not None})
+    ac_set = [(n.targets[0].attr, n.value) for n in walk_body(binit) if isinstance(n, ast.Assign) and len(n.targets) == 1 and is_self_attr(n.targets[0]) and isinstance(n.value, ast.Name)
+              and isinstance(dflt.get(n.value.id), ast.Name) and isinstance(pv.get(dflt[n.value.id].id, required=False), ast.FunctionDef)]
+    if len(ac_set) != 1:
+        raise AnchorMissing("BareProvisioner.__init__(..., apply_config=<module function>): the attribute that holds the function which applies one config base")
+    ac_attr, acf = ac_set[0][0], pv.get(dflt[ac_set[0][1].id].id)
+    acalls = [n for n in walk_body(prep) if isinstance(n, ast.Call) and is_self_attr(n.func, ac_attr)]
+    srcp = tgtp = varp = None
+    loops = [n for n in walk_body(prep) if isinstance(n, ast.For) and isinstance(n.target, ast.Name) and last_attr(n.iter) == "config_source_paths"]
+    for c in acalls:
+        b = source.bind_args(c, acf, skip_self=False)
+        lv = [k for k, v in b.items() if isinstance(v, ast.Name) and any(v.id == l.target.id and any(x is c for x in ast.walk(l)) for l in loops)]
+        if len(lv) == 1 and len(b) == 3:
+            srcp = lv[0]
+            break
+    rcalls = [n for n in ast.walk(acf) if isinstance(n, ast.Call) and last_attr(n.func) == rt.name] if rt is not None else []
+    varp = next((u(source.bind_args(c, rt, skip_self=False).get(rp[1])) for c in rcalls if u(source.bind_args(c, rt, skip_self=False).get(rp[1])) in params_of(acf)), None)
+    aps = params_of(acf)
+    if srcp is None or varp is None or len(aps) != 3 or srcp == varp:
+        srcp, tgtp, varp = (aps + [None, None, None])[:3]  # positional convention (source root, target root, variables)
+    else:
+        tgtp = next(p_ for p_ in aps if p_ not in (srcp, varp))
+    if None in (srcp, tgtp, varp):
+        raise AnchorMissing(f"{acf.name}(source root, target root, variables)")
+    return {"acf": acf, "ac_attr": ac_attr, "ac_param": ac_set[0][1].id, "srcp": srcp, "tgtp": tgtp, "varp": varp}
+
+
+def _run_bare_prepare(repo, pv, BP, prep, binit):
+    """BareProvisioner(<model installer>, [<model plugin installer>]).prepare(<binaries>) over the mirror world, end to end: the recorded file operations, the simulation,
+    the (template, variables snapshot) pairs that reached the renderer, and why the run failed ('' if it did not)."""
+    events = []
+    sim = Sim(repo, externals=_mirror_world(events))
+    if len(params_of(binit)) < 3:
+        return events, sim, [], "BareProvisioner.__init__(self, es_installer, plugin_installers, ...)"
+    _Template.SEEN.clear()
+    try:
+        bp = sim.construct(ClassRef(BP, pv), [_ModelInstaller(), [_ModelPluginInstaller()]], {})
+        if sim.unknown(bp):
+            return events, sim, [], f"the constructor could not be interpreted ({_why(sim)})"
+        sim.call_value(sim.getattr(bp, prep.name), [{"elasticsearch": "/dist/elasticsearch.tar.gz", "model-plugin": "/dist/plugin.zip"}][:max(0, len(params_of(prep)) - 1)], {})
+    except Raised as r:
+        return events, sim, [], f"raises at line {getattr(r.node, 'lineno', '?')}"
+    except CannotEval as x:
+        return events, sim, [], str(x)
+    return events, sim, [(p_, snap if snap is not None and sim.known(v) else None) for p_, v, snap in _Template.SEEN], ""
+
+
+def _simulate_bare_prepare(repo, pv, BP, prep, binit, ac_param):
+    """BareProvisioner(<model installer>, [<model plugin installer>], apply_config=<recorder>).prepare(<binaries>): the recorded applications of a config base
+    [{src, tgt, vars (a snapshot)}], the simulation, and why it failed (if it did)."""
+    calls = []
+    sim = Sim(repo, externals=_mirror_world([]))
+
+    def record(*a, **k):
+        vals = list(a) + list(k.values())
+        dicts = [v for v in vals if isinstance(v, dict)]
+        strs = [v for v in vals if isinstance(v, str)]
+        src = next((v for v in strs if v in (_S1, _S2) or v.startswith("/plugins/")), None)
+        calls.append({"src": src, "tgt": next((v for v in strs if v is not src), None), "vars": (dict(dicts[0]) if len(dicts) == 1 and sim.known(dicts[0]) else None)})
+
+    record._raw = True  # type: ignore[attr-defined]
+    ps = params_of(binit)[1:]
+    if len(ps) < 2 or ac_param not in ps + [a.arg for a in binit.args.kwonlyargs]:
+        return None, sim, "BareProvisioner.__init__(self, es_installer, plugin_installers, ..., apply_config=...)"
+    try:
+        bp = sim.construct(ClassRef(BP, pv), [_ModelInstaller(), [_ModelPluginInstaller()]], {ac_param: record})
+        if sim.unknown(bp):
+            return None, sim, f"the constructor could not be interpreted ({_why(sim)})"
+        sim.call_value(sim.getattr(bp, prep.name), [{"elasticsearch": "/dist/elasticsearch.tar.gz", "model-plugin": "/dist/plugin.zip"}][:max(0, len(params_of(prep)) - 1)], {})
+    except Raised as r:
+        return None, sim, f"raises at line {getattr(r.node, 'lineno', '?')}"
+    except CannotEval as x:
+        return None, sim, str(x)
+    return calls, sim, ""
+
+
+def rendered_variables_rules(chk, repo, pv, st):
+    need = ("L5", "flow5", "pvf", "prep", "rt", "rp", "DP", "BP", "bare", "binit")
+    for k in need:
+        if k not in st:
+            raise AnchorMissing(f"an earlier part of the check did not locate `{k}`")
+    L5, flow5, pvf, prep, rt, rp, DP, BP, bare, binit = (st[k] for k in need)
+    text = "bare provisioner: Rally's node variables are the last source of their keys (no car / plugin / user source is merged after them)"
+    if not L5:
+        chk.unknown("O13.5", f"{text}: the dict returned by {source.qualname(pvf)} was not modelled", pvf)
+    else:
+        over5 = overridable(L5, INTERNAL_KEYS, flow5)
+        first_bad = next((L for _, L in sorted(over5.items()) if L is not None), None)
+        chk.ob("O13.5", text, not over5 and not flow5.issues, (first_bad.node if first_bad is not None else (flow5.issues[0][1] if flow5.issues else pvf)),
+               f"merge order: {[L.show() for L in L5]}" + "".join(f"; `{k}` is taken from {L.show() if L is not None else 'no source of Rally on every path'}" for k, L in sorted(over5.items())[:4]) +
+               (f" (+{len(over5) - 4} more keys)" if len(over5) > 4 else "") + "".join(f"; {t}" for t, _ in flow5.issues),
+               key=f"{_P}:BareProvisioner._provisioner_variables:node-variables-merged-last")
+    # the composed variables reach the renderer, decided on VALUES: BareProvisioner.prepare is interpreted with a model installer (car variables, node variables "NODE") and a model
+    # plugin installer whose variables try to replace every node variable ("PLUGIN"): every rendering of a template of the car's config bases received variables in which all of
+    # Rally's node variables are Rally's and the car's variables are present (end to end; failing that, with a recorder in place of the function that applies one config base)
+    text = "bare provisioner: every config base is rendered with the composed variables (unchanged between composition and rendering)"
+    ev1, sim1, seen1, why1, end_to_end = bare
+    at = next((n for n in walk_body(prep) if isinstance(n, ast.Call) and any(isinstance(a, ast.Name) for a in n.args) and is_self_attr(n.func) and isinstance(source.enclosing(n, ast.For), ast.For)), prep)
+    if end_to_end and not why1:
+        used = [(p_, snap) for p_, snap in seen1 if p_.startswith((_S1 + "/", _S2 + "/"))]
+        sim5 = sim1
+    else:
+        try:
+            calls, sim5, why5 = st["applied"] if "applied" in st else _simulate_bare_prepare(chk.repo, pv, BP, prep, binit, _locate_apply_config(pv, BP, binit, prep, rt, rp)["ac_param"])
+        except AnchorMissing as x:
+            calls, sim5, why5 = None, sim1, str(x)
+        used = [(c["src"], c["vars"]) for c in calls if c["src"] in (_S1, _S2)] if calls else []
+        why1 = why5
+    if not used:
+        chk.unknown("O13.5", f"{text}: {source.qualname(prep)} could not be interpreted over the model installer ({why1 or 'no template of a config base was rendered; ' + _why(sim5)})", at)
+    elif any(snap is None for _, snap in used):
+        chk.unknown("O13.5", f"{text}: the variables handed to the renderer could not be evaluated ({_why(sim5)})", at)
+    else:
+        bad = [(p_, k, snap.get(k)) for p_, snap in used for k in sorted(INTERNAL_KEYS) if snap.get(k) != "NODE"] + [(p_, "marker", snap.get("marker")) for p_, snap in used if snap.get("marker") != "CAR"]
+        chk.ob("O13.5", text, not bad, at, f"{len(used)} rendering(s) / application(s) in the model run" + ("" if not bad else
+               f"; `{bad[0][0]}` is rendered with `{bad[0][1]}` = {bad[0][2]!r} (model: node variables 'NODE', plugin variables 'PLUGIN', car variable marker='CAR')"))
+    # docker provisioner: the same question for the attribute its templates are rendered with
+    dinit = pv.methods(DP).get("__init__")
+    if dinit is None:
+        raise AnchorMissing("DockerProvisioner.__init__")
+    car_attr = _car_field(pv, DP)
+    dvar = ast.parse(f"self.{st['dvar_attr']}", mode="eval").body if st.get("dvar_attr") else None  # located by the model run of the docker provisioner
+    if dvar is None and rt is not None:
+        drc = [n for f_ in pv.methods(DP).values() for n in ast.walk(f_) if isinstance(n, ast.Call) and last_attr(n.func) == rt.name and not is_self_attr(n.func)]
+        dvars = [source.bind_args(c, rt, skip_self=False).get(rp[1]) for c in drc]
+        dvar = next((v for v in dvars if v is not None and is_self_attr(v)), None)
+    if dvar is None:
+        raise AnchorMissing("DockerProvisioner: the self attribute handed to _render_template as variables")
+    flow6 = DictFlow(repo, pv)
+    L6 = flow6.variable(dvar, dinit, DP, 0) or []
+    t1 = "docker provisioner: car variables merged before Rally's node variables"
+    t5 = "docker provisioner: Rally's node variables are the last source of their keys in the variables its templates are rendered with"
+    if not L6:
+        chk.unknown("O13.1", f"{t1}: how `{u(dvar)}` is built in {source.qualname(dinit)} was not modelled", dinit)
+        chk.unknown("O13.5", f"{t5}: how `{u(dvar)}` is built in {source.qualname(dinit)} was not modelled", dinit)
+        return
+    CORE = {"network_host", "http_port", "transport_port", "data_paths", "node_name", "cluster_name"}
+    DOCKER_KEYS = CORE | {"log_path", "install_root_path"}
+    over6 = overridable(L6, DOCKER_KEYS, flow6)
+    has_car = any(_is_car_vars(L, car_attr) for L in L6)
+    if not has_car and any(L.origin == "user" for L in L6):
+        chk.unknown("O13.1", f"{t1}: none of the merged sources {[L.show() for L in L6]} was recognised as the car's variables (`self.{car_attr}.variables`)", dinit)
+    else:
+        core_over = {k: L for k, L in over6.items() if k in CORE}
+        ok = has_car and not core_over and not flow6.issues and all(L.must for L in L6 if _is_car_vars(L, car_attr))
+        chk.ob("O13.1", t1, ok, L6[-1].node if isinstance(L6[-1].node, ast.AST) else dinit, f"merge order: {[L.show() for L in L6]}" + ("" if has_car else "; the car's variables are not merged at all"))
+    elsewhere = [n for f_ in pv.methods(DP).values() if f_ is not dinit for n in walk_body(f_)
+                 if (isinstance(n, ast.Call) and isinstance(n.func, ast.Attribute) and n.func.attr in ("update", "pop", "setdefault", "clear") and u(n.func.value) == u(dvar))
+                 or (isinstance(n, ast.Assign) and any(u(t) == u(dvar) or (isinstance(t, ast.Subscript) and u(t.value) == u(dvar)) for t in n.targets))]
+    bad6 = next((L for _, L in sorted(over6.items()) if L is not None), None)
+    chk.ob("O13.5", t5, not over6 and not flow6.issues and not elsewhere,
+           bad6.node if bad6 is not None else (elsewhere[0] if elsewhere else dinit), f"merge order: {[L.show() for L in L6]}" + "".join(f"; `{k}` is taken from {L.show() if L is not None else 'no source of Rally on every path'}" for k, L in sorted(over6.items())[:4]) +
+           "".join(f"; {t}" for t, _ in flow6.issues) + (f"; changed again in {source.qualname(elsewhere[0])}" if elsewhere else ""),
+           key=f"{_P}:DockerProvisioner.__init__:node-variables-merged-last")
+
+
+def _section(chk, rid, what, fn):
+    """one independent part of the check: a role that cannot be located makes THIS part 'not recognised' (exit 2) and leaves the other parts decided."""
+    try:
+        fn()
+    except AnchorMissing as e:
+        chk.unknown(rid, f"{what}: {e}")
+    except CannotEval as e:
+        chk.unknown(rid, f"{what}: could not be evaluated ({e})")
+    except RecursionError:
+        chk.unknown(rid, f"{what}: could not be evaluated (the interpreted code recurses too deeply)")
+    except (TypeError, ValueError, KeyError, IndexError, AttributeError) as e:
+        # a shape neither the model worlds nor the judgement of their records anticipated: this part is not recognised (never a verdict)
+        chk.unknown(rid, f"{what}: could not be evaluated on this shape ({type(e).__name__}: {e})")
 
 
 def run(chk):
@@ -395,391 +2738,60 @@ def run(chk):
     tm, pv = repo.module(_T), repo.module(_P)
     chk.use(tm, pv, "docs/car.rst")
     chk.explanation = (
-        "Decides precedence by merge-order analysis (later source wins): config-base variables < car variables < car parameters in the car loader, accumulated over the car names in the "
-        "given order; Rally's node variables merged last in the installer; config bases appended in order under a not-in guard; template mirroring (target path = target root + path "
-        "relative to the source root + name; text files appended with a rendered chunk that always ends in a newline; others copied; one extension table); cleanup deletes every data "
-        "path and the installation unless preserve, in which case no delete is reachable; a symbolic-link data path is either handled or its refused removal is not swallowed. "
-        "O13.5 models the variables the templates are rendered with as ordered merge layers (followed through locals, dict displays, properties and - by constructor field flow - "
-        "through the installer objects): for every node variable of Rally the last layer that can hold it is Rally's own."
+        "Decided on VALUES wherever the property speaks about values: the analysed functions are INTERPRETED (a small AST interpreter in this module; no repository code is imported "
+        "or run) over model worlds, and what they compute is compared with what the property demands. Car loader: team.load_car and CarLoader.load_car over a model team repository "
+        "(three cars, one of them a mixin; four config bases, one without config.ini; car parameters) in which every clause of the documented precedence decides some key: config-base "
+        "variables < car variables < car parameters, later cars over earlier ones, config bases in the order given without duplicates, at least one config base. Template mirroring: the "
+        "function that applies one config base, DockerProvisioner.prepare and BareProvisioner.prepare over model template trees with recording models of os.walk / open / shutil / jinja2 "
+        "(two same-named templates in different directories, a template that renders to nothing, binaries, a second base providing the same file): every file reaches target root + "
+        "relative directory + name, text files are appended with the rendering of THEIR template ending in a newline, others are copied; the text/binary predicate on file names. "
+        "cleanup over a model file system: nothing removed when preserving, every data path and the installation otherwise; with one path that cannot be removed the rest is still "
+        "removed or the failure surfaces; with a data path that is a symbolic link the link is dealt with or the refusal surfaces. Helper functions, comprehensions, other accumulator "
+        "idioms, renamed locals / attributes compute the same values; what the interpreter cannot evaluate is 'not recognised', never a violation. "
+        "Rally's node variables: the variables the templates are rendered with are modelled as ordered merge layers (followed through locals, dict displays, ChainMap, properties and - by "
+        "constructor field flow - through the installer objects): for every node variable the last layer that can hold it is Rally's own; cross-checked on values in the model run of prepare."
     )
     chk.not_decided = "Jinja output, filesystem effects, configparser interpolation."
 
-    # ---- O13.1 merge order ---------------------------------------------------------------------------------------------------------------------
     chk.rule("O13.1", "merge order (later wins): config-base variables < car variables (car file < car params) in the loader; across cars accumulation in the given order; "
              "in the installer car variables < Rally's node variables (network host, ports, paths, names are in the last source)", 9,
              "any two sources defining one key: the documented precedence is inverted (e.g. a car overrides http_port, or --car-params does not override a mixin)")
-    lc = tm.func("load_car")
-    lp = params_of(lc)
-    if len(lp) < 3:
-        raise AnchorMissing("team.load_car(repo, name, car_params)")
-    CL = tm.cls("CarLoader")
-    cl = tm.methods(CL).get("load_car")
-    if cl is None:
-        raise AnchorMissing("CarLoader.load_car")
-    cp = params_of(cl)
-    if len(cp) < 3:
-        raise AnchorMissing("CarLoader.load_car(self, name, car_params)")
-    ret = [n for n in walk_body(lc) if isinstance(n, ast.Return) and isinstance(n.value, ast.Call) and last_attr(n.value.func) == "Car"]
-    if not ret:
-        raise AnchorMissing("return Car(...) in team.load_car")
-    car_init = tm.methods(tm.cls("Car")).get("__init__")
-    if car_init is None:
-        raise AnchorMissing("Car.__init__")
-    cargs = source.bind_args(ret[0].value, car_init)  # Car(...) arguments by PARAMETER name (positional or keyword)
-    if "variables" not in cargs or "config_paths" not in cargs:
-        raise AnchorMissing("variables / config_paths argument of Car(...) in team.load_car")
-    var = u(cargs["variables"])
-    seq, g = merges_into(lc, var)
-    names = [s for s, _ in seq]
-    # classify accumulators by what is merged into them in the loop
-    loop = [n for n in walk_body(lc) if isinstance(n, ast.For) and u(n.iter) == lp[1]]
-    chk.ob("O13.1", "cars are processed in the order given (plain loop over the names)", bool(loop), loop[0] if loop else lc, f"iterates `{u(loop[0].iter)}`" if loop else "no loop over the car names themselves (sorted/reversed/set?)")
-    acc_roles = {}
-    if loop:
-        for n in ast.walk(loop[0]):
-            if isinstance(n, ast.Call) and isinstance(n.func, ast.Attribute) and n.func.attr == "update" and n.args:
-                src = u(n.args[0])
-                role = "config-base" if src.endswith(".config_base_variables") else ("car" if src.endswith(".variables") else None)
-                if role:
-                    acc_roles[u(n.func.value)] = role
-                    gs = guards(n, stop=loop[0])
-                    chk.ob("O13.1", f"{role} variables of every car are accumulated unconditionally", not gs, n, f"guards {[(u(t), p) for t, p in gs]}" if gs else "")
-    role_seq = [acc_roles.get(s, s) for s in names]
-    ok = role_seq == ["config-base", "car"] and all(not guards(n) for _, n in seq) and ordered(g, seq[0][1], seq[1][1]) if len(seq) == 2 else False
-    chk.ob("O13.1", "loader: config-base variables merged before car variables", ok, seq[0][1] if seq else lc, f"merge order into `{var}`: {role_seq}")
-    dl = [n for n in ast.walk(loop[0]) if isinstance(n, ast.Call) and last_attr(n.func) == "load_car"] if loop else []
-    dargs = source.bind_args(dl[0], cl) if dl else {}  # by parameter name of CarLoader.load_car
-    ok = bool(dl) and u(dargs.get(cp[1])) == u(loop[0].target) and u(dargs.get(cp[2])) == lp[2]
-    chk.ob("O13.1", "car parameters handed to every car/mixin descriptor", ok, dl[0] if dl else lc, "")
-    cret = [n for n in walk_body(cl) if isinstance(n, ast.Return) and isinstance(n.value, ast.Call) and last_attr(n.value.func) == "CarDescriptor"]
-    if not cret:
-        raise AnchorMissing("return CarDescriptor(...)")
-    cd_init = tm.methods(tm.cls("CarDescriptor")).get("__init__")
-    if cd_init is None:
-        raise AnchorMissing("CarDescriptor.__init__")
-    cdargs = source.bind_args(cret[0].value, cd_init)  # CarDescriptor(...) arguments by parameter name
-    if not {"variables", "config_base_variables", "config_paths"} <= set(cdargs):
-        raise AnchorMissing("variables / config_base_variables / config_paths argument of CarDescriptor(...)")
-    vvar = u(cdargs["variables"])
-    bvar = u(cdargs["config_base_variables"])
-    cs = tm.methods(CL).get("_copy_section")
-    if cs is None or len(params_of(cs)) < 4:
-        raise AnchorMissing("CarLoader._copy_section(self, cfg, section, target)")
-    _, cs_cfg, cs_section, cs_target = params_of(cs)[:4]
-
-    def copy_section_args(call):
-        """arguments of a self._copy_section(...) call by parameter name, {} for any other node."""
-        return source.bind_args(call, cs) if isinstance(call, ast.Call) and last_attr(call.func) == "_copy_section" else {}
-
-    vdef = assigns_to(cl, vvar)
-    va = copy_section_args(vdef[0].value) if len(vdef) == 1 else {}
-    ok = len(vdef) == 1 and cs_section in va and source.is_const(va[cs_section], "variables") and not guards(vdef[0])
-    chk.ob("O13.1", "car variables start from the car file's [variables] section", ok, vdef[0] if vdef else cl, "")
-    seq2, g2 = merges_into(cl, vvar)
-    ok = len(seq2) == 1 and seq2[0][0] == cp[2] and bool(vdef) and ordered(g2, vdef[0], seq2[0][1])
-    chk.ob("O13.1", "car parameters merged after the car file's variables", ok, seq2[0][1] if seq2 else cl, f"merges into `{vvar}`: {[s for s, _ in seq2]}")
-    if seq2:
-        gs = guards(seq2[0][1])
-        # every guard FACT (polarity resolved, conjunctions split) is the presence of the parameters themselves
-        ok = all(pat.is_(f, "V_p", "V_p is not None", binds={"p": cp[2]}) for f in pat.fact_nodes(seq2[0][1], path_sensitive=False))
-        chk.ob("O13.1", "car parameters applied to every descriptor (guarded only by their presence)", ok, seq2[0][1], f"guards {[(u(t), p) for t, p in gs]}" + ("" if ok else " — mixins / cars on the other branch do not get the parameters"))
-    cb = [n for n in walk_body(cl) if u(copy_section_args(n).get(cs_target)) == bvar]
-    ok = bool(cb) and source.is_const(copy_section_args(cb[0]).get(cs_section), "variables")
-    chk.ob("O13.1", "config-base variables come from each base's config.ini [variables]", ok, cb[0] if cb else cl, "")
-    # _copy_section: target.update / item stores of the section
-    ok = any(isinstance(n, ast.Return) and u(n.value) == cs_target for n in walk_body(cs))
-    chk.ob("O13.1", "_copy_section returns the target it filled", ok, cs, "")
-    EI = pv.cls("ElasticsearchInstaller")
-    ev_ = pv.methods(EI).get("variables")
-    if ev_ is None:
-        raise AnchorMissing("ElasticsearchInstaller.variables")
-    # The installer's variables as ordered layers (later wins), followed through locals and through properties of the class (the node variables may live in a local dict or in
-    # a property of their own): the car's variables are the first layer, every layer is merged unconditionally into a NEW dict, and for each of Rally's node variables the last
-    # layer that can hold it is a dict written by Rally that does hold it.
-    flow = DictFlow(repo, pv)
-    L3 = flow.returned(ev_, EI, 0)
-    over3 = overridable(L3, INTERNAL_KEYS, flow)
-    held = set().union(*[L.keys for L in L3 if L.origin == "rally" and L.keys is not None]) if L3 else set()
-    ok = len(L3) >= 2 and L3[0].origin == "user" and pat.is_(L3[0].src, "self.car.variables") and not over3 and all(L.must for L in L3) and not flow.issues
-    chk.ob("O13.1", "installer: car variables merged before Rally's node variables", ok, (flow.issues[0][1] if flow.issues else L3[-1].node) if L3 else ev_,
-           f"merge order: {[L.show() for L in L3]}; internal keys missing from the last source: {sorted(INTERNAL_KEYS - held)}" +
-           ("".join(f"; `{k}` can be overridden by {L.show() if L is not None else 'nothing of Rally defines it'}" for k, L in sorted(over3.items())[:3])) + "".join(f"; {t}" for t, _ in flow.issues))
-    BP = pv.cls("BareProvisioner")
-    pvf = pv.methods(BP).get("_provisioner_variables")
-    rvp = [n for n in walk_body(pvf) if isinstance(n, ast.Return)] if pvf else []
-    if pvf is None or not rvp:
-        raise AnchorMissing("BareProvisioner._provisioner_variables")
-    seq4, g4 = merges_into(pvf, u(rvp[0].value))
-    n4 = [s for s, _ in seq4]
-    # decided on the merge layers (not on the spelling of the first update): the composed variables BEGIN with exactly the layers of the installer's `variables` property
-    # (car variables, then Rally's node variables), all merged unconditionally - whether through update calls, a dict display or a dict(...) copy
-    flow5 = DictFlow(repo, pv)
-    L5 = flow5.returned(pvf, BP, 0)
-    sig = lambda L: (L.origin, L.keys, L.must, u(L.src))  # noqa: E731
-    ok = bool(L3) and [sig(L) for L in L5[:len(L3)]] == [sig(L) for L in L3] and all(L.must for L in L3)
-    chk.ob("O13.1", "provisioner variables start from the installer's variables", ok, seq4[0][1] if seq4 else pvf, f"merge order: {[L.show() for L in L5]}")
-    # the plugin-variable accumulator by ROLE: the local that collects `<installer>.variables` in the loop over self.plugin_installers
-    plug_acc = {u(x.func.value) for l in walk_body(pvf) if isinstance(l, ast.For) and u(l.iter) == "self.plugin_installers" for x in ast.walk(l)
-                if isinstance(x, ast.Call) and isinstance(x.func, ast.Attribute) and x.func.attr == "update" and x.args and isinstance(x.args[0], ast.Attribute) and x.args[0].attr == "variables"}
-    late = [n for s_, n in seq4[1:] if s_ in plug_acc]
-    if late:
-        chk.adv("O13.1", "plugin variables are merged after the installer's variables: a plugin variable overrides a CAR variable of the same name (plugin-over-car precedence is outside the "
-                "property's statement; that Rally's node variables still win is O13.5)", late[0])
-
-    # ---- O13.2 config bases in order without duplicates ---------------------------------------------------------------------------------------------------
     chk.rule("O13.2", "config bases are appended in the given order, guarded by `not in` (no duplicates, no re-ordering)", 3, "two cars sharing a config base: its templates are rendered twice (appended twice)")
-    # the accumulator of the config paths by ROLE: the list that receives, inside the loop over the car names, the elements of an inner loop over `<descriptor>.config_paths`
-    apps = [n for n in ast.walk(loop[0]) if isinstance(n, ast.Call) and last_attr(n.func) == "append" and isinstance(n.func, ast.Attribute) and len(n.args) == 1] if loop else []
-    cfgapp = []
-    for n in apps:
-        inner = source.enclosing(n, ast.For)
-        if inner is not None and inner is not loop[0] and isinstance(inner.iter, ast.Attribute) and inner.iter.attr == "config_paths" and u(n.args[0]) == u(inner.target):
-            cfgapp.append(n)
-    ok = False
-    if cfgapp:
-        a = cfgapp[0]
-        # exactly one guard fact (polarity / arm order resolved): the appended element is not yet in the accumulator
-        fs = pat.fact_nodes(a, stop=loop[0])
-        ok = len(fs) == 1 and pat.is_(fs[0], "E_x not in E_acc", binds={"x": u(a.args[0]), "acc": u(a.func.value)})
-    chk.ob("O13.2", "config paths appended under `not in`", ok, cfgapp[0] if cfgapp else lc, "")
-    resort = [n for n in walk_body(lc) if isinstance(n, ast.Call) and (dotted(n.func) in ("sorted", "reversed", "set") or last_attr(n.func) in ("sort", "reverse"))]
-    chk.ob("O13.2", "no re-ordering of the accumulated paths", not resort, resort[0] if resort else lc, "")
-    ok = bool(cfgapp) and u(cargs["config_paths"]) == u(cfgapp[0].func.value)
-    chk.ob("O13.2", "the accumulated config paths are the car's config paths", ok, ret[0], "")
-    # the loop over a car's config bases by ROLE: the loop that fills the descriptor's config paths / copies the bases' [variables] sections
-    dcfg = u(cdargs["config_paths"])
-    fills = [n for n in walk_body(cl) if isinstance(n, ast.Call) and ((last_attr(n.func) == "append" and isinstance(n.func, ast.Attribute) and u(n.func.value) == dcfg) or any(n is c for c in cb))]
-    bl = [l for l in (source.enclosing(n, ast.For) for n in fills) if l is not None and source.enclosing_func(l) is cl]
-    bl = [l for i, l in enumerate(bl) if not any(l is m for m in bl[:i])]
-    it = bl[0].iter if bl else None
-    it = local_defs(cl).get(it.id, it) if isinstance(it, ast.Name) else it
-    ok = bool(bl) and isinstance(it, ast.Call) and last_attr(it.func) == "split"
-    chk.ob("O13.2", "a car's config bases are applied in the order written (split on ',')", ok, bl[0] if bl else cl, "")
-    req = [n for n in walk_body(lc) if isinstance(n, ast.Raise)]
-    # a raise whose guard facts say that the accumulated config paths are empty (any polarity / orientation / spelling of emptiness)
-    accv = u(cfgapp[0].func.value) if cfgapp else u(cargs["config_paths"])
-    req_ok = [r for r in req if pat.guarded(r, "len(E_acc) == 0", "not E_acc", "len(E_acc) < 1", "E_acc == []", binds={"acc": accv}) is not None]
-    chk.ob("O13.2", "at least one config base is required", bool(req_ok), req_ok[0] if req_ok else (req[0] if req else lc), "")
-
-    # ---- O13.3 template mirroring ---------------------------------------------------------------------------------------------------------------------------
     chk.rule("O13.3", "target path == join(target root, path of the file's directory relative to the source root, name); text files are opened in append mode and receive the rendered template "
              "which always ends with a newline; other files are copied verbatim; the text/binary predicate is one extension table; every config base is applied in order", 8,
              "a template in a sub-directory lands elsewhere; a second base overwrites instead of appending; appended text glued onto the previous last line")
-    walks = [(f, n) for f in pv.functions() for n in walk_body(f) if isinstance(n, ast.For) and isinstance(n.iter, ast.Call) and dotted(n.iter.func) == "os.walk"
-             and any(isinstance(x, ast.Call) and last_attr(x.func) == "_render_template" for x in ast.walk(n))]
-    chk.ob("O13.3", "template-mirroring sites located (bare and docker provisioner)", len(walks) >= 2, pv.tree, f"{len(walks)} os.walk site(s) rendering templates")
-    rt = pv.func("_render_template")
-    rp = params_of(rt)
-    if len(rp) < 3:
-        raise AnchorMissing("_render_template(env, variables, file_name)")
-
-    def is_join(e, n=2):
-        return isinstance(e, ast.Call) and dotted(e.func) == "os.path.join" and len(e.args) == n and not e.keywords
-
-    for fn, W in walks:
-        tag = source.qualname(fn)
-        if not (isinstance(W.target, ast.Tuple) and len(W.target.elts) == 3 and isinstance(W.target.elts[0], ast.Name) and isinstance(W.target.elts[2], ast.Name) and W.iter.args):
-            raise AnchorMissing(f"{tag}: `for <root>, <dirs>, <files> in os.walk(<source root>)`")
-        # locals assigned exactly once inside the walk: name -> (value, statement). All names below are derived by ROLE from the data flow, never by spelling.
-        acount, astmt = {}, {}
-        for n in ast.walk(W):
-            if isinstance(n, ast.Assign) and len(n.targets) == 1 and isinstance(n.targets[0], ast.Name):
-                acount[n.targets[0].id] = acount.get(n.targets[0].id, 0) + 1
-                astmt[n.targets[0].id] = n
-        astmt = {k: v for k, v in astmt.items() if acount[k] == 1}
-        adefs = {k: v.value for k, v in astmt.items()}
-        src_root = u(W.iter.args[0])
-        rootv = W.target.elts[0].id  # the walked directory (tuple position 0 of os.walk's items)
-        filesv = W.target.elts[2].id  # its file names (tuple position 2)
-        nameloops = [n for n in ast.walk(W) if isinstance(n, ast.For) and n is not W and isinstance(n.iter, ast.Name) and n.iter.id == filesv and isinstance(n.target, ast.Name)]
-        NL = nameloops[0] if nameloops else None
-        namev = NL.target.id if NL is not None else None  # loop variable of the loop over the file names
-        in_nl = lambda k: NL is not None and any(x is astmt[k] for x in ast.walk(NL))  # noqa: E731
-        # source file: the local defined (inside the loop over the names) as join(walked directory, name)
-        srcs = [k for k, v in adefs.items() if in_nl(k) and is_join(v) and pat.is_(v, "os.path.join(V_root, V_name)", binds={"root": rootv, "name": namev})]
-        srcv = srcs[0] if srcs else None
-        # target file: the local that is opened
-        opens = [n for n in ast.walk(W) if isinstance(n, ast.Call) and dotted(n.func) == "open"]
-        tgtn = arg_of(opens[0], 0, "file") if opens else None
-        tgtv = tgtn.id if isinstance(tgtn, ast.Name) else None
-        tdef = adefs.get(tgtv) if tgtv is not None and in_nl(tgtv) else None
-        # target file == join(<target dir>, name) with <target dir> == join(target root, <relative root>), each possibly through a single-assignment local
-        tdir = tdef.args[0] if is_join(tdef) else None
-        while isinstance(tdir, ast.Name) and tdir.id in adefs:
-            tdir = adefs[tdir.id]
-        relnode = tdir.args[1] if is_join(tdir) else None
-        rel = adefs.get(relnode.id) if isinstance(relnode, ast.Name) else relnode  # the relative-root expression: second component of the target directory
-        relok = rel is not None and pat.is_(rel, "V_root[len(E_src) + 1:]", "V_root[1 + len(E_src):]", "os.path.relpath(V_root, E_src)", binds={"root": rootv, "src": src_root})
-        chk.ob("O13.3", f"{tag}: relative root == directory path relative to the source root", relok, (astmt[relnode.id] if isinstance(relnode, ast.Name) and relnode.id in astmt else rel) if rel is not None else W, u(rel) if rel is not None else "")
-        ok = is_join(tdef) and is_join(tdir) and rel is not None and isinstance(tdef.args[1], ast.Name) and tdef.args[1].id == namev
-        chk.ob("O13.3", f"{tag}: target file == join(join(target root, relative root), name)", ok, astmt[tgtv] if tdef is not None else W, u(tdef) if tdef is not None else "")
-        ok = False
-        if opens:
-            mode = arg_of(opens[0], 1, "mode")
-            b = pat.guarded(opens[0], "plain_text(V_f)", stop=W)
-            ok = tgtv is not None and mode is not None and isinstance(mode, ast.Constant) and mode.value in ("a", "a+", "at") and b is not None and b["f"] in (srcv, tgtv)
-        chk.ob("O13.3", f"{tag}: text files opened in append mode", ok, opens[0] if opens else W, f"mode={u(arg_of(opens[0], 1, 'mode')) if opens else None}")
-        wr = [n for n in ast.walk(W) if isinstance(n, ast.Call) and last_attr(n.func) == "write" and n.args]
-        wa = source.bind_args(wr[0].args[0], rt) if wr and isinstance(wr[0].args[0], ast.Call) and last_attr(wr[0].args[0].func) == "_render_template" else {}
-        ok = bool(wa) and srcv is not None and u(wa.get(rp[2])) == srcv
-        chk.ob("O13.3", f"{tag}: the rendered template is written", ok, wr[0] if wr else W, "")
-        # templates are looked up by BASE name, so the environment (and with it Jinja's template cache, keyed by loader and name) must belong to the walked directory
-        rcall = [n for n in ast.walk(W) if isinstance(n, ast.Call) and last_attr(n.func) == "_render_template"]
-        envarg = source.bind_args(rcall[0], rt).get(rp[0]) if rcall else None
-        envdef = adefs.get(envarg.id) if isinstance(envarg, ast.Name) else envarg
-        ok = isinstance(envdef, ast.Call) and last_attr(envdef.func) == "Environment" and any(
-            isinstance(x, ast.Call) and last_attr(x.func) == "FileSystemLoader" and x.args and u(x.args[0]) == rootv for x in ast.walk(envdef))
-        chk.ob("O13.3", f"{tag}: a fresh template environment per walked directory, loading from that directory", ok, rcall[0] if rcall else W,
-               (u(envdef)[:80] if envdef is not None else "environment is not created inside the walk") + ("" if ok else " — same-named templates of different directories share one cached template"),
-               key=f"{_P}:{tag}:env-per-directory")
-        cps = [n for n in ast.walk(W) if isinstance(n, ast.Call) and dotted(n.func) in ("shutil.copy", "shutil.copy2", "shutil.copyfile")]
-        b = pat.guarded(cps[0], "not plain_text(V_f)", stop=W) if cps else None
-        ok = bool(cps) and srcv is not None and tgtv is not None and [u(a) for a in cps[0].args] == [srcv, tgtv] and b is not None and b["f"] in (srcv, tgtv)
-        chk.ob("O13.3", f"{tag}: other files copied verbatim", ok, cps[0] if cps else W, "")
-        chk.ob("O13.3", f"{tag}: source file == join(walked directory, name)", srcv is not None, astmt[srcv] if srcv is not None else W, u(adefs[srcv]) if srcv is not None else f"no local is defined as os.path.join({rootv}, {namev}) in the loop over `{filesv}`")
-    # docker provisioner: same precedence for its own variables
-    DP = pv.cls("DockerProvisioner")
-    dinit = pv.methods(DP).get("__init__")
-    if dinit is None:
-        raise AnchorMissing("DockerProvisioner.__init__")
-    seq5, g5 = merges_into(dinit, "self.config_vars")
-    n5 = [s_ for s_, _ in seq5]
-    ddefs = local_defs(dinit)
-    lastd = ddefs.get(n5[-1]) if n5 and n5[-1] in ddefs else None
-    dkeys = {k.value for k in lastd.keys if isinstance(k, ast.Constant)} if isinstance(lastd, ast.Dict) else set()
-    ok = len(n5) >= 2 and n5[0] == "self.car.variables" and {"network_host", "http_port", "transport_port", "data_paths", "node_name", "cluster_name"} <= dkeys and ordered(g5, seq5[0][1], seq5[-1][1])
-    chk.ob("O13.1", "docker provisioner: car variables merged before Rally's node variables", ok, seq5[-1][1] if seq5 else dinit, f"merge order: {n5}")
-    rets = [n for n in walk_body(rt) if isinstance(n, ast.Return)]
-    ok = False
-    if len(rets) == 1 and rets[0].value is not None:
-        v = source.inline_node(rets[0].value, local_defs(rt))  # through single-assignment locals (`template`, a local holding the rendered text, ...)
-        ok = isinstance(v, ast.BinOp) and isinstance(v.op, ast.Add) and source.is_const(v.right, "\n") and isinstance(v.left, ast.Call) and last_attr(v.left.func) in ("render", "rstrip")
-    chk.ob("O13.3", "every rendered chunk ends with a newline (appended snippets never glue onto the previous line)", ok, rets[0] if rets else rt, u(rets[0].value) if rets else "")
-    pt = pv.func("plain_text")
-    ptd = local_defs(pt)
-
-    def table_of(e):
-        """the literal collection a membership test reads: written in place, or a single-assignment local / module constant holding it."""
-        if isinstance(e, ast.Name):
-            e = ptd.get(e.id) if e.id in ptd else pv.module_constant(e.id)
-        return e if isinstance(e, (ast.List, ast.Tuple, ast.Set)) else None
-
-    ok = any(isinstance(n, ast.Return) and isinstance(n.value, ast.Compare) and len(n.value.ops) == 1 and isinstance(n.value.ops[0], ast.In) and table_of(n.value.comparators[0]) is not None and
-             {".yml", ".yaml", ".options", ".properties", ".json", ".ini", ".txt"} <= {e.value for e in table_of(n.value.comparators[0]).elts if isinstance(e, ast.Constant)} for n in walk_body(pt))
-    chk.ob("O13.3", "text/binary predicate is one extension table (incl. .yml .options .properties)", ok, pt, "")
-    prep = pv.methods(BP).get("prepare")
-    if prep is None:
-        raise AnchorMissing("BareProvisioner.prepare")
-    loops = [n for n in walk_body(prep) if isinstance(n, ast.For) and u(n.iter) == "self.es_installer.config_source_paths"]
-    ok = bool(loops) and any(isinstance(x, ast.Call) and u(x.func) == "self.apply_config" and x.args and u(x.args[0]) == u(loops[0].target) for x in ast.walk(loops[0])) and not guards(loops[0])
-    chk.ob("O13.3", "every config base is applied, in order", ok, loops[0] if loops else prep, "")
-    csp = pv.methods(EI).get("config_source_paths")
-    ok = csp is not None and any(isinstance(n, ast.Return) and u(n.value) == "self.car.config_paths" for n in walk_body(csp))
-    chk.ob("O13.3", "config source paths are the car's config paths (as accumulated)", ok, csp if csp is not None else EI, "")
-
-    # ---- O13.4 cleanup -------------------------------------------------------------------------------------------------------------------------------------------
     chk.rule("O13.4", "cleanup: on the preserve-true edge no delete is reachable; on the false edge every data path and the install dir are deleted (no filter)", 4,
              "preserve-install removes something; or a data path outside the install dir is left behind")
-    cu = pv.func("cleanup")
-    cp_ = params_of(cu)
-    if len(cp_) < 3:
-        raise AnchorMissing("cleanup(preserve, install_dir, data_paths)")
-    pb = {"p": cp_[0]}
-    ifs = [n for st in cu.body if not isinstance(st, (ast.FunctionDef, ast.AsyncFunctionDef, ast.ClassDef)) for n in source.walk_local(st) if isinstance(n, ast.If) and pat.is_(n.test, "V_p", "not V_p", binds=pb)]
-    if not ifs:
-        raise AnchorMissing("branch on preserve in cleanup")
-    I = ifs[0]
-    # decided on the CFG edges of the test, not on arm position: the preserve edge is the true edge of `if preserve` / the false edge of `if not preserve`
-    gc = cfg_of(cu)
-    tn = gc.node_of(I)
-    pres_lab, del_lab = ("true", "false") if pat.is_(I.test, "V_p", binds=pb) else ("false", "true")
-    after_pres = gc.reachable(gc.edge_targets(tn, pres_lab))  # everything that can still run once the preserve edge was taken
-    own = [x for st in cu.body if not isinstance(st, (ast.FunctionDef, ast.AsyncFunctionDef, ast.ClassDef)) for x in source.walk_local(st)]  # cleanup's own code (the nested delete_path helper is checked separately)
-    dcalls = [x for x in own if isinstance(x, ast.Call) and last_attr(x.func) in ("delete_path", "rmtree", "remove", "unlink", "rmdir") and not is_logging_call(x)]
-    dels_in_pres = [x for x in dcalls if gc.node_of(x).id in after_pres]
-    chk.ob("O13.4", "nothing deleted when preserving", not dels_in_pres, I, f"reachable on the preserve edge: line {dels_in_pres[0].lineno}: {short(dels_in_pres[0])}" if dels_in_pres else "")
-    # every other delete of the function is reachable only through the delete edge of that test (so none runs on the preserve edge, before the test or after the branch)
-    outside = [x for x in dcalls if last_attr(x.func) in ("delete_path", "rmtree") and not gc.dominated_by_edge(gc.node_of(x), tn, del_lab)]
-    chk.ob("O13.4", "no delete outside the preserve branch", not outside, outside[0] if outside else cu, "")
-    in_del = lambda x: gc.dominated_by_edge(gc.node_of(x), tn, del_lab)  # noqa: E731
-    dl = [x for x in own if isinstance(x, ast.For) and u(x.iter) == cp_[2] and in_del(x)]
-    lbody = [s_ for s_ in dl[0].body if not (isinstance(s_, ast.Expr) and is_logging_call(s_.value))] if dl else []
-    ok = bool(dl) and len(lbody) == 1 and isinstance(lbody[0], ast.Expr) and isinstance(lbody[0].value, ast.Call) and last_attr(lbody[0].value.func) == "delete_path" and len(lbody[0].value.args) == 1 and u(lbody[0].value.args[0]) == u(dl[0].target)
-    chk.ob("O13.4", "every data path is deleted (unconditional loop)", ok, dl[0] if dl else I, "" if ok else "the loop over the data paths filters or skips some paths")
-    di = [x for x in own if isinstance(x, ast.Call) and last_attr(x.func) == "delete_path" and len(x.args) == 1 and u(x.args[0]) == cp_[1] and in_del(x)]
-    # unconditional on the delete edge: its only guard fact is `not preserve`
-    ok = bool(di) and all(pat.is_(f, "not V_p", binds=pb) for f in pat.fact_nodes(di[0]))
-    chk.ob("O13.4", "the installation directory is deleted", ok, di[0] if di else I, "")
-    dp = [n for n in cu.body if isinstance(n, ast.FunctionDef) and n.name == "delete_path"]
-    ok = bool(dp) and any(isinstance(x, ast.Call) and dotted(x.func) == "shutil.rmtree" and x.args and params_of(dp[0]) and u(x.args[0]) == params_of(dp[0])[0] for x in ast.walk(dp[0]))
-    chk.ob("O13.4", "delete_path removes the given tree", ok, dp[0] if dp else cu, "")
-    cleanup_isolation_rule(chk, "O13.4", pv)
-    symlinked_data_path_rule(chk, "O13.4", pv, cu, cp_[2])
-
-    # ---- O13.5 Rally's node variables win in the variables the templates are rendered with (F37) -------------------------------------------------------------------
     chk.rule("O13.5", "the variables every config template is rendered with: for each of Rally's node variables (network host, ports, paths, names) the LAST merged source that can hold "
              "the key is a dict written by Rally that holds it on every path - no car, plugin or other user-controlled source is merged after it; and these composed variables are "
              "the ones handed to the renderer", 3,
              "a plugin variable / plugin parameter (or any later user source) named http_port, network_host, node_name, data_paths, ... replaces Rally's value in the rendered "
              "elasticsearch.yml while Rally itself (launcher, telemetry, cleanup) keeps using its own")
-    over5 = overridable(L5, INTERNAL_KEYS, flow5)
-    first_bad = next((L for _, L in sorted(over5.items()) if L is not None), None)
-    chk.ob("O13.5", "bare provisioner: Rally's node variables are the last source of their keys (no car / plugin / user source is merged after them)", bool(L5) and not over5 and not flow5.issues,
-           (first_bad.node if first_bad is not None else (flow5.issues[0][1] if flow5.issues else pvf)),
-           f"merge order: {[L.show() for L in L5]}" + "".join(f"; `{k}` is taken from {L.show() if L is not None else 'no source of Rally on every path'}" for k, L in sorted(over5.items())[:4]) +
-           (f" (+{len(over5) - 4} more keys)" if len(over5) > 4 else "") + "".join(f"; {t}" for t, _ in flow5.issues),
-           key=f"{_P}:BareProvisioner._provisioner_variables:node-variables-merged-last")
-    # the composed variables reach the renderer: every apply_config(...) of prepare receives, as the parameter that flows into _render_template's variables, the result of that method
-    binit = pv.methods(BP).get("__init__")
-    if binit is None:
-        raise AnchorMissing("BareProvisioner.__init__")
-    # the function behind self.apply_config, by field flow: `self.apply_config = <parameter>` whose default is a module-level function
-    positional = binit.args.posonlyargs + binit.args.args
-    dflt = dict(zip([a.arg for a in positional[len(positional) - len(binit.args.defaults):]], binit.args.defaults))
-    dflt.update({a.arg: d for a, d in zip(binit.args.kwonlyargs, binit.args.kw_defaults) if d is not None})
-    ac_set = [n.value for n in walk_body(binit) if isinstance(n, ast.Assign) and len(n.targets) == 1 and is_self_attr(n.targets[0], "apply_config")]
-    ac_default = dflt.get(ac_set[0].id) if len(ac_set) == 1 and isinstance(ac_set[0], ast.Name) else (ac_set[0] if len(ac_set) == 1 else None)
-    acf = pv.get(ac_default.id, required=False) if isinstance(ac_default, ast.Name) else None
-    if not isinstance(acf, ast.FunctionDef):
-        raise AnchorMissing("BareProvisioner.__init__(..., apply_config=<module function>)")
-    rcalls = [n for n in ast.walk(acf) if isinstance(n, ast.Call) and last_attr(n.func) == "_render_template"]
-    vparam = next((u(source.bind_args(c, rt, skip_self=False).get(rp[1])) for c in rcalls if u(source.bind_args(c, rt, skip_self=False).get(rp[1])) in params_of(acf)), None)
-    if vparam is None:
-        raise AnchorMissing(f"{acf.name}: the parameter handed to _render_template as `{rp[1]}`")
-    acalls = [n for n in walk_body(prep) if isinstance(n, ast.Call) and pat.is_(n.func, "self.apply_config")]
-    pdefs = local_defs(prep)
 
-    def composed(e):
-        v = pdefs.get(e.id) if isinstance(e, ast.Name) else e
-        return isinstance(v, ast.Call) and isinstance(v.func, ast.Attribute) and isinstance(v.func.value, ast.Name) and v.func.value.id == "self" and v.func.attr == pvf.name
-
-    badc = [c for c in acalls if not composed(source.bind_args(c, acf, skip_self=False).get(vparam))]
-    mut = [n for n in walk_body(prep) for e in [source.bind_args(c, acf, skip_self=False).get(vparam) for c in acalls] if isinstance(e, ast.Name)
-           and ((isinstance(n, ast.Call) and isinstance(n.func, ast.Attribute) and n.func.attr in ("update", "pop", "setdefault", "clear") and u(n.func.value) == e.id)
-                or (isinstance(n, (ast.Assign, ast.Delete)) and any(isinstance(t, ast.Subscript) and u(t.value) == e.id for t in n.targets)))]
-    chk.ob("O13.5", "bare provisioner: every config base is rendered with the composed variables (unchanged between composition and rendering)", bool(acalls) and not badc and not mut,
-           (badc or mut or [prep])[0], f"{len(acalls)} apply_config call(s)" + (f"; `{short((badc or mut)[0], 70)}`" if badc or mut else ""))
-    # docker provisioner: the same question for the attribute its templates are rendered with
-    dwalk = [W for f_, W in walks if source.enclosing_class(f_) is DP]
-    drc = [n for W in dwalk for n in ast.walk(W) if isinstance(n, ast.Call) and last_attr(n.func) == "_render_template"]
-    dvar = source.bind_args(drc[0], rt, skip_self=False).get(rp[1]) if drc else None
-    if dvar is None or not is_self_attr(dvar):
-        raise AnchorMissing("DockerProvisioner: the self attribute handed to _render_template as variables")
-    flow6 = DictFlow(repo, pv)
-    L6 = flow6.variable(dvar, dinit, DP, 0) or []
-    DOCKER_KEYS = {"network_host", "http_port", "transport_port", "data_paths", "node_name", "cluster_name", "log_path", "install_root_path"}
-    over6 = overridable(L6, DOCKER_KEYS, flow6)
-    elsewhere = [n for f_ in pv.methods(DP).values() if f_ is not dinit for n in walk_body(f_)
-                 if (isinstance(n, ast.Call) and isinstance(n.func, ast.Attribute) and n.func.attr in ("update", "pop", "setdefault", "clear") and u(n.func.value) == u(dvar))
-                 or (isinstance(n, ast.Assign) and any(u(t) == u(dvar) or (isinstance(t, ast.Subscript) and u(t.value) == u(dvar)) for t in n.targets))]
-    bad6 = next((L for _, L in sorted(over6.items()) if L is not None), None)
-    chk.ob("O13.5", "docker provisioner: Rally's node variables are the last source of their keys in the variables its templates are rendered with", bool(L6) and not over6 and not flow6.issues and not elsewhere,
-           bad6.node if bad6 is not None else (elsewhere[0] if elsewhere else dinit), f"merge order: {[L.show() for L in L6]}" + "".join(f"; `{k}` is taken from {L.show() if L is not None else 'no source of Rally on every path'}" for k, L in sorted(over6.items())[:4]) +
-           "".join(f"; {t}" for t, _ in flow6.issues) + (f"; changed again in {source.qualname(elsewhere[0])}" if elsewhere else ""),
-           key=f"{_P}:DockerProvisioner.__init__:node-variables-merged-last")
+    _section(chk, "O13.1", "car loader (team.load_car / CarLoader.load_car)", lambda: team_rules(chk, repo, tm))
+    st = {}
+    _section(chk, "O13.1", "variables of the installer / provisioners", lambda: installer_rules(chk, repo, pv, st))
+    _section(chk, "O13.3", "template mirroring", lambda: mirroring_rules(chk, repo, pv, st))
+    _section(chk, "O13.4", "cleanup", lambda: cleanup_rules(chk, repo, pv))
+    _section(chk, "O13.5", "variables the templates are rendered with", lambda: rendered_variables_rules(chk, repo, pv, st))
 
 
 from sa.selftest import V  # noqa: E402
+
+
+_CFG_LOOP = "        for p in descriptor.config_paths:\n            if p not in all_config_paths:\n                all_config_paths.append(p)\n"
+_LC_HEAD = "def load_car(repo: str, name: Collection[str], car_params: Optional[Mapping] = None) -> \"Car\":\n"
+_APPEND_HELPER = "def _append_missing(target, candidates):\n    for candidate in candidates:\n        if candidate not in target:\n            target.append(candidate)\n\n\n"
+_BASE_LOOP = ("        config_bases = config_base.split(\",\")\n\n        for base in config_bases:\n            if base:\n                root_path = os.path.join(self.cars_dir, base)\n                root_paths.append(root_path)\n"
+              "                config_paths.append(os.path.join(root_path, \"templates\"))\n                config_file = os.path.join(root_path, \"config.ini\")\n                if io.exists(config_file):\n"
+              "                    base_config = self._config_loader(config_file)\n                    self._copy_section(base_config, \"variables\", config_base_vars)\n")
+_CFGLOADER_HEAD = "    def _config_loader(self, file_name: str) -> \"configparser.ConfigParser\":\n"
+_RESOLVE_HELPER = ("    def _resolve_config_bases(self, config_bases):\n        root_paths, config_paths, config_base_vars = [], [], {}\n        for base in config_bases:\n            if not base:\n                continue\n"
+                   "            root_path = os.path.join(self.cars_dir, base)\n            root_paths.append(root_path)\n            config_paths.append(os.path.join(root_path, \"templates\"))\n"
+                   "            config_file = os.path.join(root_path, \"config.ini\")\n            if io.exists(config_file):\n                base_config = self._config_loader(config_file)\n"
+                   "                self._copy_section(base_config, \"variables\", config_base_vars)\n        return root_paths, config_paths, config_base_vars\n\n")
+_AC_HEAD = "def _apply_config(source_root_path, target_root_path, config_vars):\n"
+_TARGET_HELPER = "def _target_file(target_root, source_root, walked, name):\n    return os.path.normpath(os.path.join(target_root, os.path.relpath(walked, source_root), name))\n\n\n"
 
 VARIANTS = [
     V("loader: swap the two updates", "break", _T, "    variables.update(all_config_base_vars)\n    variables.update(all_car_vars)", "    variables.update(all_car_vars)\n    variables.update(all_config_base_vars)", "O13.1"),
@@ -824,4 +2836,89 @@ VARIANTS = [
     V("os.path.relpath", "keep", _P, "        relative_root = root[len(source_root_path) + 1 :]", "        relative_root = os.path.relpath(root, source_root_path)"),
     V("inverted preserve test", "keep", _P, "    if preserve:\n        console.info(f\"Preserving benchmark candidate installation at [{install_dir}].\", logger=logger)\n    else:\n        logger.info(\"Wiping benchmark candidate installation at [%s].\", install_dir)\n        for path in data_paths:\n            delete_path(path)\n\n        delete_path(install_dir)",
       "    if not preserve:\n        logger.info(\"Wiping benchmark candidate installation at [%s].\", install_dir)\n        for path in data_paths:\n            delete_path(path)\n\n        delete_path(install_dir)\n    else:\n        console.info(f\"Preserving benchmark candidate installation at [{install_dir}].\", logger=logger)"),
+    # ---- hardening round 2: refactored shapes (decided on values by the simulation), each with the defect placed inside the refactored shape ------------------------------
+    [V("h2 keep (C13-b1): de-duplication in a module helper", "keep", _T, _CFG_LOOP, "        _append_missing(all_config_paths, descriptor.config_paths)\n"),
+     V("", "keep", _T, _LC_HEAD, _APPEND_HELPER + _LC_HEAD)],
+    [V("h2 break: de-duplication helper appends unconditionally", "break", _T, _CFG_LOOP, "        _append_missing(all_config_paths, descriptor.config_paths)\n", "O13.2"),
+     V("", "break", _T, _LC_HEAD, _APPEND_HELPER.replace("        if candidate not in target:\n            target.append(candidate)\n", "        target.append(candidate)\n") + _LC_HEAD)],
+    [V("h2 break: de-duplication helper keeps the LAST occurrence (re-orders)", "break", _T, _CFG_LOOP, "        _append_missing(all_config_paths, descriptor.config_paths)\n", "O13.2"),
+     V("", "break", _T, _LC_HEAD, _APPEND_HELPER.replace("        if candidate not in target:\n            target.append(candidate)\n", "        if candidate in target:\n            target.remove(candidate)\n        target.append(candidate)\n") + _LC_HEAD)],
+    V("h2 keep: lazy generator fed to extend (sees the list grow)", "keep", _T, _CFG_LOOP, "        all_config_paths.extend(p for p in descriptor.config_paths if p not in all_config_paths)\n"),
+    V("h2 break: list comprehension fed to extend (a base one car names twice is applied twice)", "break", _T, _CFG_LOOP, "        all_config_paths.extend([p for p in descriptor.config_paths if p not in all_config_paths])\n", "O13.2"),
+    V("h2 keep: dict.fromkeys de-duplication", "keep", _T, _CFG_LOOP, "        all_config_paths = list(dict.fromkeys(all_config_paths + list(descriptor.config_paths)))\n"),
+    V("h2 break: set de-duplication (order lost)", "break", _T, _CFG_LOOP, "        all_config_paths = list(set(all_config_paths) | set(descriptor.config_paths))\n", "O13.2"),
+    [V("h2 keep: descriptors loaded by a comprehension, dict displays as accumulators", "keep", _T, "    for n in name:\n        descriptor = CarLoader(repo).load_car(n, car_params)\n", "    for descriptor in [CarLoader(repo).load_car(n, car_params) for n in name]:\n"),
+     V("", "keep", _T, "        all_config_base_vars.update(descriptor.config_base_variables)\n        all_car_vars.update(descriptor.variables)\n",
+       "        all_config_base_vars = {**all_config_base_vars, **descriptor.config_base_variables}\n        all_car_vars = all_car_vars | descriptor.variables\n"),
+     V("", "keep", _T, "    variables.update(all_config_base_vars)\n    variables.update(all_car_vars)\n", "    variables = {**all_config_base_vars, **all_car_vars}\n")],
+    [V("h2 break: the same shape, earlier car wins", "break", _T, "    for n in name:\n        descriptor = CarLoader(repo).load_car(n, car_params)\n", "    for descriptor in [CarLoader(repo).load_car(n, car_params) for n in name]:\n", "O13.1"),
+     V("", "break", _T, "        all_config_base_vars.update(descriptor.config_base_variables)\n        all_car_vars.update(descriptor.variables)\n",
+       "        all_config_base_vars = {**all_config_base_vars, **descriptor.config_base_variables}\n        all_car_vars = descriptor.variables | all_car_vars\n")],
+    V("h2 break: enumerate over the reversed names", "break", _T, "    for n in name:\n        descriptor = CarLoader(repo).load_car(n, car_params)\n", "    for _i, n in enumerate(reversed(name)):\n        descriptor = CarLoader(repo).load_car(n, car_params)\n", "O13.1"),
+    [V("h2 keep (C13-b1): config bases resolved in a helper method", "keep", _T, _BASE_LOOP, "        root_paths, config_paths, config_base_vars = self._resolve_config_bases(config_base.split(\",\"))\n"),
+     V("", "keep", _T, _CFGLOADER_HEAD, _RESOLVE_HELPER + _CFGLOADER_HEAD)],
+    [V("h2 break: the helper visits the bases sorted by name", "break", _T, _BASE_LOOP, "        root_paths, config_paths, config_base_vars = self._resolve_config_bases(config_base.split(\",\"))\n", "O13.2"),
+     V("", "break", _T, _CFGLOADER_HEAD, _RESOLVE_HELPER.replace("for base in config_bases:", "for base in sorted(config_bases):") + _CFGLOADER_HEAD)],
+    [V("h2 break: the helper lets the FIRST base win", "break", _T, _BASE_LOOP, "        root_paths, config_paths, config_base_vars = self._resolve_config_bases(config_base.split(\",\"))\n", "O13"),
+     V("", "break", _T, _CFGLOADER_HEAD, _RESOLVE_HELPER.replace("self._copy_section(base_config, \"variables\", config_base_vars)", "config_base_vars = {**self._copy_section(base_config, \"variables\", {}), **config_base_vars}") + _CFGLOADER_HEAD)],
+    V("h2 keep: car parameters merged by a dict display", "keep", _T, "        variables = self._copy_section(config, \"variables\", {})\n        # add all car params here to override any defaults\n        if car_params:\n            variables.update(car_params)\n",
+      "        variables = {**self._copy_section(config, \"variables\", {}), **(car_params or {})}\n"),
+    V("h2 break: the car file wins over the car parameters in that display", "break", _T, "        variables = self._copy_section(config, \"variables\", {})\n        # add all car params here to override any defaults\n        if car_params:\n            variables.update(car_params)\n",
+      "        variables = {**(car_params or {}), **self._copy_section(config, \"variables\", {})}\n", "O13.1"),
+    V("h2 keep (C13-b3): extension table as a module-level frozenset", "keep", _P, "    return ext in [\".ini\", \".txt\", \".json\", \".yml\", \".yaml\", \".options\", \".properties\"]\n",
+      "    return ext in PLAIN_TEXT_EXTENSIONS\n\n\nPLAIN_TEXT_EXTENSIONS = frozenset({\".ini\", \".txt\", \".json\", \".yml\", \".yaml\", \".options\", \".properties\"})\n"),
+    V("h2 break: the module-level table lost .options", "break", _P, "    return ext in [\".ini\", \".txt\", \".json\", \".yml\", \".yaml\", \".options\", \".properties\"]\n",
+      "    return ext in PLAIN_TEXT_EXTENSIONS\n\n\nPLAIN_TEXT_EXTENSIONS = frozenset({\".ini\", \".txt\", \".json\", \".yml\", \".yaml\", \".properties\"})\n", "O13.3"),
+    V("h2 keep: text/binary decided by endswith on a tuple", "keep", _P, "    _, ext = io.splitext(file)\n    return ext in [\".ini\", \".txt\", \".json\", \".yml\", \".yaml\", \".options\", \".properties\"]\n",
+      "    return file.endswith((\".ini\", \".txt\", \".json\", \".yml\", \".yaml\", \".options\", \".properties\"))\n"),
+    V("h2 break: everything but .jar is text", "break", _P, "    return ext in [\".ini\", \".txt\", \".json\", \".yml\", \".yaml\", \".options\", \".properties\"]\n", "    return ext != \".jar\"\n", "O13.3"),
+    V("h2 keep: one loop over data paths and installation", "keep", _P, "        for path in data_paths:\n            delete_path(path)\n\n        delete_path(install_dir)\n", "        for path in [*data_paths, install_dir]:\n            delete_path(path)\n"),
+    V("h2 break: that loop skips the first data path", "break", _P, "        for path in data_paths:\n            delete_path(path)\n\n        delete_path(install_dir)\n", "        for path in [*data_paths[1:], install_dir]:\n            delete_path(path)\n", "O13.4"),
+    V("h2 break: the installation's parent directory is removed", "break", _P, "        delete_path(install_dir)\n", "        delete_path(os.path.dirname(install_dir))\n", "O13.4"),
+    [V("h2 keep: target path in a helper, rendered text in a local", "keep", _P, "            target_file = os.path.join(absolute_target_root, name)\n            if plain_text", "            target_file = _target_file(target_root_path, source_root_path, root, name)\n            if plain_text"),
+     V("", "keep", _P, "                with open(target_file, mode=\"a\", encoding=\"utf-8\") as f:\n                    f.write(_render_template(env, config_vars, source_file))\n",
+       "                rendered = _render_template(env, config_vars, source_file)\n                with open(target_file, \"a\", encoding=\"utf-8\") as f:\n                    f.write(rendered)\n"),
+     V("", "keep", _P, _AC_HEAD, _TARGET_HELPER + _AC_HEAD)],
+    [V("h2 break: the helper forgets the relative directory", "break", _P, "            target_file = os.path.join(absolute_target_root, name)\n            if plain_text", "            target_file = _target_file(target_root_path, source_root_path, root, name)\n            if plain_text", "O13.3"),
+     V("", "break", _P, _AC_HEAD, _TARGET_HELPER.replace("os.path.join(target_root, os.path.relpath(walked, source_root), name)", "os.path.join(target_root, name)") + _AC_HEAD)],
+    V("h2 break: the rendered text is written only when it is not blank (local + guard)", "break", _P, "                with open(target_file, mode=\"a\", encoding=\"utf-8\") as f:\n                    f.write(_render_template(env, config_vars, source_file))\n",
+      "                rendered = _render_template(env, config_vars, source_file)\n                if rendered.strip():\n                    with open(target_file, \"a\", encoding=\"utf-8\") as f:\n                        f.write(rendered)\n", "O13.3"),
+    V("h2 keep: the installer reports a copy of the car's config paths", "keep", _P, "        return self.car.config_paths\n", "        return list(self.car.config_paths)\n"),
+    V("h2 break: the installer reports them sorted", "break", _P, "        return self.car.config_paths\n", "        return sorted(self.car.config_paths, reverse=True)\n", "O13.3"),
+    [V("h2 keep: config bases applied by a helper method of the provisioner", "keep", _P, "        for p in self.es_installer.config_source_paths:\n            self.apply_config(p, target_root_path, provisioner_vars)\n", "        self._apply_all(self.es_installer.config_source_paths, target_root_path, provisioner_vars)\n"),
+     V("", "keep", _P, "    def _provisioner_variables(self):\n", "    def _apply_all(self, paths, target, variables):\n        for path in paths:\n            self.apply_config(path, target, variables)\n\n    def _provisioner_variables(self):\n")],
+    [V("h2 break: that helper stops after the first config base", "break", _P, "        for p in self.es_installer.config_source_paths:\n            self.apply_config(p, target_root_path, provisioner_vars)\n", "        self._apply_all(self.es_installer.config_source_paths, target_root_path, provisioner_vars)\n", "O13.3"),
+     V("", "break", _P, "    def _provisioner_variables(self):\n", "    def _apply_all(self, paths, target, variables):\n        for path in paths:\n            self.apply_config(path, target, variables)\n            break\n\n    def _provisioner_variables(self):\n")],
+    [V("h2 break: that helper lets the plugin variables through", "break", _P, "        for p in self.es_installer.config_source_paths:\n            self.apply_config(p, target_root_path, provisioner_vars)\n", "        self._apply_all(self.es_installer.config_source_paths, target_root_path, provisioner_vars)\n", "O13.5"),
+     V("", "break", _P, "    def _provisioner_variables(self):\n", "    def _apply_all(self, paths, target, variables):\n        for installer in self.plugin_installers:\n            variables = {**variables, **installer.variables}\n        for path in paths:\n            self.apply_config(path, target, variables)\n\n    def _provisioner_variables(self):\n")],
+    V("h2 keep: the renderer is renamed", "keep", _P, "_render_template(env, ", "_render_config(env, ", count=3),
+    [V("h2 keep: the newline is written by the callers instead of the renderer", "keep", _P, "        return template.render(variables) + \"\\n\"", "        return template.render(variables)"),
+     V("", "keep", _P, "                    f.write(_render_template(env, config_vars, source_file))\n", "                    f.write(_render_template(env, config_vars, source_file))\n                    f.write(\"\\n\")\n"),
+     V("", "keep", _P, "                            f.write(_render_template(env, self.config_vars, source_file))\n", "                            f.write(_render_template(env, self.config_vars, source_file))\n                            f.write(\"\\n\")\n")],
+    [V("h2 break: ... but the docker provisioner forgets it", "break", _P, "        return template.render(variables) + \"\\n\"", "        return template.render(variables)", "O13.3"),
+     V("", "break", _P, "                    f.write(_render_template(env, config_vars, source_file))\n", "                    f.write(_render_template(env, config_vars, source_file))\n                    f.write(\"\\n\")\n")],
+    V("h2 keep: EAFP lookup in CarLoader._value", "keep", _T, "            if not isinstance(current_cfg, str) and k in current_cfg:\n                current_cfg = current_cfg[k]\n            else:\n                return default\n",
+      "            if isinstance(current_cfg, str):\n                return default\n            try:\n                current_cfg = current_cfg[k]\n            except KeyError:\n                return default\n"),
+    [V("h2 keep: pathlib in the function that applies a config base", "keep", _P, "            target_file = os.path.join(absolute_target_root, name)\n            if plain_text", "            target_file = pathlib.Path(absolute_target_root) / name\n            if plain_text"),
+     V("", "keep", _P, "                with open(target_file, mode=\"a\", encoding=\"utf-8\") as f:\n                    f.write(_render_template(env, config_vars, source_file))\n",
+       "                with target_file.open(mode=\"a\", encoding=\"utf-8\") as f:\n                    f.write(_render_template(env, config_vars, source_file))\n"),
+     V("", "keep", _P, "import glob\n", "import glob\nimport pathlib\n")],
+    [V("h2 break: pathlib, write_text instead of appending", "break", _P, "            target_file = os.path.join(absolute_target_root, name)\n            if plain_text", "            target_file = pathlib.Path(absolute_target_root) / name\n            if plain_text", "O13.3"),
+     V("", "break", _P, "                with open(target_file, mode=\"a\", encoding=\"utf-8\") as f:\n                    f.write(_render_template(env, config_vars, source_file))\n",
+       "                target_file.write_text(_render_template(env, config_vars, source_file), encoding=\"utf-8\")\n"),
+     V("", "break", _P, "import glob\n", "import glob\nimport pathlib\n")],
+    [V("h2 keep: removal helper at module level under another name, suppress instead of try", "keep", _P,
+       "    def delete_path(p):\n        if os.path.exists(p):\n            try:\n                logger.debug(\"Deleting [%s].\", p)\n                shutil.rmtree(p)\n            except OSError:\n                logger.exception(\"Could not delete [%s]. Skipping...\", p)\n\n",
+       "    def delete_path(p):\n        _remove_tree(p, logger)\n\n"),
+     V("", "keep", _P, "def cleanup(preserve, install_dir, data_paths):\n", "def _remove_tree(p, logger):\n    if os.path.exists(p):\n        logger.debug(\"Deleting [%s].\", p)\n        with contextlib.suppress(OSError):\n            shutil.rmtree(p)\n\n\ndef cleanup(preserve, install_dir, data_paths):\n"),
+     V("", "keep", _P, "import glob\n", "import contextlib\nimport glob\n")],
+    [V("h2 break: suppress around the whole loop", "break", _P, "        for path in data_paths:\n            delete_path(path)\n\n        delete_path(install_dir)\n",
+       "        with contextlib.suppress(OSError):\n            for path in data_paths:\n                delete_path(path)\n            delete_path(install_dir)\n", "O13.4"),
+     V("", "break", _P, "            try:\n                logger.debug(\"Deleting [%s].\", p)\n                shutil.rmtree(p)\n            except OSError:\n                logger.exception(\"Could not delete [%s]. Skipping...\", p)\n",
+       "            logger.debug(\"Deleting [%s].\", p)\n            shutil.rmtree(p)\n"),
+     V("", "break", _P, "import glob\n", "import contextlib\nimport glob\n")],
+    V("h2 keep: installer variables through a ChainMap (first mapping wins)", "keep", _P, "        variables = {}\n        variables.update(self.car.variables)\n        variables.update(self.node_variables)\n        return variables",
+      "        import collections\n\n        return dict(collections.ChainMap(self.node_variables, self.car.variables))"),
+    V("h2 break: ChainMap with the car's variables first", "break", _P, "        variables = {}\n        variables.update(self.car.variables)\n        variables.update(self.node_variables)\n        return variables",
+      "        import collections\n\n        return dict(collections.ChainMap(self.car.variables, self.node_variables))", "O13"),
 ]
